@@ -39,6 +39,14 @@ theorem c08_clamp {c : ℝ} (h1 : -1 ≤ c) (h2 : c ≤ 1) : max (-(1:ℝ)) (min
   rw [min_eq_right h2, max_eq_right h1]
 
 
+/-- `copysign(τ², τ) ≥ 0` only for `τ ≥ 0` -/
+theorem c08_nonneg_of_copysign_sq {b : ℝ} (h : 0 ≤ VR.P.copysign (b ^ 2) b) : 0 ≤ b := by
+  by_contra hb
+  unfold VR.P.copysign at h
+  rw [if_neg hb, abs_of_nonneg (sq_nonneg b)] at h
+  have hb' : b < 0 := not_le.mp hb
+  nlinarith [mul_pos_of_neg_of_neg hb' hb']
+
 /-! ### `lorentz_tau` -/
 
 theorem c08_lorentz_tau_rhophi_eta_t (rho phi eta t : ℝ) (hs : 0 ≤ VR.lorentz_tau2.rhophi_eta_t rho phi eta t) :
@@ -692,7 +700,7 @@ theorem c08_lorentz_add_k_rhophi_eta_tau_xy_eta_t (coord11 coord12 coord13 coord
     VS.lorentz_add.k_rhophi_eta_tau_xy_eta_t coord11 coord12 coord13 coord14 coord21 coord22 coord23 coord24 = VR.lorentz_add.k_rhophi_eta_tau_xy_eta_t coord11 coord12 coord13 coord14 coord21 coord22 coord23 coord24 := by
   simp only [VS.lorentz_add.k_rhophi_eta_tau_xy_eta_t, VR.lorentz_add.k_rhophi_eta_tau_xy_eta_t, VS.spatial_add.rhophi_eta_xy_eta_eq, c08_lorentz_t_rhophi_eta_tau, VS.lorentz_t.xy_eta_t_eq, h0, VR.P.nanToNum_eq]
 
-theorem c08_lorentz_add_k_rhophi_eta_tau_xy_eta_tau (coord11 coord12 coord13 coord14 coord21 coord22 coord23 coord24 : ℝ) (h0 : 0 ≤ coord24) (h1 : 0 ≤ coord14) (hres : 0 ≤ (VR.lorentz_add.k_rhophi_eta_tau_xy_eta_tau coord11 coord12 coord13 coord14 coord21 coord22 coord23 coord24).2.2.2) :
+theorem c08_lorentz_add_k_rhophi_eta_tau_xy_eta_tau (coord11 coord12 coord13 coord14 coord21 coord22 coord23 coord24 : ℝ) (h0 : 0 ≤ coord14) (h1 : 0 ≤ coord24) (hres : 0 ≤ (VR.lorentz_add.k_rhophi_eta_tau_xy_eta_tau coord11 coord12 coord13 coord14 coord21 coord22 coord23 coord24).2.2.2) :
     VS.lorentz_add.k_rhophi_eta_tau_xy_eta_tau coord11 coord12 coord13 coord14 coord21 coord22 coord23 coord24 = VR.lorentz_add.k_rhophi_eta_tau_xy_eta_tau coord11 coord12 coord13 coord14 coord21 coord22 coord23 coord24 := by
   simp only [VR.lorentz_add.k_rhophi_eta_tau_xy_eta_tau] at hres
   simp only [VS.lorentz_add.k_rhophi_eta_tau_xy_eta_tau, VR.lorentz_add.k_rhophi_eta_tau_xy_eta_tau, VS.spatial_add.rhophi_eta_xy_eta_eq, c08_lorentz_t_rhophi_eta_tau, c08_lorentz_t_xy_eta_tau, c08_lorentz_tau_xy_z_t, h0, h1, VR.P.nanToNum_eq]
@@ -776,7 +784,7 @@ theorem c08_lorentz_add_k_rhophi_theta_tau_xy_eta_t (coord11 coord12 coord13 coo
     VS.lorentz_add.k_rhophi_theta_tau_xy_eta_t coord11 coord12 coord13 coord14 coord21 coord22 coord23 coord24 = VR.lorentz_add.k_rhophi_theta_tau_xy_eta_t coord11 coord12 coord13 coord14 coord21 coord22 coord23 coord24 := by
   simp only [VS.lorentz_add.k_rhophi_theta_tau_xy_eta_t, VR.lorentz_add.k_rhophi_theta_tau_xy_eta_t, VS.spatial_add.rhophi_theta_xy_eta_eq, c08_lorentz_t_rhophi_theta_tau, VS.lorentz_t.xy_eta_t_eq, h0, VR.P.nanToNum_eq]
 
-theorem c08_lorentz_add_k_rhophi_theta_tau_xy_eta_tau (coord11 coord12 coord13 coord14 coord21 coord22 coord23 coord24 : ℝ) (h0 : 0 ≤ coord24) (h1 : 0 ≤ coord14) (hres : 0 ≤ (VR.lorentz_add.k_rhophi_theta_tau_xy_eta_tau coord11 coord12 coord13 coord14 coord21 coord22 coord23 coord24).2.2.2) :
+theorem c08_lorentz_add_k_rhophi_theta_tau_xy_eta_tau (coord11 coord12 coord13 coord14 coord21 coord22 coord23 coord24 : ℝ) (h0 : 0 ≤ coord14) (h1 : 0 ≤ coord24) (hres : 0 ≤ (VR.lorentz_add.k_rhophi_theta_tau_xy_eta_tau coord11 coord12 coord13 coord14 coord21 coord22 coord23 coord24).2.2.2) :
     VS.lorentz_add.k_rhophi_theta_tau_xy_eta_tau coord11 coord12 coord13 coord14 coord21 coord22 coord23 coord24 = VR.lorentz_add.k_rhophi_theta_tau_xy_eta_tau coord11 coord12 coord13 coord14 coord21 coord22 coord23 coord24 := by
   simp only [VR.lorentz_add.k_rhophi_theta_tau_xy_eta_tau] at hres
   simp only [VS.lorentz_add.k_rhophi_theta_tau_xy_eta_tau, VR.lorentz_add.k_rhophi_theta_tau_xy_eta_tau, VS.spatial_add.rhophi_theta_xy_eta_eq, c08_lorentz_t_rhophi_theta_tau, c08_lorentz_t_xy_eta_tau, c08_lorentz_tau_xy_z_t, h0, h1, VR.P.nanToNum_eq]
@@ -1028,7 +1036,7 @@ theorem c08_lorentz_add_k_xy_theta_tau_xy_eta_t (coord11 coord12 coord13 coord14
     VS.lorentz_add.k_xy_theta_tau_xy_eta_t coord11 coord12 coord13 coord14 coord21 coord22 coord23 coord24 = VR.lorentz_add.k_xy_theta_tau_xy_eta_t coord11 coord12 coord13 coord14 coord21 coord22 coord23 coord24 := by
   simp only [VS.lorentz_add.k_xy_theta_tau_xy_eta_t, VR.lorentz_add.k_xy_theta_tau_xy_eta_t, VS.spatial_add.xy_theta_xy_eta_eq, c08_lorentz_t_xy_theta_tau, VS.lorentz_t.xy_eta_t_eq, h0, VR.P.nanToNum_eq]
 
-theorem c08_lorentz_add_k_xy_theta_tau_xy_eta_tau (coord11 coord12 coord13 coord14 coord21 coord22 coord23 coord24 : ℝ) (h0 : 0 ≤ coord24) (h1 : 0 ≤ coord14) (hres : 0 ≤ (VR.lorentz_add.k_xy_theta_tau_xy_eta_tau coord11 coord12 coord13 coord14 coord21 coord22 coord23 coord24).2.2.2) :
+theorem c08_lorentz_add_k_xy_theta_tau_xy_eta_tau (coord11 coord12 coord13 coord14 coord21 coord22 coord23 coord24 : ℝ) (h0 : 0 ≤ coord14) (h1 : 0 ≤ coord24) (hres : 0 ≤ (VR.lorentz_add.k_xy_theta_tau_xy_eta_tau coord11 coord12 coord13 coord14 coord21 coord22 coord23 coord24).2.2.2) :
     VS.lorentz_add.k_xy_theta_tau_xy_eta_tau coord11 coord12 coord13 coord14 coord21 coord22 coord23 coord24 = VR.lorentz_add.k_xy_theta_tau_xy_eta_tau coord11 coord12 coord13 coord14 coord21 coord22 coord23 coord24 := by
   simp only [VR.lorentz_add.k_xy_theta_tau_xy_eta_tau] at hres
   simp only [VS.lorentz_add.k_xy_theta_tau_xy_eta_tau, VR.lorentz_add.k_xy_theta_tau_xy_eta_tau, VS.spatial_add.xy_theta_xy_eta_eq, c08_lorentz_t_xy_theta_tau, c08_lorentz_t_xy_eta_tau, c08_lorentz_tau_xy_z_t, h0, h1, VR.P.nanToNum_eq]
@@ -1102,7 +1110,7 @@ theorem c08_lorentz_add_k_xy_z_tau_rhophi_z_t (coord11 coord12 coord13 coord14 c
     VS.lorentz_add.k_xy_z_tau_rhophi_z_t coord11 coord12 coord13 coord14 coord21 coord22 coord23 coord24 = VR.lorentz_add.k_xy_z_tau_rhophi_z_t coord11 coord12 coord13 coord14 coord21 coord22 coord23 coord24 := by
   simp only [VS.lorentz_add.k_xy_z_tau_rhophi_z_t, VR.lorentz_add.k_xy_z_tau_rhophi_z_t, VS.spatial_add.xy_z_rhophi_z_eq, c08_lorentz_t_xy_z_tau, VS.lorentz_t.rhophi_z_t_eq, h0, VR.P.nanToNum_eq]
 
-theorem c08_lorentz_add_k_xy_z_tau_rhophi_z_tau (coord11 coord12 coord13 coord14 coord21 coord22 coord23 coord24 : ℝ) (h0 : 0 ≤ coord24) (h1 : 0 ≤ coord14) (hres : 0 ≤ (VR.lorentz_add.k_xy_z_tau_rhophi_z_tau coord11 coord12 coord13 coord14 coord21 coord22 coord23 coord24).2.2.2) :
+theorem c08_lorentz_add_k_xy_z_tau_rhophi_z_tau (coord11 coord12 coord13 coord14 coord21 coord22 coord23 coord24 : ℝ) (h0 : 0 ≤ coord14) (h1 : 0 ≤ coord24) (hres : 0 ≤ (VR.lorentz_add.k_xy_z_tau_rhophi_z_tau coord11 coord12 coord13 coord14 coord21 coord22 coord23 coord24).2.2.2) :
     VS.lorentz_add.k_xy_z_tau_rhophi_z_tau coord11 coord12 coord13 coord14 coord21 coord22 coord23 coord24 = VR.lorentz_add.k_xy_z_tau_rhophi_z_tau coord11 coord12 coord13 coord14 coord21 coord22 coord23 coord24 := by
   simp only [VR.lorentz_add.k_xy_z_tau_rhophi_z_tau] at hres
   simp only [VS.lorentz_add.k_xy_z_tau_rhophi_z_tau, VR.lorentz_add.k_xy_z_tau_rhophi_z_tau, VS.spatial_add.xy_z_rhophi_z_eq, c08_lorentz_t_xy_z_tau, c08_lorentz_t_rhophi_z_tau, c08_lorentz_tau_xy_z_t, h0, h1, VR.P.nanToNum_eq]
@@ -1112,7 +1120,7 @@ theorem c08_lorentz_add_k_xy_z_tau_xy_eta_t (coord11 coord12 coord13 coord14 coo
     VS.lorentz_add.k_xy_z_tau_xy_eta_t coord11 coord12 coord13 coord14 coord21 coord22 coord23 coord24 = VR.lorentz_add.k_xy_z_tau_xy_eta_t coord11 coord12 coord13 coord14 coord21 coord22 coord23 coord24 := by
   simp only [VS.lorentz_add.k_xy_z_tau_xy_eta_t, VR.lorentz_add.k_xy_z_tau_xy_eta_t, VS.spatial_add.xy_z_xy_eta_eq, c08_lorentz_t_xy_z_tau, VS.lorentz_t.xy_eta_t_eq, h0, VR.P.nanToNum_eq]
 
-theorem c08_lorentz_add_k_xy_z_tau_xy_eta_tau (coord11 coord12 coord13 coord14 coord21 coord22 coord23 coord24 : ℝ) (h0 : 0 ≤ coord24) (h1 : 0 ≤ coord14) (hres : 0 ≤ (VR.lorentz_add.k_xy_z_tau_xy_eta_tau coord11 coord12 coord13 coord14 coord21 coord22 coord23 coord24).2.2.2) :
+theorem c08_lorentz_add_k_xy_z_tau_xy_eta_tau (coord11 coord12 coord13 coord14 coord21 coord22 coord23 coord24 : ℝ) (h0 : 0 ≤ coord14) (h1 : 0 ≤ coord24) (hres : 0 ≤ (VR.lorentz_add.k_xy_z_tau_xy_eta_tau coord11 coord12 coord13 coord14 coord21 coord22 coord23 coord24).2.2.2) :
     VS.lorentz_add.k_xy_z_tau_xy_eta_tau coord11 coord12 coord13 coord14 coord21 coord22 coord23 coord24 = VR.lorentz_add.k_xy_z_tau_xy_eta_tau coord11 coord12 coord13 coord14 coord21 coord22 coord23 coord24 := by
   simp only [VR.lorentz_add.k_xy_z_tau_xy_eta_tau] at hres
   simp only [VS.lorentz_add.k_xy_z_tau_xy_eta_tau, VR.lorentz_add.k_xy_z_tau_xy_eta_tau, VS.spatial_add.xy_z_xy_eta_eq, c08_lorentz_t_xy_z_tau, c08_lorentz_t_xy_eta_tau, c08_lorentz_tau_xy_z_t, h0, h1, VR.P.nanToNum_eq]
@@ -1122,7 +1130,7 @@ theorem c08_lorentz_add_k_xy_z_tau_xy_theta_t (coord11 coord12 coord13 coord14 c
     VS.lorentz_add.k_xy_z_tau_xy_theta_t coord11 coord12 coord13 coord14 coord21 coord22 coord23 coord24 = VR.lorentz_add.k_xy_z_tau_xy_theta_t coord11 coord12 coord13 coord14 coord21 coord22 coord23 coord24 := by
   simp only [VS.lorentz_add.k_xy_z_tau_xy_theta_t, VR.lorentz_add.k_xy_z_tau_xy_theta_t, VS.spatial_add.xy_z_xy_theta_eq, c08_lorentz_t_xy_z_tau, VS.lorentz_t.xy_theta_t_eq, h0, VR.P.nanToNum_eq]
 
-theorem c08_lorentz_add_k_xy_z_tau_xy_theta_tau (coord11 coord12 coord13 coord14 coord21 coord22 coord23 coord24 : ℝ) (h0 : 0 ≤ coord24) (h1 : 0 ≤ coord14) (hres : 0 ≤ (VR.lorentz_add.k_xy_z_tau_xy_theta_tau coord11 coord12 coord13 coord14 coord21 coord22 coord23 coord24).2.2.2) :
+theorem c08_lorentz_add_k_xy_z_tau_xy_theta_tau (coord11 coord12 coord13 coord14 coord21 coord22 coord23 coord24 : ℝ) (h0 : 0 ≤ coord14) (h1 : 0 ≤ coord24) (hres : 0 ≤ (VR.lorentz_add.k_xy_z_tau_xy_theta_tau coord11 coord12 coord13 coord14 coord21 coord22 coord23 coord24).2.2.2) :
     VS.lorentz_add.k_xy_z_tau_xy_theta_tau coord11 coord12 coord13 coord14 coord21 coord22 coord23 coord24 = VR.lorentz_add.k_xy_z_tau_xy_theta_tau coord11 coord12 coord13 coord14 coord21 coord22 coord23 coord24 := by
   simp only [VR.lorentz_add.k_xy_z_tau_xy_theta_tau] at hres
   simp only [VS.lorentz_add.k_xy_z_tau_xy_theta_tau, VR.lorentz_add.k_xy_z_tau_xy_theta_tau, VS.spatial_add.xy_z_xy_theta_eq, c08_lorentz_t_xy_z_tau, c08_lorentz_t_xy_theta_tau, c08_lorentz_tau_xy_z_t, h0, h1, VR.P.nanToNum_eq]
@@ -1964,7 +1972,7 @@ theorem c08_lorentz_dot_k_rhophi_eta_tau_rhophi_z_t (coord11 coord12 coord13 coo
     VS.lorentz_dot.k_rhophi_eta_tau_rhophi_z_t coord11 coord12 coord13 coord14 coord21 coord22 coord23 coord24 = VR.lorentz_dot.k_rhophi_eta_tau_rhophi_z_t coord11 coord12 coord13 coord14 coord21 coord22 coord23 coord24 := by
   simp only [VS.lorentz_dot.k_rhophi_eta_tau_rhophi_z_t, VR.lorentz_dot.k_rhophi_eta_tau_rhophi_z_t, c08_lorentz_t_rhophi_eta_tau, VS.lorentz_t.rhophi_z_t_eq, VS.spatial_dot.rhophi_eta_rhophi_z_eq, h0, VR.P.nanToNum_eq]
 
-theorem c08_lorentz_dot_k_rhophi_eta_tau_rhophi_z_tau (coord11 coord12 coord13 coord14 coord21 coord22 coord23 coord24 : ℝ) (h0 : 0 ≤ coord24) (h1 : 0 ≤ coord14) :
+theorem c08_lorentz_dot_k_rhophi_eta_tau_rhophi_z_tau (coord11 coord12 coord13 coord14 coord21 coord22 coord23 coord24 : ℝ) (h0 : 0 ≤ coord14) (h1 : 0 ≤ coord24) :
     VS.lorentz_dot.k_rhophi_eta_tau_rhophi_z_tau coord11 coord12 coord13 coord14 coord21 coord22 coord23 coord24 = VR.lorentz_dot.k_rhophi_eta_tau_rhophi_z_tau coord11 coord12 coord13 coord14 coord21 coord22 coord23 coord24 := by
   simp only [VS.lorentz_dot.k_rhophi_eta_tau_rhophi_z_tau, VR.lorentz_dot.k_rhophi_eta_tau_rhophi_z_tau, c08_lorentz_t_rhophi_eta_tau, c08_lorentz_t_rhophi_z_tau, VS.spatial_dot.rhophi_eta_rhophi_z_eq, h0, h1, VR.P.nanToNum_eq]
 
@@ -1972,7 +1980,7 @@ theorem c08_lorentz_dot_k_rhophi_eta_tau_xy_eta_t (coord11 coord12 coord13 coord
     VS.lorentz_dot.k_rhophi_eta_tau_xy_eta_t coord11 coord12 coord13 coord14 coord21 coord22 coord23 coord24 = VR.lorentz_dot.k_rhophi_eta_tau_xy_eta_t coord11 coord12 coord13 coord14 coord21 coord22 coord23 coord24 := by
   simp only [VS.lorentz_dot.k_rhophi_eta_tau_xy_eta_t, VR.lorentz_dot.k_rhophi_eta_tau_xy_eta_t, c08_lorentz_t_rhophi_eta_tau, VS.lorentz_t.xy_eta_t_eq, VS.spatial_dot.rhophi_eta_xy_eta_eq, h0, VR.P.nanToNum_eq]
 
-theorem c08_lorentz_dot_k_rhophi_eta_tau_xy_eta_tau (coord11 coord12 coord13 coord14 coord21 coord22 coord23 coord24 : ℝ) (h0 : 0 ≤ coord24) (h1 : 0 ≤ coord14) :
+theorem c08_lorentz_dot_k_rhophi_eta_tau_xy_eta_tau (coord11 coord12 coord13 coord14 coord21 coord22 coord23 coord24 : ℝ) (h0 : 0 ≤ coord14) (h1 : 0 ≤ coord24) :
     VS.lorentz_dot.k_rhophi_eta_tau_xy_eta_tau coord11 coord12 coord13 coord14 coord21 coord22 coord23 coord24 = VR.lorentz_dot.k_rhophi_eta_tau_xy_eta_tau coord11 coord12 coord13 coord14 coord21 coord22 coord23 coord24 := by
   simp only [VS.lorentz_dot.k_rhophi_eta_tau_xy_eta_tau, VR.lorentz_dot.k_rhophi_eta_tau_xy_eta_tau, c08_lorentz_t_rhophi_eta_tau, c08_lorentz_t_xy_eta_tau, VS.spatial_dot.rhophi_eta_xy_eta_eq, h0, h1, VR.P.nanToNum_eq]
 
@@ -1980,7 +1988,7 @@ theorem c08_lorentz_dot_k_rhophi_eta_tau_xy_theta_t (coord11 coord12 coord13 coo
     VS.lorentz_dot.k_rhophi_eta_tau_xy_theta_t coord11 coord12 coord13 coord14 coord21 coord22 coord23 coord24 = VR.lorentz_dot.k_rhophi_eta_tau_xy_theta_t coord11 coord12 coord13 coord14 coord21 coord22 coord23 coord24 := by
   simp only [VS.lorentz_dot.k_rhophi_eta_tau_xy_theta_t, VR.lorentz_dot.k_rhophi_eta_tau_xy_theta_t, c08_lorentz_t_rhophi_eta_tau, VS.lorentz_t.xy_theta_t_eq, VS.spatial_dot.rhophi_eta_xy_theta_eq, h0, VR.P.nanToNum_eq]
 
-theorem c08_lorentz_dot_k_rhophi_eta_tau_xy_theta_tau (coord11 coord12 coord13 coord14 coord21 coord22 coord23 coord24 : ℝ) (h0 : 0 ≤ coord24) (h1 : 0 ≤ coord14) :
+theorem c08_lorentz_dot_k_rhophi_eta_tau_xy_theta_tau (coord11 coord12 coord13 coord14 coord21 coord22 coord23 coord24 : ℝ) (h0 : 0 ≤ coord14) (h1 : 0 ≤ coord24) :
     VS.lorentz_dot.k_rhophi_eta_tau_xy_theta_tau coord11 coord12 coord13 coord14 coord21 coord22 coord23 coord24 = VR.lorentz_dot.k_rhophi_eta_tau_xy_theta_tau coord11 coord12 coord13 coord14 coord21 coord22 coord23 coord24 := by
   simp only [VS.lorentz_dot.k_rhophi_eta_tau_xy_theta_tau, VR.lorentz_dot.k_rhophi_eta_tau_xy_theta_tau, c08_lorentz_t_rhophi_eta_tau, c08_lorentz_t_xy_theta_tau, VS.spatial_dot.rhophi_eta_xy_theta_eq, h0, h1, VR.P.nanToNum_eq]
 
@@ -2324,7 +2332,7 @@ theorem c08_lorentz_dot_k_xy_z_tau_rhophi_z_t (coord11 coord12 coord13 coord14 c
     VS.lorentz_dot.k_xy_z_tau_rhophi_z_t coord11 coord12 coord13 coord14 coord21 coord22 coord23 coord24 = VR.lorentz_dot.k_xy_z_tau_rhophi_z_t coord11 coord12 coord13 coord14 coord21 coord22 coord23 coord24 := by
   simp only [VS.lorentz_dot.k_xy_z_tau_rhophi_z_t, VR.lorentz_dot.k_xy_z_tau_rhophi_z_t, c08_lorentz_t_xy_z_tau, VS.lorentz_t.rhophi_z_t_eq, VS.spatial_dot.xy_z_rhophi_z_eq, h0, VR.P.nanToNum_eq]
 
-theorem c08_lorentz_dot_k_xy_z_tau_rhophi_z_tau (coord11 coord12 coord13 coord14 coord21 coord22 coord23 coord24 : ℝ) (h0 : 0 ≤ coord24) (h1 : 0 ≤ coord14) :
+theorem c08_lorentz_dot_k_xy_z_tau_rhophi_z_tau (coord11 coord12 coord13 coord14 coord21 coord22 coord23 coord24 : ℝ) (h0 : 0 ≤ coord14) (h1 : 0 ≤ coord24) :
     VS.lorentz_dot.k_xy_z_tau_rhophi_z_tau coord11 coord12 coord13 coord14 coord21 coord22 coord23 coord24 = VR.lorentz_dot.k_xy_z_tau_rhophi_z_tau coord11 coord12 coord13 coord14 coord21 coord22 coord23 coord24 := by
   simp only [VS.lorentz_dot.k_xy_z_tau_rhophi_z_tau, VR.lorentz_dot.k_xy_z_tau_rhophi_z_tau, c08_lorentz_t_xy_z_tau, c08_lorentz_t_rhophi_z_tau, VS.spatial_dot.xy_z_rhophi_z_eq, h0, h1, VR.P.nanToNum_eq]
 
@@ -2332,7 +2340,7 @@ theorem c08_lorentz_dot_k_xy_z_tau_xy_eta_t (coord11 coord12 coord13 coord14 coo
     VS.lorentz_dot.k_xy_z_tau_xy_eta_t coord11 coord12 coord13 coord14 coord21 coord22 coord23 coord24 = VR.lorentz_dot.k_xy_z_tau_xy_eta_t coord11 coord12 coord13 coord14 coord21 coord22 coord23 coord24 := by
   simp only [VS.lorentz_dot.k_xy_z_tau_xy_eta_t, VR.lorentz_dot.k_xy_z_tau_xy_eta_t, c08_lorentz_t_xy_z_tau, VS.lorentz_t.xy_eta_t_eq, VS.spatial_dot.xy_z_xy_eta_eq, h0, VR.P.nanToNum_eq]
 
-theorem c08_lorentz_dot_k_xy_z_tau_xy_eta_tau (coord11 coord12 coord13 coord14 coord21 coord22 coord23 coord24 : ℝ) (h0 : 0 ≤ coord24) (h1 : 0 ≤ coord14) :
+theorem c08_lorentz_dot_k_xy_z_tau_xy_eta_tau (coord11 coord12 coord13 coord14 coord21 coord22 coord23 coord24 : ℝ) (h0 : 0 ≤ coord14) (h1 : 0 ≤ coord24) :
     VS.lorentz_dot.k_xy_z_tau_xy_eta_tau coord11 coord12 coord13 coord14 coord21 coord22 coord23 coord24 = VR.lorentz_dot.k_xy_z_tau_xy_eta_tau coord11 coord12 coord13 coord14 coord21 coord22 coord23 coord24 := by
   simp only [VS.lorentz_dot.k_xy_z_tau_xy_eta_tau, VR.lorentz_dot.k_xy_z_tau_xy_eta_tau, c08_lorentz_t_xy_z_tau, c08_lorentz_t_xy_eta_tau, VS.spatial_dot.xy_z_xy_eta_eq, h0, h1, VR.P.nanToNum_eq]
 
@@ -3154,7 +3162,7 @@ theorem c08_lorentz_subtract_k_rhophi_eta_tau_xy_eta_t (coord11 coord12 coord13 
     VS.lorentz_subtract.k_rhophi_eta_tau_xy_eta_t coord11 coord12 coord13 coord14 coord21 coord22 coord23 coord24 = VR.lorentz_subtract.k_rhophi_eta_tau_xy_eta_t coord11 coord12 coord13 coord14 coord21 coord22 coord23 coord24 := by
   simp only [VS.lorentz_subtract.k_rhophi_eta_tau_xy_eta_t, VR.lorentz_subtract.k_rhophi_eta_tau_xy_eta_t, VS.spatial_subtract.rhophi_eta_xy_eta_eq, c08_lorentz_t_rhophi_eta_tau, VS.lorentz_t.xy_eta_t_eq, h0, VR.P.nanToNum_eq]
 
-theorem c08_lorentz_subtract_k_rhophi_eta_tau_xy_eta_tau (coord11 coord12 coord13 coord14 coord21 coord22 coord23 coord24 : ℝ) (h0 : 0 ≤ coord24) (h1 : 0 ≤ coord14) (hres : 0 ≤ (VR.lorentz_subtract.k_rhophi_eta_tau_xy_eta_tau coord11 coord12 coord13 coord14 coord21 coord22 coord23 coord24).2.2.2) :
+theorem c08_lorentz_subtract_k_rhophi_eta_tau_xy_eta_tau (coord11 coord12 coord13 coord14 coord21 coord22 coord23 coord24 : ℝ) (h0 : 0 ≤ coord14) (h1 : 0 ≤ coord24) (hres : 0 ≤ (VR.lorentz_subtract.k_rhophi_eta_tau_xy_eta_tau coord11 coord12 coord13 coord14 coord21 coord22 coord23 coord24).2.2.2) :
     VS.lorentz_subtract.k_rhophi_eta_tau_xy_eta_tau coord11 coord12 coord13 coord14 coord21 coord22 coord23 coord24 = VR.lorentz_subtract.k_rhophi_eta_tau_xy_eta_tau coord11 coord12 coord13 coord14 coord21 coord22 coord23 coord24 := by
   simp only [VR.lorentz_subtract.k_rhophi_eta_tau_xy_eta_tau] at hres
   simp only [VS.lorentz_subtract.k_rhophi_eta_tau_xy_eta_tau, VR.lorentz_subtract.k_rhophi_eta_tau_xy_eta_tau, VS.spatial_subtract.rhophi_eta_xy_eta_eq, c08_lorentz_t_rhophi_eta_tau, c08_lorentz_t_xy_eta_tau, c08_lorentz_tau_xy_z_t, h0, h1, VR.P.nanToNum_eq]
@@ -3238,7 +3246,7 @@ theorem c08_lorentz_subtract_k_rhophi_theta_tau_xy_eta_t (coord11 coord12 coord1
     VS.lorentz_subtract.k_rhophi_theta_tau_xy_eta_t coord11 coord12 coord13 coord14 coord21 coord22 coord23 coord24 = VR.lorentz_subtract.k_rhophi_theta_tau_xy_eta_t coord11 coord12 coord13 coord14 coord21 coord22 coord23 coord24 := by
   simp only [VS.lorentz_subtract.k_rhophi_theta_tau_xy_eta_t, VR.lorentz_subtract.k_rhophi_theta_tau_xy_eta_t, VS.spatial_subtract.rhophi_theta_xy_eta_eq, c08_lorentz_t_rhophi_theta_tau, VS.lorentz_t.xy_eta_t_eq, h0, VR.P.nanToNum_eq]
 
-theorem c08_lorentz_subtract_k_rhophi_theta_tau_xy_eta_tau (coord11 coord12 coord13 coord14 coord21 coord22 coord23 coord24 : ℝ) (h0 : 0 ≤ coord24) (h1 : 0 ≤ coord14) (hres : 0 ≤ (VR.lorentz_subtract.k_rhophi_theta_tau_xy_eta_tau coord11 coord12 coord13 coord14 coord21 coord22 coord23 coord24).2.2.2) :
+theorem c08_lorentz_subtract_k_rhophi_theta_tau_xy_eta_tau (coord11 coord12 coord13 coord14 coord21 coord22 coord23 coord24 : ℝ) (h0 : 0 ≤ coord14) (h1 : 0 ≤ coord24) (hres : 0 ≤ (VR.lorentz_subtract.k_rhophi_theta_tau_xy_eta_tau coord11 coord12 coord13 coord14 coord21 coord22 coord23 coord24).2.2.2) :
     VS.lorentz_subtract.k_rhophi_theta_tau_xy_eta_tau coord11 coord12 coord13 coord14 coord21 coord22 coord23 coord24 = VR.lorentz_subtract.k_rhophi_theta_tau_xy_eta_tau coord11 coord12 coord13 coord14 coord21 coord22 coord23 coord24 := by
   simp only [VR.lorentz_subtract.k_rhophi_theta_tau_xy_eta_tau] at hres
   simp only [VS.lorentz_subtract.k_rhophi_theta_tau_xy_eta_tau, VR.lorentz_subtract.k_rhophi_theta_tau_xy_eta_tau, VS.spatial_subtract.rhophi_theta_xy_eta_eq, c08_lorentz_t_rhophi_theta_tau, c08_lorentz_t_xy_eta_tau, c08_lorentz_tau_xy_z_t, h0, h1, VR.P.nanToNum_eq]
@@ -3480,7 +3488,7 @@ theorem c08_lorentz_subtract_k_xy_theta_tau_rhophi_z_t (coord11 coord12 coord13 
     VS.lorentz_subtract.k_xy_theta_tau_rhophi_z_t coord11 coord12 coord13 coord14 coord21 coord22 coord23 coord24 = VR.lorentz_subtract.k_xy_theta_tau_rhophi_z_t coord11 coord12 coord13 coord14 coord21 coord22 coord23 coord24 := by
   simp only [VS.lorentz_subtract.k_xy_theta_tau_rhophi_z_t, VR.lorentz_subtract.k_xy_theta_tau_rhophi_z_t, VS.spatial_subtract.xy_theta_rhophi_z_eq, c08_lorentz_t_xy_theta_tau, VS.lorentz_t.rhophi_z_t_eq, h0, VR.P.nanToNum_eq]
 
-theorem c08_lorentz_subtract_k_xy_theta_tau_rhophi_z_tau (coord11 coord12 coord13 coord14 coord21 coord22 coord23 coord24 : ℝ) (h0 : 0 ≤ coord24) (h1 : 0 ≤ coord14) (hres : 0 ≤ (VR.lorentz_subtract.k_xy_theta_tau_rhophi_z_tau coord11 coord12 coord13 coord14 coord21 coord22 coord23 coord24).2.2.2) :
+theorem c08_lorentz_subtract_k_xy_theta_tau_rhophi_z_tau (coord11 coord12 coord13 coord14 coord21 coord22 coord23 coord24 : ℝ) (h0 : 0 ≤ coord14) (h1 : 0 ≤ coord24) (hres : 0 ≤ (VR.lorentz_subtract.k_xy_theta_tau_rhophi_z_tau coord11 coord12 coord13 coord14 coord21 coord22 coord23 coord24).2.2.2) :
     VS.lorentz_subtract.k_xy_theta_tau_rhophi_z_tau coord11 coord12 coord13 coord14 coord21 coord22 coord23 coord24 = VR.lorentz_subtract.k_xy_theta_tau_rhophi_z_tau coord11 coord12 coord13 coord14 coord21 coord22 coord23 coord24 := by
   simp only [VR.lorentz_subtract.k_xy_theta_tau_rhophi_z_tau] at hres
   simp only [VS.lorentz_subtract.k_xy_theta_tau_rhophi_z_tau, VR.lorentz_subtract.k_xy_theta_tau_rhophi_z_tau, VS.spatial_subtract.xy_theta_rhophi_z_eq, c08_lorentz_t_xy_theta_tau, c08_lorentz_t_rhophi_z_tau, c08_lorentz_tau_xy_z_t, h0, h1, VR.P.nanToNum_eq]
@@ -3490,7 +3498,7 @@ theorem c08_lorentz_subtract_k_xy_theta_tau_xy_eta_t (coord11 coord12 coord13 co
     VS.lorentz_subtract.k_xy_theta_tau_xy_eta_t coord11 coord12 coord13 coord14 coord21 coord22 coord23 coord24 = VR.lorentz_subtract.k_xy_theta_tau_xy_eta_t coord11 coord12 coord13 coord14 coord21 coord22 coord23 coord24 := by
   simp only [VS.lorentz_subtract.k_xy_theta_tau_xy_eta_t, VR.lorentz_subtract.k_xy_theta_tau_xy_eta_t, VS.spatial_subtract.xy_theta_xy_eta_eq, c08_lorentz_t_xy_theta_tau, VS.lorentz_t.xy_eta_t_eq, h0, VR.P.nanToNum_eq]
 
-theorem c08_lorentz_subtract_k_xy_theta_tau_xy_eta_tau (coord11 coord12 coord13 coord14 coord21 coord22 coord23 coord24 : ℝ) (h0 : 0 ≤ coord24) (h1 : 0 ≤ coord14) (hres : 0 ≤ (VR.lorentz_subtract.k_xy_theta_tau_xy_eta_tau coord11 coord12 coord13 coord14 coord21 coord22 coord23 coord24).2.2.2) :
+theorem c08_lorentz_subtract_k_xy_theta_tau_xy_eta_tau (coord11 coord12 coord13 coord14 coord21 coord22 coord23 coord24 : ℝ) (h0 : 0 ≤ coord14) (h1 : 0 ≤ coord24) (hres : 0 ≤ (VR.lorentz_subtract.k_xy_theta_tau_xy_eta_tau coord11 coord12 coord13 coord14 coord21 coord22 coord23 coord24).2.2.2) :
     VS.lorentz_subtract.k_xy_theta_tau_xy_eta_tau coord11 coord12 coord13 coord14 coord21 coord22 coord23 coord24 = VR.lorentz_subtract.k_xy_theta_tau_xy_eta_tau coord11 coord12 coord13 coord14 coord21 coord22 coord23 coord24 := by
   simp only [VR.lorentz_subtract.k_xy_theta_tau_xy_eta_tau] at hres
   simp only [VS.lorentz_subtract.k_xy_theta_tau_xy_eta_tau, VR.lorentz_subtract.k_xy_theta_tau_xy_eta_tau, VS.spatial_subtract.xy_theta_xy_eta_eq, c08_lorentz_t_xy_theta_tau, c08_lorentz_t_xy_eta_tau, c08_lorentz_tau_xy_z_t, h0, h1, VR.P.nanToNum_eq]
@@ -3574,7 +3582,7 @@ theorem c08_lorentz_subtract_k_xy_z_tau_xy_eta_t (coord11 coord12 coord13 coord1
     VS.lorentz_subtract.k_xy_z_tau_xy_eta_t coord11 coord12 coord13 coord14 coord21 coord22 coord23 coord24 = VR.lorentz_subtract.k_xy_z_tau_xy_eta_t coord11 coord12 coord13 coord14 coord21 coord22 coord23 coord24 := by
   simp only [VS.lorentz_subtract.k_xy_z_tau_xy_eta_t, VR.lorentz_subtract.k_xy_z_tau_xy_eta_t, VS.spatial_subtract.xy_z_xy_eta_eq, c08_lorentz_t_xy_z_tau, VS.lorentz_t.xy_eta_t_eq, h0, VR.P.nanToNum_eq]
 
-theorem c08_lorentz_subtract_k_xy_z_tau_xy_eta_tau (coord11 coord12 coord13 coord14 coord21 coord22 coord23 coord24 : ℝ) (h0 : 0 ≤ coord24) (h1 : 0 ≤ coord14) (hres : 0 ≤ (VR.lorentz_subtract.k_xy_z_tau_xy_eta_tau coord11 coord12 coord13 coord14 coord21 coord22 coord23 coord24).2.2.2) :
+theorem c08_lorentz_subtract_k_xy_z_tau_xy_eta_tau (coord11 coord12 coord13 coord14 coord21 coord22 coord23 coord24 : ℝ) (h0 : 0 ≤ coord14) (h1 : 0 ≤ coord24) (hres : 0 ≤ (VR.lorentz_subtract.k_xy_z_tau_xy_eta_tau coord11 coord12 coord13 coord14 coord21 coord22 coord23 coord24).2.2.2) :
     VS.lorentz_subtract.k_xy_z_tau_xy_eta_tau coord11 coord12 coord13 coord14 coord21 coord22 coord23 coord24 = VR.lorentz_subtract.k_xy_z_tau_xy_eta_tau coord11 coord12 coord13 coord14 coord21 coord22 coord23 coord24 := by
   simp only [VR.lorentz_subtract.k_xy_z_tau_xy_eta_tau] at hres
   simp only [VS.lorentz_subtract.k_xy_z_tau_xy_eta_tau, VR.lorentz_subtract.k_xy_z_tau_xy_eta_tau, VS.spatial_subtract.xy_z_xy_eta_eq, c08_lorentz_t_xy_z_tau, c08_lorentz_t_xy_eta_tau, c08_lorentz_tau_xy_z_t, h0, h1, VR.P.nanToNum_eq]
@@ -3647,7 +3655,7 @@ theorem c08_lorentz_deltaRapidityPhi2_k_rhophi_eta_tau_rhophi_z_t (coord11 coord
     VS.lorentz_deltaRapidityPhi2.k_rhophi_eta_tau_rhophi_z_t coord11 coord12 coord13 coord14 coord21 coord22 coord23 coord24 = VR.lorentz_deltaRapidityPhi2.k_rhophi_eta_tau_rhophi_z_t coord11 coord12 coord13 coord14 coord21 coord22 coord23 coord24 := by
   simp only [VS.lorentz_deltaRapidityPhi2.k_rhophi_eta_tau_rhophi_z_t, VR.lorentz_deltaRapidityPhi2.k_rhophi_eta_tau_rhophi_z_t, VS.planar_deltaphi.rhophi_rhophi_eq, c08_lorentz_rapidity_rhophi_eta_tau, VS.lorentz_rapidity.rhophi_z_t_eq, h0, VR.P.nanToNum_eq]
 
-theorem c08_lorentz_deltaRapidityPhi2_k_rhophi_eta_tau_rhophi_z_tau (coord11 coord12 coord13 coord14 coord21 coord22 coord23 coord24 : ℝ) (h0 : 0 ≤ coord24) (h1 : 0 ≤ coord14) :
+theorem c08_lorentz_deltaRapidityPhi2_k_rhophi_eta_tau_rhophi_z_tau (coord11 coord12 coord13 coord14 coord21 coord22 coord23 coord24 : ℝ) (h0 : 0 ≤ coord14) (h1 : 0 ≤ coord24) :
     VS.lorentz_deltaRapidityPhi2.k_rhophi_eta_tau_rhophi_z_tau coord11 coord12 coord13 coord14 coord21 coord22 coord23 coord24 = VR.lorentz_deltaRapidityPhi2.k_rhophi_eta_tau_rhophi_z_tau coord11 coord12 coord13 coord14 coord21 coord22 coord23 coord24 := by
   simp only [VS.lorentz_deltaRapidityPhi2.k_rhophi_eta_tau_rhophi_z_tau, VR.lorentz_deltaRapidityPhi2.k_rhophi_eta_tau_rhophi_z_tau, VS.planar_deltaphi.rhophi_rhophi_eq, c08_lorentz_rapidity_rhophi_eta_tau, c08_lorentz_rapidity_rhophi_z_tau, h0, h1, VR.P.nanToNum_eq]
 
@@ -3927,7 +3935,7 @@ theorem c08_lorentz_deltaRapidityPhi2_k_xy_theta_tau_rhophi_theta_t (coord11 coo
     VS.lorentz_deltaRapidityPhi2.k_xy_theta_tau_rhophi_theta_t coord11 coord12 coord13 coord14 coord21 coord22 coord23 coord24 = VR.lorentz_deltaRapidityPhi2.k_xy_theta_tau_rhophi_theta_t coord11 coord12 coord13 coord14 coord21 coord22 coord23 coord24 := by
   simp only [VS.lorentz_deltaRapidityPhi2.k_xy_theta_tau_rhophi_theta_t, VR.lorentz_deltaRapidityPhi2.k_xy_theta_tau_rhophi_theta_t, VS.planar_deltaphi.xy_rhophi_eq, c08_lorentz_rapidity_xy_theta_tau, VS.lorentz_rapidity.rhophi_theta_t_eq, h0, VR.P.nanToNum_eq]
 
-theorem c08_lorentz_deltaRapidityPhi2_k_xy_theta_tau_rhophi_theta_tau (coord11 coord12 coord13 coord14 coord21 coord22 coord23 coord24 : ℝ) (h0 : 0 ≤ coord24) (h1 : 0 ≤ coord14) :
+theorem c08_lorentz_deltaRapidityPhi2_k_xy_theta_tau_rhophi_theta_tau (coord11 coord12 coord13 coord14 coord21 coord22 coord23 coord24 : ℝ) (h0 : 0 ≤ coord14) (h1 : 0 ≤ coord24) :
     VS.lorentz_deltaRapidityPhi2.k_xy_theta_tau_rhophi_theta_tau coord11 coord12 coord13 coord14 coord21 coord22 coord23 coord24 = VR.lorentz_deltaRapidityPhi2.k_xy_theta_tau_rhophi_theta_tau coord11 coord12 coord13 coord14 coord21 coord22 coord23 coord24 := by
   simp only [VS.lorentz_deltaRapidityPhi2.k_xy_theta_tau_rhophi_theta_tau, VR.lorentz_deltaRapidityPhi2.k_xy_theta_tau_rhophi_theta_tau, VS.planar_deltaphi.xy_rhophi_eq, c08_lorentz_rapidity_xy_theta_tau, c08_lorentz_rapidity_rhophi_theta_tau, h0, h1, VR.P.nanToNum_eq]
 
@@ -4007,7 +4015,7 @@ theorem c08_lorentz_deltaRapidityPhi2_k_xy_z_tau_rhophi_z_t (coord11 coord12 coo
     VS.lorentz_deltaRapidityPhi2.k_xy_z_tau_rhophi_z_t coord11 coord12 coord13 coord14 coord21 coord22 coord23 coord24 = VR.lorentz_deltaRapidityPhi2.k_xy_z_tau_rhophi_z_t coord11 coord12 coord13 coord14 coord21 coord22 coord23 coord24 := by
   simp only [VS.lorentz_deltaRapidityPhi2.k_xy_z_tau_rhophi_z_t, VR.lorentz_deltaRapidityPhi2.k_xy_z_tau_rhophi_z_t, VS.planar_deltaphi.xy_rhophi_eq, c08_lorentz_rapidity_xy_z_tau, VS.lorentz_rapidity.rhophi_z_t_eq, h0, VR.P.nanToNum_eq]
 
-theorem c08_lorentz_deltaRapidityPhi2_k_xy_z_tau_rhophi_z_tau (coord11 coord12 coord13 coord14 coord21 coord22 coord23 coord24 : ℝ) (h0 : 0 ≤ coord24) (h1 : 0 ≤ coord14) :
+theorem c08_lorentz_deltaRapidityPhi2_k_xy_z_tau_rhophi_z_tau (coord11 coord12 coord13 coord14 coord21 coord22 coord23 coord24 : ℝ) (h0 : 0 ≤ coord14) (h1 : 0 ≤ coord24) :
     VS.lorentz_deltaRapidityPhi2.k_xy_z_tau_rhophi_z_tau coord11 coord12 coord13 coord14 coord21 coord22 coord23 coord24 = VR.lorentz_deltaRapidityPhi2.k_xy_z_tau_rhophi_z_tau coord11 coord12 coord13 coord14 coord21 coord22 coord23 coord24 := by
   simp only [VS.lorentz_deltaRapidityPhi2.k_xy_z_tau_rhophi_z_tau, VR.lorentz_deltaRapidityPhi2.k_xy_z_tau_rhophi_z_tau, VS.planar_deltaphi.xy_rhophi_eq, c08_lorentz_rapidity_xy_z_tau, c08_lorentz_rapidity_rhophi_z_tau, h0, h1, VR.P.nanToNum_eq]
 
@@ -4015,7 +4023,7 @@ theorem c08_lorentz_deltaRapidityPhi2_k_xy_z_tau_xy_eta_t (coord11 coord12 coord
     VS.lorentz_deltaRapidityPhi2.k_xy_z_tau_xy_eta_t coord11 coord12 coord13 coord14 coord21 coord22 coord23 coord24 = VR.lorentz_deltaRapidityPhi2.k_xy_z_tau_xy_eta_t coord11 coord12 coord13 coord14 coord21 coord22 coord23 coord24 := by
   simp only [VS.lorentz_deltaRapidityPhi2.k_xy_z_tau_xy_eta_t, VR.lorentz_deltaRapidityPhi2.k_xy_z_tau_xy_eta_t, VS.planar_deltaphi.xy_xy_eq, c08_lorentz_rapidity_xy_z_tau, VS.lorentz_rapidity.xy_eta_t_eq, h0, VR.P.nanToNum_eq]
 
-theorem c08_lorentz_deltaRapidityPhi2_k_xy_z_tau_xy_eta_tau (coord11 coord12 coord13 coord14 coord21 coord22 coord23 coord24 : ℝ) (h0 : 0 ≤ coord24) (h1 : 0 ≤ coord14) :
+theorem c08_lorentz_deltaRapidityPhi2_k_xy_z_tau_xy_eta_tau (coord11 coord12 coord13 coord14 coord21 coord22 coord23 coord24 : ℝ) (h0 : 0 ≤ coord14) (h1 : 0 ≤ coord24) :
     VS.lorentz_deltaRapidityPhi2.k_xy_z_tau_xy_eta_tau coord11 coord12 coord13 coord14 coord21 coord22 coord23 coord24 = VR.lorentz_deltaRapidityPhi2.k_xy_z_tau_xy_eta_tau coord11 coord12 coord13 coord14 coord21 coord22 coord23 coord24 := by
   simp only [VS.lorentz_deltaRapidityPhi2.k_xy_z_tau_xy_eta_tau, VR.lorentz_deltaRapidityPhi2.k_xy_z_tau_xy_eta_tau, VS.planar_deltaphi.xy_xy_eq, c08_lorentz_rapidity_xy_z_tau, c08_lorentz_rapidity_xy_eta_tau, h0, h1, VR.P.nanToNum_eq]
 
@@ -4082,7 +4090,7 @@ theorem c08_lorentz_deltaRapidityPhi_k_rhophi_eta_tau_rhophi_z_t (coord11 coord1
     VS.lorentz_deltaRapidityPhi.k_rhophi_eta_tau_rhophi_z_t coord11 coord12 coord13 coord14 coord21 coord22 coord23 coord24 = VR.lorentz_deltaRapidityPhi.k_rhophi_eta_tau_rhophi_z_t coord11 coord12 coord13 coord14 coord21 coord22 coord23 coord24 := by
   simp only [VS.lorentz_deltaRapidityPhi.k_rhophi_eta_tau_rhophi_z_t, VR.lorentz_deltaRapidityPhi.k_rhophi_eta_tau_rhophi_z_t, c08_lorentz_deltaRapidityPhi2_k_rhophi_eta_tau_rhophi_z_t, h0, VR.P.nanToNum_eq]
 
-theorem c08_lorentz_deltaRapidityPhi_k_rhophi_eta_tau_rhophi_z_tau (coord11 coord12 coord13 coord14 coord21 coord22 coord23 coord24 : ℝ) (h0 : 0 ≤ coord24) (h1 : 0 ≤ coord14) :
+theorem c08_lorentz_deltaRapidityPhi_k_rhophi_eta_tau_rhophi_z_tau (coord11 coord12 coord13 coord14 coord21 coord22 coord23 coord24 : ℝ) (h0 : 0 ≤ coord14) (h1 : 0 ≤ coord24) :
     VS.lorentz_deltaRapidityPhi.k_rhophi_eta_tau_rhophi_z_tau coord11 coord12 coord13 coord14 coord21 coord22 coord23 coord24 = VR.lorentz_deltaRapidityPhi.k_rhophi_eta_tau_rhophi_z_tau coord11 coord12 coord13 coord14 coord21 coord22 coord23 coord24 := by
   simp only [VS.lorentz_deltaRapidityPhi.k_rhophi_eta_tau_rhophi_z_tau, VR.lorentz_deltaRapidityPhi.k_rhophi_eta_tau_rhophi_z_tau, c08_lorentz_deltaRapidityPhi2_k_rhophi_eta_tau_rhophi_z_tau, h0, h1, VR.P.nanToNum_eq]
 
@@ -4362,7 +4370,7 @@ theorem c08_lorentz_deltaRapidityPhi_k_xy_theta_tau_rhophi_theta_t (coord11 coor
     VS.lorentz_deltaRapidityPhi.k_xy_theta_tau_rhophi_theta_t coord11 coord12 coord13 coord14 coord21 coord22 coord23 coord24 = VR.lorentz_deltaRapidityPhi.k_xy_theta_tau_rhophi_theta_t coord11 coord12 coord13 coord14 coord21 coord22 coord23 coord24 := by
   simp only [VS.lorentz_deltaRapidityPhi.k_xy_theta_tau_rhophi_theta_t, VR.lorentz_deltaRapidityPhi.k_xy_theta_tau_rhophi_theta_t, c08_lorentz_deltaRapidityPhi2_k_xy_theta_tau_rhophi_theta_t, h0, VR.P.nanToNum_eq]
 
-theorem c08_lorentz_deltaRapidityPhi_k_xy_theta_tau_rhophi_theta_tau (coord11 coord12 coord13 coord14 coord21 coord22 coord23 coord24 : ℝ) (h0 : 0 ≤ coord24) (h1 : 0 ≤ coord14) :
+theorem c08_lorentz_deltaRapidityPhi_k_xy_theta_tau_rhophi_theta_tau (coord11 coord12 coord13 coord14 coord21 coord22 coord23 coord24 : ℝ) (h0 : 0 ≤ coord14) (h1 : 0 ≤ coord24) :
     VS.lorentz_deltaRapidityPhi.k_xy_theta_tau_rhophi_theta_tau coord11 coord12 coord13 coord14 coord21 coord22 coord23 coord24 = VR.lorentz_deltaRapidityPhi.k_xy_theta_tau_rhophi_theta_tau coord11 coord12 coord13 coord14 coord21 coord22 coord23 coord24 := by
   simp only [VS.lorentz_deltaRapidityPhi.k_xy_theta_tau_rhophi_theta_tau, VR.lorentz_deltaRapidityPhi.k_xy_theta_tau_rhophi_theta_tau, c08_lorentz_deltaRapidityPhi2_k_xy_theta_tau_rhophi_theta_tau, h0, h1, VR.P.nanToNum_eq]
 
@@ -4442,7 +4450,7 @@ theorem c08_lorentz_deltaRapidityPhi_k_xy_z_tau_rhophi_z_t (coord11 coord12 coor
     VS.lorentz_deltaRapidityPhi.k_xy_z_tau_rhophi_z_t coord11 coord12 coord13 coord14 coord21 coord22 coord23 coord24 = VR.lorentz_deltaRapidityPhi.k_xy_z_tau_rhophi_z_t coord11 coord12 coord13 coord14 coord21 coord22 coord23 coord24 := by
   simp only [VS.lorentz_deltaRapidityPhi.k_xy_z_tau_rhophi_z_t, VR.lorentz_deltaRapidityPhi.k_xy_z_tau_rhophi_z_t, c08_lorentz_deltaRapidityPhi2_k_xy_z_tau_rhophi_z_t, h0, VR.P.nanToNum_eq]
 
-theorem c08_lorentz_deltaRapidityPhi_k_xy_z_tau_rhophi_z_tau (coord11 coord12 coord13 coord14 coord21 coord22 coord23 coord24 : ℝ) (h0 : 0 ≤ coord24) (h1 : 0 ≤ coord14) :
+theorem c08_lorentz_deltaRapidityPhi_k_xy_z_tau_rhophi_z_tau (coord11 coord12 coord13 coord14 coord21 coord22 coord23 coord24 : ℝ) (h0 : 0 ≤ coord14) (h1 : 0 ≤ coord24) :
     VS.lorentz_deltaRapidityPhi.k_xy_z_tau_rhophi_z_tau coord11 coord12 coord13 coord14 coord21 coord22 coord23 coord24 = VR.lorentz_deltaRapidityPhi.k_xy_z_tau_rhophi_z_tau coord11 coord12 coord13 coord14 coord21 coord22 coord23 coord24 := by
   simp only [VS.lorentz_deltaRapidityPhi.k_xy_z_tau_rhophi_z_tau, VR.lorentz_deltaRapidityPhi.k_xy_z_tau_rhophi_z_tau, c08_lorentz_deltaRapidityPhi2_k_xy_z_tau_rhophi_z_tau, h0, h1, VR.P.nanToNum_eq]
 
@@ -4450,7 +4458,7 @@ theorem c08_lorentz_deltaRapidityPhi_k_xy_z_tau_xy_eta_t (coord11 coord12 coord1
     VS.lorentz_deltaRapidityPhi.k_xy_z_tau_xy_eta_t coord11 coord12 coord13 coord14 coord21 coord22 coord23 coord24 = VR.lorentz_deltaRapidityPhi.k_xy_z_tau_xy_eta_t coord11 coord12 coord13 coord14 coord21 coord22 coord23 coord24 := by
   simp only [VS.lorentz_deltaRapidityPhi.k_xy_z_tau_xy_eta_t, VR.lorentz_deltaRapidityPhi.k_xy_z_tau_xy_eta_t, c08_lorentz_deltaRapidityPhi2_k_xy_z_tau_xy_eta_t, h0, VR.P.nanToNum_eq]
 
-theorem c08_lorentz_deltaRapidityPhi_k_xy_z_tau_xy_eta_tau (coord11 coord12 coord13 coord14 coord21 coord22 coord23 coord24 : ℝ) (h0 : 0 ≤ coord24) (h1 : 0 ≤ coord14) :
+theorem c08_lorentz_deltaRapidityPhi_k_xy_z_tau_xy_eta_tau (coord11 coord12 coord13 coord14 coord21 coord22 coord23 coord24 : ℝ) (h0 : 0 ≤ coord14) (h1 : 0 ≤ coord24) :
     VS.lorentz_deltaRapidityPhi.k_xy_z_tau_xy_eta_tau coord11 coord12 coord13 coord14 coord21 coord22 coord23 coord24 = VR.lorentz_deltaRapidityPhi.k_xy_z_tau_xy_eta_tau coord11 coord12 coord13 coord14 coord21 coord22 coord23 coord24 := by
   simp only [VS.lorentz_deltaRapidityPhi.k_xy_z_tau_xy_eta_tau, VR.lorentz_deltaRapidityPhi.k_xy_z_tau_xy_eta_tau, c08_lorentz_deltaRapidityPhi2_k_xy_z_tau_xy_eta_tau, h0, h1, VR.P.nanToNum_eq]
 
@@ -4469,5 +4477,1975 @@ theorem c08_lorentz_deltaRapidityPhi_k_xy_z_tau_xy_z_t (coord11 coord12 coord13 
 theorem c08_lorentz_deltaRapidityPhi_k_xy_z_tau_xy_z_tau (coord11 coord12 coord13 coord14 coord21 coord22 coord23 coord24 : ℝ) (h0 : 0 ≤ coord14) (h1 : 0 ≤ coord24) :
     VS.lorentz_deltaRapidityPhi.k_xy_z_tau_xy_z_tau coord11 coord12 coord13 coord14 coord21 coord22 coord23 coord24 = VR.lorentz_deltaRapidityPhi.k_xy_z_tau_xy_z_tau coord11 coord12 coord13 coord14 coord21 coord22 coord23 coord24 := by
   simp only [VS.lorentz_deltaRapidityPhi.k_xy_z_tau_xy_z_tau, VR.lorentz_deltaRapidityPhi.k_xy_z_tau_xy_z_tau, c08_lorentz_deltaRapidityPhi2_k_xy_z_tau_xy_z_tau, h0, h1, VR.P.nanToNum_eq]
+
+/-! ## Per-module theorems over ALL keys -/
+
+/-- `lorentz_tau`: all 12 keys -/
+theorem c08_lorentz_tau (k0 : Az) (k1 : Lon) (k2 : Tmp) (a0 a1 a2 a3 : ℝ)
+    (hs : 0 ≤ VR.lorentz_tau2.eval k0 k1 k2 a0 a1 a2 a3) :
+    VS.lorentz_tau.eval k0 k1 k2 a0 a1 a2 a3 =
+      VR.lorentz_tau.eval k0 k1 k2 a0 a1 a2 a3 := by
+  cases k0 <;> cases k1 <;> cases k2
+  · exact c08_lorentz_tau_xy_z_t a0 a1 a2 a3 hs
+  · exact VS.lorentz_tau.xy_z_tau_eq a0 a1 a2 a3
+  · exact c08_lorentz_tau_xy_theta_t a0 a1 a2 a3 hs
+  · exact VS.lorentz_tau.xy_theta_tau_eq a0 a1 a2 a3
+  · exact c08_lorentz_tau_xy_eta_t a0 a1 a2 a3 hs
+  · exact VS.lorentz_tau.xy_eta_tau_eq a0 a1 a2 a3
+  · exact c08_lorentz_tau_rhophi_z_t a0 a1 a2 a3 hs
+  · exact VS.lorentz_tau.rhophi_z_tau_eq a0 a1 a2 a3
+  · exact c08_lorentz_tau_rhophi_theta_t a0 a1 a2 a3 hs
+  · exact VS.lorentz_tau.rhophi_theta_tau_eq a0 a1 a2 a3
+  · exact c08_lorentz_tau_rhophi_eta_t a0 a1 a2 a3 hs
+  · exact VS.lorentz_tau.rhophi_eta_tau_eq a0 a1 a2 a3
+
+/-- `lorentz_tau2`: all 12 keys -/
+theorem c08_lorentz_tau2 (k0 : Az) (k1 : Lon) (k2 : Tmp) (a0 a1 a2 a3 : ℝ)
+    (hc3 : CanonTmp k2 a3) :
+    VS.lorentz_tau2.eval k0 k1 k2 a0 a1 a2 a3 =
+      VR.lorentz_tau2.eval k0 k1 k2 a0 a1 a2 a3 := by
+  cases k0 <;> cases k1 <;> cases k2
+  · exact VS.lorentz_tau2.xy_z_t_eq a0 a1 a2 a3
+  · exact c08_lorentz_tau2_xy_z_tau a0 a1 a2 a3 hc3
+  · exact VS.lorentz_tau2.xy_theta_t_eq a0 a1 a2 a3
+  · exact c08_lorentz_tau2_xy_theta_tau a0 a1 a2 a3 hc3
+  · exact VS.lorentz_tau2.xy_eta_t_eq a0 a1 a2 a3
+  · exact c08_lorentz_tau2_xy_eta_tau a0 a1 a2 a3 hc3
+  · exact VS.lorentz_tau2.rhophi_z_t_eq a0 a1 a2 a3
+  · exact c08_lorentz_tau2_rhophi_z_tau a0 a1 a2 a3 hc3
+  · exact VS.lorentz_tau2.rhophi_theta_t_eq a0 a1 a2 a3
+  · exact c08_lorentz_tau2_rhophi_theta_tau a0 a1 a2 a3 hc3
+  · exact VS.lorentz_tau2.rhophi_eta_t_eq a0 a1 a2 a3
+  · exact c08_lorentz_tau2_rhophi_eta_tau a0 a1 a2 a3 hc3
+
+/-- `lorentz_unit`: all 12 keys -/
+theorem c08_lorentz_unit (k0 : Az) (k1 : Lon) (k2 : Tmp) (a0 a1 a2 a3 : ℝ)
+    (hc3 : CanonTmp k2 a3) :
+    VS.lorentz_unit.eval k0 k1 k2 a0 a1 a2 a3 =
+      VR.lorentz_unit.eval k0 k1 k2 a0 a1 a2 a3 := by
+  cases k0 <;> cases k1 <;> cases k2
+  · exact VS.lorentz_unit.xy_z_t_eq a0 a1 a2 a3
+  · exact c08_lorentz_unit_xy_z_tau a0 a1 a2 a3 hc3
+  · exact VS.lorentz_unit.xy_theta_t_eq a0 a1 a2 a3
+  · exact c08_lorentz_unit_xy_theta_tau a0 a1 a2 a3 hc3
+  · exact VS.lorentz_unit.xy_eta_t_eq a0 a1 a2 a3
+  · exact c08_lorentz_unit_xy_eta_tau a0 a1 a2 a3 hc3
+  · exact VS.lorentz_unit.rhophi_z_t_eq a0 a1 a2 a3
+  · exact c08_lorentz_unit_rhophi_z_tau a0 a1 a2 a3 hc3
+  · exact VS.lorentz_unit.rhophi_theta_t_eq a0 a1 a2 a3
+  · exact c08_lorentz_unit_rhophi_theta_tau a0 a1 a2 a3 hc3
+  · exact VS.lorentz_unit.rhophi_eta_t_eq a0 a1 a2 a3
+  · exact c08_lorentz_unit_rhophi_eta_tau a0 a1 a2 a3 hc3
+
+/-- `planar_scale`: all 2 keys -/
+theorem c08_planar_scale (k0 : Az) (a0 a1 a2 : ℝ) :
+    VS.planar_scale.eval k0 a0 a1 a2 =
+      VR.planar_scale.eval k0 a0 a1 a2 := by
+  cases k0
+  · exact VS.planar_scale.xy_eq a0 a1 a2
+  · exact c08_planar_scale_rhophi a0 a1 a2
+
+/-- `spatial_deltaangle`: all 36 keys -/
+theorem c08_spatial_deltaangle (k0 : Az) (k1 : Lon) (k2 : Az) (k3 : Lon) (a0 a1 a2 a3 a4 a5 : ℝ)
+    (hlo : -1 ≤ VR.spatial_dot.eval k0 k1 k2 k3 a0 a1 a2 a3 a4 a5 / VR.spatial_mag.eval k0 k1 a0 a1 a2 / VR.spatial_mag.eval k2 k3 a3 a4 a5)
+    (hhi : VR.spatial_dot.eval k0 k1 k2 k3 a0 a1 a2 a3 a4 a5 / VR.spatial_mag.eval k0 k1 a0 a1 a2 / VR.spatial_mag.eval k2 k3 a3 a4 a5 ≤ 1) :
+    VS.spatial_deltaangle.eval k0 k1 k2 k3 a0 a1 a2 a3 a4 a5 =
+      VR.spatial_deltaangle.eval k0 k1 k2 k3 a0 a1 a2 a3 a4 a5 := by
+  cases k0 <;> cases k1 <;> cases k2 <;> cases k3
+  · exact c08_spatial_deltaangle_xy_z_xy_z a0 a1 a2 a3 a4 a5 hlo hhi
+  · exact c08_spatial_deltaangle_xy_z_xy_theta a0 a1 a2 a3 a4 a5 hlo hhi
+  · exact c08_spatial_deltaangle_xy_z_xy_eta a0 a1 a2 a3 a4 a5 hlo hhi
+  · exact c08_spatial_deltaangle_xy_z_rhophi_z a0 a1 a2 a3 a4 a5 hlo hhi
+  · exact c08_spatial_deltaangle_xy_z_rhophi_theta a0 a1 a2 a3 a4 a5 hlo hhi
+  · exact c08_spatial_deltaangle_xy_z_rhophi_eta a0 a1 a2 a3 a4 a5 hlo hhi
+  · exact c08_spatial_deltaangle_xy_theta_xy_z a0 a1 a2 a3 a4 a5 hlo hhi
+  · exact c08_spatial_deltaangle_xy_theta_xy_theta a0 a1 a2 a3 a4 a5 hlo hhi
+  · exact c08_spatial_deltaangle_xy_theta_xy_eta a0 a1 a2 a3 a4 a5 hlo hhi
+  · exact c08_spatial_deltaangle_xy_theta_rhophi_z a0 a1 a2 a3 a4 a5 hlo hhi
+  · exact c08_spatial_deltaangle_xy_theta_rhophi_theta a0 a1 a2 a3 a4 a5 hlo hhi
+  · exact c08_spatial_deltaangle_xy_theta_rhophi_eta a0 a1 a2 a3 a4 a5 hlo hhi
+  · exact c08_spatial_deltaangle_xy_eta_xy_z a0 a1 a2 a3 a4 a5 hlo hhi
+  · exact c08_spatial_deltaangle_xy_eta_xy_theta a0 a1 a2 a3 a4 a5 hlo hhi
+  · exact c08_spatial_deltaangle_xy_eta_xy_eta a0 a1 a2 a3 a4 a5 hlo hhi
+  · exact c08_spatial_deltaangle_xy_eta_rhophi_z a0 a1 a2 a3 a4 a5 hlo hhi
+  · exact c08_spatial_deltaangle_xy_eta_rhophi_theta a0 a1 a2 a3 a4 a5 hlo hhi
+  · exact c08_spatial_deltaangle_xy_eta_rhophi_eta a0 a1 a2 a3 a4 a5 hlo hhi
+  · exact c08_spatial_deltaangle_rhophi_z_xy_z a0 a1 a2 a3 a4 a5 hlo hhi
+  · exact c08_spatial_deltaangle_rhophi_z_xy_theta a0 a1 a2 a3 a4 a5 hlo hhi
+  · exact c08_spatial_deltaangle_rhophi_z_xy_eta a0 a1 a2 a3 a4 a5 hlo hhi
+  · exact c08_spatial_deltaangle_rhophi_z_rhophi_z a0 a1 a2 a3 a4 a5 hlo hhi
+  · exact c08_spatial_deltaangle_rhophi_z_rhophi_theta a0 a1 a2 a3 a4 a5 hlo hhi
+  · exact c08_spatial_deltaangle_rhophi_z_rhophi_eta a0 a1 a2 a3 a4 a5 hlo hhi
+  · exact c08_spatial_deltaangle_rhophi_theta_xy_z a0 a1 a2 a3 a4 a5 hlo hhi
+  · exact c08_spatial_deltaangle_rhophi_theta_xy_theta a0 a1 a2 a3 a4 a5 hlo hhi
+  · exact c08_spatial_deltaangle_rhophi_theta_xy_eta a0 a1 a2 a3 a4 a5 hlo hhi
+  · exact c08_spatial_deltaangle_rhophi_theta_rhophi_z a0 a1 a2 a3 a4 a5 hlo hhi
+  · exact c08_spatial_deltaangle_rhophi_theta_rhophi_theta a0 a1 a2 a3 a4 a5 hlo hhi
+  · exact c08_spatial_deltaangle_rhophi_theta_rhophi_eta a0 a1 a2 a3 a4 a5 hlo hhi
+  · exact c08_spatial_deltaangle_rhophi_eta_xy_z a0 a1 a2 a3 a4 a5 hlo hhi
+  · exact c08_spatial_deltaangle_rhophi_eta_xy_theta a0 a1 a2 a3 a4 a5 hlo hhi
+  · exact c08_spatial_deltaangle_rhophi_eta_xy_eta a0 a1 a2 a3 a4 a5 hlo hhi
+  · exact c08_spatial_deltaangle_rhophi_eta_rhophi_z a0 a1 a2 a3 a4 a5 hlo hhi
+  · exact c08_spatial_deltaangle_rhophi_eta_rhophi_theta a0 a1 a2 a3 a4 a5 hlo hhi
+  · exact c08_spatial_deltaangle_rhophi_eta_rhophi_eta a0 a1 a2 a3 a4 a5 hlo hhi
+
+/-- `spatial_scale`: all 6 keys -/
+theorem c08_spatial_scale (k0 : Az) (k1 : Lon) (a0 a1 a2 a3 : ℝ) :
+    VS.spatial_scale.eval k0 k1 a0 a1 a2 a3 =
+      VR.spatial_scale.eval k0 k1 a0 a1 a2 a3 := by
+  cases k0 <;> cases k1
+  · exact VS.spatial_scale.xy_z_eq a0 a1 a2 a3
+  · exact c08_spatial_scale_xy_theta a0 a1 a2 a3
+  · exact c08_spatial_scale_xy_eta a0 a1 a2 a3
+  · exact c08_spatial_scale_rhophi_z a0 a1 a2 a3
+  · exact c08_spatial_scale_rhophi_theta a0 a1 a2 a3
+  · exact c08_spatial_scale_rhophi_eta a0 a1 a2 a3
+
+/-- `lorentz_Mt2`: all 12 keys -/
+theorem c08_lorentz_Mt2 (k0 : Az) (k1 : Lon) (k2 : Tmp) (a0 a1 a2 a3 : ℝ)
+    (hc3 : CanonTmp k2 a3) :
+    VS.lorentz_Mt2.eval k0 k1 k2 a0 a1 a2 a3 =
+      VR.lorentz_Mt2.eval k0 k1 k2 a0 a1 a2 a3 := by
+  cases k0 <;> cases k1 <;> cases k2
+  · exact VS.lorentz_Mt2.xy_z_t_eq a0 a1 a2 a3
+  · exact c08_lorentz_Mt2_xy_z_tau a0 a1 a2 a3 hc3
+  · exact VS.lorentz_Mt2.xy_theta_t_eq a0 a1 a2 a3
+  · exact c08_lorentz_Mt2_xy_theta_tau a0 a1 a2 a3 hc3
+  · exact VS.lorentz_Mt2.xy_eta_t_eq a0 a1 a2 a3
+  · exact c08_lorentz_Mt2_xy_eta_tau a0 a1 a2 a3 hc3
+  · exact VS.lorentz_Mt2.rhophi_z_t_eq a0 a1 a2 a3
+  · exact c08_lorentz_Mt2_rhophi_z_tau a0 a1 a2 a3 hc3
+  · exact VS.lorentz_Mt2.rhophi_theta_t_eq a0 a1 a2 a3
+  · exact c08_lorentz_Mt2_rhophi_theta_tau a0 a1 a2 a3 hc3
+  · exact VS.lorentz_Mt2.rhophi_eta_t_eq a0 a1 a2 a3
+  · exact c08_lorentz_Mt2_rhophi_eta_tau a0 a1 a2 a3 hc3
+
+/-- `lorentz_scale`: all 12 keys -/
+theorem c08_lorentz_scale (k0 : Az) (k1 : Lon) (k2 : Tmp) (a0 a1 a2 a3 a4 : ℝ) :
+    VS.lorentz_scale.eval k0 k1 k2 a0 a1 a2 a3 a4 =
+      VR.lorentz_scale.eval k0 k1 k2 a0 a1 a2 a3 a4 := by
+  cases k0 <;> cases k1 <;> cases k2
+  · exact VS.lorentz_scale.xy_z_t_eq a0 a1 a2 a3 a4
+  · exact VS.lorentz_scale.xy_z_tau_eq a0 a1 a2 a3 a4
+  · exact c08_lorentz_scale_xy_theta_t a0 a1 a2 a3 a4
+  · exact c08_lorentz_scale_xy_theta_tau a0 a1 a2 a3 a4
+  · exact c08_lorentz_scale_xy_eta_t a0 a1 a2 a3 a4
+  · exact c08_lorentz_scale_xy_eta_tau a0 a1 a2 a3 a4
+  · exact c08_lorentz_scale_rhophi_z_t a0 a1 a2 a3 a4
+  · exact c08_lorentz_scale_rhophi_z_tau a0 a1 a2 a3 a4
+  · exact c08_lorentz_scale_rhophi_theta_t a0 a1 a2 a3 a4
+  · exact c08_lorentz_scale_rhophi_theta_tau a0 a1 a2 a3 a4
+  · exact c08_lorentz_scale_rhophi_eta_t a0 a1 a2 a3 a4
+  · exact c08_lorentz_scale_rhophi_eta_tau a0 a1 a2 a3 a4
+
+/-- `lorentz_t2`: all 12 keys -/
+theorem c08_lorentz_t2 (k0 : Az) (k1 : Lon) (k2 : Tmp) (a0 a1 a2 a3 : ℝ)
+    (hc3 : CanonTmp k2 a3) :
+    VS.lorentz_t2.eval k0 k1 k2 a0 a1 a2 a3 =
+      VR.lorentz_t2.eval k0 k1 k2 a0 a1 a2 a3 := by
+  cases k0 <;> cases k1 <;> cases k2
+  · exact VS.lorentz_t2.xy_z_t_eq a0 a1 a2 a3
+  · exact c08_lorentz_t2_xy_z_tau a0 a1 a2 a3 hc3
+  · exact VS.lorentz_t2.xy_theta_t_eq a0 a1 a2 a3
+  · exact c08_lorentz_t2_xy_theta_tau a0 a1 a2 a3 hc3
+  · exact VS.lorentz_t2.xy_eta_t_eq a0 a1 a2 a3
+  · exact c08_lorentz_t2_xy_eta_tau a0 a1 a2 a3 hc3
+  · exact VS.lorentz_t2.rhophi_z_t_eq a0 a1 a2 a3
+  · exact c08_lorentz_t2_rhophi_z_tau a0 a1 a2 a3 hc3
+  · exact VS.lorentz_t2.rhophi_theta_t_eq a0 a1 a2 a3
+  · exact c08_lorentz_t2_rhophi_theta_tau a0 a1 a2 a3 hc3
+  · exact VS.lorentz_t2.rhophi_eta_t_eq a0 a1 a2 a3
+  · exact c08_lorentz_t2_rhophi_eta_tau a0 a1 a2 a3 hc3
+
+/-- `lorentz_Mt`: all 12 keys -/
+theorem c08_lorentz_Mt (k0 : Az) (k1 : Lon) (k2 : Tmp) (a0 a1 a2 a3 : ℝ)
+    (hc3 : CanonTmp k2 a3) :
+    VS.lorentz_Mt.eval k0 k1 k2 a0 a1 a2 a3 =
+      VR.lorentz_Mt.eval k0 k1 k2 a0 a1 a2 a3 := by
+  cases k0 <;> cases k1 <;> cases k2
+  · exact VS.lorentz_Mt.xy_z_t_eq a0 a1 a2 a3
+  · exact c08_lorentz_Mt_xy_z_tau a0 a1 a2 a3 hc3
+  · exact VS.lorentz_Mt.xy_theta_t_eq a0 a1 a2 a3
+  · exact c08_lorentz_Mt_xy_theta_tau a0 a1 a2 a3 hc3
+  · exact VS.lorentz_Mt.xy_eta_t_eq a0 a1 a2 a3
+  · exact c08_lorentz_Mt_xy_eta_tau a0 a1 a2 a3 hc3
+  · exact VS.lorentz_Mt.rhophi_z_t_eq a0 a1 a2 a3
+  · exact c08_lorentz_Mt_rhophi_z_tau a0 a1 a2 a3 hc3
+  · exact VS.lorentz_Mt.rhophi_theta_t_eq a0 a1 a2 a3
+  · exact c08_lorentz_Mt_rhophi_theta_tau a0 a1 a2 a3 hc3
+  · exact VS.lorentz_Mt.rhophi_eta_t_eq a0 a1 a2 a3
+  · exact c08_lorentz_Mt_rhophi_eta_tau a0 a1 a2 a3 hc3
+
+/-- `lorentz_t`: all 12 keys -/
+theorem c08_lorentz_t (k0 : Az) (k1 : Lon) (k2 : Tmp) (a0 a1 a2 a3 : ℝ)
+    (hc3 : CanonTmp k2 a3) :
+    VS.lorentz_t.eval k0 k1 k2 a0 a1 a2 a3 =
+      VR.lorentz_t.eval k0 k1 k2 a0 a1 a2 a3 := by
+  cases k0 <;> cases k1 <;> cases k2
+  · exact VS.lorentz_t.xy_z_t_eq a0 a1 a2 a3
+  · exact c08_lorentz_t_xy_z_tau a0 a1 a2 a3 hc3
+  · exact VS.lorentz_t.xy_theta_t_eq a0 a1 a2 a3
+  · exact c08_lorentz_t_xy_theta_tau a0 a1 a2 a3 hc3
+  · exact VS.lorentz_t.xy_eta_t_eq a0 a1 a2 a3
+  · exact c08_lorentz_t_xy_eta_tau a0 a1 a2 a3 hc3
+  · exact VS.lorentz_t.rhophi_z_t_eq a0 a1 a2 a3
+  · exact c08_lorentz_t_rhophi_z_tau a0 a1 a2 a3 hc3
+  · exact VS.lorentz_t.rhophi_theta_t_eq a0 a1 a2 a3
+  · exact c08_lorentz_t_rhophi_theta_tau a0 a1 a2 a3 hc3
+  · exact VS.lorentz_t.rhophi_eta_t_eq a0 a1 a2 a3
+  · exact c08_lorentz_t_rhophi_eta_tau a0 a1 a2 a3 hc3
+
+/-- `lorentz_to_beta3`: all 12 keys -/
+theorem c08_lorentz_to_beta3 (k0 : Az) (k1 : Lon) (k2 : Tmp) (a0 a1 a2 a3 : ℝ)
+    (hc3 : CanonTmp k2 a3) :
+    VS.lorentz_to_beta3.eval k0 k1 k2 a0 a1 a2 a3 =
+      VR.lorentz_to_beta3.eval k0 k1 k2 a0 a1 a2 a3 := by
+  cases k0 <;> cases k1 <;> cases k2
+  · exact VS.lorentz_to_beta3.xy_z_t_eq a0 a1 a2 a3
+  · exact c08_lorentz_to_beta3_xy_z_tau a0 a1 a2 a3 hc3
+  · exact VS.lorentz_to_beta3.xy_theta_t_eq a0 a1 a2 a3
+  · exact c08_lorentz_to_beta3_xy_theta_tau a0 a1 a2 a3 hc3
+  · exact VS.lorentz_to_beta3.xy_eta_t_eq a0 a1 a2 a3
+  · exact c08_lorentz_to_beta3_xy_eta_tau a0 a1 a2 a3 hc3
+  · exact VS.lorentz_to_beta3.rhophi_z_t_eq a0 a1 a2 a3
+  · exact c08_lorentz_to_beta3_rhophi_z_tau a0 a1 a2 a3 hc3
+  · exact VS.lorentz_to_beta3.rhophi_theta_t_eq a0 a1 a2 a3
+  · exact c08_lorentz_to_beta3_rhophi_theta_tau a0 a1 a2 a3 hc3
+  · exact VS.lorentz_to_beta3.rhophi_eta_t_eq a0 a1 a2 a3
+  · exact c08_lorentz_to_beta3_rhophi_eta_tau a0 a1 a2 a3 hc3
+
+/-- `lorentz_transform4D`: all 12 keys -/
+theorem c08_lorentz_transform4D (k0 : Az) (k1 : Lon) (k2 : Tmp) (a0 a1 a2 a3 a4 a5 a6 a7 a8 a9 a10 a11 a12 a13 a14 a15 a16 a17 a18 a19 : ℝ)
+    (hc19 : CanonTmp k2 a19) :
+    VS.lorentz_transform4D.eval k0 k1 k2 a0 a1 a2 a3 a4 a5 a6 a7 a8 a9 a10 a11 a12 a13 a14 a15 a16 a17 a18 a19 =
+      VR.lorentz_transform4D.eval k0 k1 k2 a0 a1 a2 a3 a4 a5 a6 a7 a8 a9 a10 a11 a12 a13 a14 a15 a16 a17 a18 a19 := by
+  cases k0 <;> cases k1 <;> cases k2
+  · exact VS.lorentz_transform4D.cartesian_t_eq a0 a1 a2 a3 a4 a5 a6 a7 a8 a9 a10 a11 a12 a13 a14 a15 a16 a17 a18 a19
+  · exact c08_lorentz_transform4D_k_xy_z_tau a0 a1 a2 a3 a4 a5 a6 a7 a8 a9 a10 a11 a12 a13 a14 a15 a16 a17 a18 a19 hc19
+  · exact VS.lorentz_transform4D.k_xy_theta_t_eq a0 a1 a2 a3 a4 a5 a6 a7 a8 a9 a10 a11 a12 a13 a14 a15 a16 a17 a18 a19
+  · exact c08_lorentz_transform4D_k_xy_theta_tau a0 a1 a2 a3 a4 a5 a6 a7 a8 a9 a10 a11 a12 a13 a14 a15 a16 a17 a18 a19 hc19
+  · exact VS.lorentz_transform4D.k_xy_eta_t_eq a0 a1 a2 a3 a4 a5 a6 a7 a8 a9 a10 a11 a12 a13 a14 a15 a16 a17 a18 a19
+  · exact c08_lorentz_transform4D_k_xy_eta_tau a0 a1 a2 a3 a4 a5 a6 a7 a8 a9 a10 a11 a12 a13 a14 a15 a16 a17 a18 a19 hc19
+  · exact VS.lorentz_transform4D.k_rhophi_z_t_eq a0 a1 a2 a3 a4 a5 a6 a7 a8 a9 a10 a11 a12 a13 a14 a15 a16 a17 a18 a19
+  · exact c08_lorentz_transform4D_k_rhophi_z_tau a0 a1 a2 a3 a4 a5 a6 a7 a8 a9 a10 a11 a12 a13 a14 a15 a16 a17 a18 a19 hc19
+  · exact VS.lorentz_transform4D.k_rhophi_theta_t_eq a0 a1 a2 a3 a4 a5 a6 a7 a8 a9 a10 a11 a12 a13 a14 a15 a16 a17 a18 a19
+  · exact c08_lorentz_transform4D_k_rhophi_theta_tau a0 a1 a2 a3 a4 a5 a6 a7 a8 a9 a10 a11 a12 a13 a14 a15 a16 a17 a18 a19 hc19
+  · exact VS.lorentz_transform4D.k_rhophi_eta_t_eq a0 a1 a2 a3 a4 a5 a6 a7 a8 a9 a10 a11 a12 a13 a14 a15 a16 a17 a18 a19
+  · exact c08_lorentz_transform4D_k_rhophi_eta_tau a0 a1 a2 a3 a4 a5 a6 a7 a8 a9 a10 a11 a12 a13 a14 a15 a16 a17 a18 a19 hc19
+
+/-- `lorentz_Et`: all 12 keys -/
+theorem c08_lorentz_Et (k0 : Az) (k1 : Lon) (k2 : Tmp) (a0 a1 a2 a3 : ℝ)
+    (hc3 : CanonTmp k2 a3) :
+    VS.lorentz_Et.eval k0 k1 k2 a0 a1 a2 a3 =
+      VR.lorentz_Et.eval k0 k1 k2 a0 a1 a2 a3 := by
+  cases k0 <;> cases k1 <;> cases k2
+  · exact VS.lorentz_Et.xy_z_t_eq a0 a1 a2 a3
+  · exact c08_lorentz_Et_xy_z_tau a0 a1 a2 a3 hc3
+  · exact VS.lorentz_Et.xy_theta_t_eq a0 a1 a2 a3
+  · exact c08_lorentz_Et_xy_theta_tau a0 a1 a2 a3 hc3
+  · exact VS.lorentz_Et.xy_eta_t_eq a0 a1 a2 a3
+  · exact c08_lorentz_Et_xy_eta_tau a0 a1 a2 a3 hc3
+  · exact VS.lorentz_Et.rhophi_z_t_eq a0 a1 a2 a3
+  · exact c08_lorentz_Et_rhophi_z_tau a0 a1 a2 a3 hc3
+  · exact VS.lorentz_Et.rhophi_theta_t_eq a0 a1 a2 a3
+  · exact c08_lorentz_Et_rhophi_theta_tau a0 a1 a2 a3 hc3
+  · exact VS.lorentz_Et.rhophi_eta_t_eq a0 a1 a2 a3
+  · exact c08_lorentz_Et_rhophi_eta_tau a0 a1 a2 a3 hc3
+
+/-- `lorentz_Et2`: all 12 keys -/
+theorem c08_lorentz_Et2 (k0 : Az) (k1 : Lon) (k2 : Tmp) (a0 a1 a2 a3 : ℝ)
+    (hc3 : CanonTmp k2 a3) :
+    VS.lorentz_Et2.eval k0 k1 k2 a0 a1 a2 a3 =
+      VR.lorentz_Et2.eval k0 k1 k2 a0 a1 a2 a3 := by
+  cases k0 <;> cases k1 <;> cases k2
+  · exact VS.lorentz_Et2.xy_z_t_eq a0 a1 a2 a3
+  · exact c08_lorentz_Et2_xy_z_tau a0 a1 a2 a3 hc3
+  · exact VS.lorentz_Et2.xy_theta_t_eq a0 a1 a2 a3
+  · exact c08_lorentz_Et2_xy_theta_tau a0 a1 a2 a3 hc3
+  · exact VS.lorentz_Et2.xy_eta_t_eq a0 a1 a2 a3
+  · exact c08_lorentz_Et2_xy_eta_tau a0 a1 a2 a3 hc3
+  · exact VS.lorentz_Et2.rhophi_z_t_eq a0 a1 a2 a3
+  · exact c08_lorentz_Et2_rhophi_z_tau a0 a1 a2 a3 hc3
+  · exact VS.lorentz_Et2.rhophi_theta_t_eq a0 a1 a2 a3
+  · exact c08_lorentz_Et2_rhophi_theta_tau a0 a1 a2 a3 hc3
+  · exact VS.lorentz_Et2.rhophi_eta_t_eq a0 a1 a2 a3
+  · exact c08_lorentz_Et2_rhophi_eta_tau a0 a1 a2 a3 hc3
+
+/-- `lorentz_add`: all 144 keys -/
+theorem c08_lorentz_add (k0 : Az) (k1 : Lon) (k2 : Tmp) (k3 : Az) (k4 : Lon) (k5 : Tmp) (a0 a1 a2 a3 a4 a5 a6 a7 : ℝ)
+    (hc3 : CanonTmp k2 a3)
+    (hc7 : CanonTmp k5 a7)
+    (hres : k2 = .tau → k5 = .tau → 0 ≤ (VR.lorentz_add.eval k0 k1 k2 k3 k4 k5 a0 a1 a2 a3 a4 a5 a6 a7).2.2.2) :
+    VS.lorentz_add.eval k0 k1 k2 k3 k4 k5 a0 a1 a2 a3 a4 a5 a6 a7 =
+      VR.lorentz_add.eval k0 k1 k2 k3 k4 k5 a0 a1 a2 a3 a4 a5 a6 a7 := by
+  cases k0 <;> cases k1 <;> cases k2 <;> cases k3 <;> cases k4 <;> cases k5
+  · exact VS.lorentz_add.k_xy_z_t_xy_z_t_eq a0 a1 a2 a3 a4 a5 a6 a7
+  · exact c08_lorentz_add_k_xy_z_t_xy_z_tau a0 a1 a2 a3 a4 a5 a6 a7 hc7
+  · exact VS.lorentz_add.k_xy_z_t_xy_theta_t_eq a0 a1 a2 a3 a4 a5 a6 a7
+  · exact c08_lorentz_add_k_xy_z_t_xy_theta_tau a0 a1 a2 a3 a4 a5 a6 a7 hc7
+  · exact VS.lorentz_add.k_xy_z_t_xy_eta_t_eq a0 a1 a2 a3 a4 a5 a6 a7
+  · exact c08_lorentz_add_k_xy_z_t_xy_eta_tau a0 a1 a2 a3 a4 a5 a6 a7 hc7
+  · exact VS.lorentz_add.k_xy_z_t_rhophi_z_t_eq a0 a1 a2 a3 a4 a5 a6 a7
+  · exact c08_lorentz_add_k_xy_z_t_rhophi_z_tau a0 a1 a2 a3 a4 a5 a6 a7 hc7
+  · exact VS.lorentz_add.k_xy_z_t_rhophi_theta_t_eq a0 a1 a2 a3 a4 a5 a6 a7
+  · exact c08_lorentz_add_k_xy_z_t_rhophi_theta_tau a0 a1 a2 a3 a4 a5 a6 a7 hc7
+  · exact VS.lorentz_add.k_xy_z_t_rhophi_eta_t_eq a0 a1 a2 a3 a4 a5 a6 a7
+  · exact c08_lorentz_add_k_xy_z_t_rhophi_eta_tau a0 a1 a2 a3 a4 a5 a6 a7 hc7
+  · exact c08_lorentz_add_k_xy_z_tau_xy_z_t a0 a1 a2 a3 a4 a5 a6 a7 hc3
+  · exact c08_lorentz_add_k_xy_z_tau_xy_z_tau a0 a1 a2 a3 a4 a5 a6 a7 hc3 hc7 (hres rfl rfl)
+  · exact c08_lorentz_add_k_xy_z_tau_xy_theta_t a0 a1 a2 a3 a4 a5 a6 a7 hc3
+  · exact c08_lorentz_add_k_xy_z_tau_xy_theta_tau a0 a1 a2 a3 a4 a5 a6 a7 hc3 hc7 (hres rfl rfl)
+  · exact c08_lorentz_add_k_xy_z_tau_xy_eta_t a0 a1 a2 a3 a4 a5 a6 a7 hc3
+  · exact c08_lorentz_add_k_xy_z_tau_xy_eta_tau a0 a1 a2 a3 a4 a5 a6 a7 hc3 hc7 (hres rfl rfl)
+  · exact c08_lorentz_add_k_xy_z_tau_rhophi_z_t a0 a1 a2 a3 a4 a5 a6 a7 hc3
+  · exact c08_lorentz_add_k_xy_z_tau_rhophi_z_tau a0 a1 a2 a3 a4 a5 a6 a7 hc3 hc7 (hres rfl rfl)
+  · exact c08_lorentz_add_k_xy_z_tau_rhophi_theta_t a0 a1 a2 a3 a4 a5 a6 a7 hc3
+  · exact c08_lorentz_add_k_xy_z_tau_rhophi_theta_tau a0 a1 a2 a3 a4 a5 a6 a7 hc3 hc7 (hres rfl rfl)
+  · exact c08_lorentz_add_k_xy_z_tau_rhophi_eta_t a0 a1 a2 a3 a4 a5 a6 a7 hc3
+  · exact c08_lorentz_add_k_xy_z_tau_rhophi_eta_tau a0 a1 a2 a3 a4 a5 a6 a7 hc3 hc7 (hres rfl rfl)
+  · exact VS.lorentz_add.k_xy_theta_t_xy_z_t_eq a0 a1 a2 a3 a4 a5 a6 a7
+  · exact c08_lorentz_add_k_xy_theta_t_xy_z_tau a0 a1 a2 a3 a4 a5 a6 a7 hc7
+  · exact VS.lorentz_add.k_xy_theta_t_xy_theta_t_eq a0 a1 a2 a3 a4 a5 a6 a7
+  · exact c08_lorentz_add_k_xy_theta_t_xy_theta_tau a0 a1 a2 a3 a4 a5 a6 a7 hc7
+  · exact VS.lorentz_add.k_xy_theta_t_xy_eta_t_eq a0 a1 a2 a3 a4 a5 a6 a7
+  · exact c08_lorentz_add_k_xy_theta_t_xy_eta_tau a0 a1 a2 a3 a4 a5 a6 a7 hc7
+  · exact VS.lorentz_add.k_xy_theta_t_rhophi_z_t_eq a0 a1 a2 a3 a4 a5 a6 a7
+  · exact c08_lorentz_add_k_xy_theta_t_rhophi_z_tau a0 a1 a2 a3 a4 a5 a6 a7 hc7
+  · exact VS.lorentz_add.k_xy_theta_t_rhophi_theta_t_eq a0 a1 a2 a3 a4 a5 a6 a7
+  · exact c08_lorentz_add_k_xy_theta_t_rhophi_theta_tau a0 a1 a2 a3 a4 a5 a6 a7 hc7
+  · exact VS.lorentz_add.k_xy_theta_t_rhophi_eta_t_eq a0 a1 a2 a3 a4 a5 a6 a7
+  · exact c08_lorentz_add_k_xy_theta_t_rhophi_eta_tau a0 a1 a2 a3 a4 a5 a6 a7 hc7
+  · exact c08_lorentz_add_k_xy_theta_tau_xy_z_t a0 a1 a2 a3 a4 a5 a6 a7 hc3
+  · exact c08_lorentz_add_k_xy_theta_tau_xy_z_tau a0 a1 a2 a3 a4 a5 a6 a7 hc3 hc7 (hres rfl rfl)
+  · exact c08_lorentz_add_k_xy_theta_tau_xy_theta_t a0 a1 a2 a3 a4 a5 a6 a7 hc3
+  · exact c08_lorentz_add_k_xy_theta_tau_xy_theta_tau a0 a1 a2 a3 a4 a5 a6 a7 hc3 hc7 (hres rfl rfl)
+  · exact c08_lorentz_add_k_xy_theta_tau_xy_eta_t a0 a1 a2 a3 a4 a5 a6 a7 hc3
+  · exact c08_lorentz_add_k_xy_theta_tau_xy_eta_tau a0 a1 a2 a3 a4 a5 a6 a7 hc3 hc7 (hres rfl rfl)
+  · exact c08_lorentz_add_k_xy_theta_tau_rhophi_z_t a0 a1 a2 a3 a4 a5 a6 a7 hc3
+  · exact c08_lorentz_add_k_xy_theta_tau_rhophi_z_tau a0 a1 a2 a3 a4 a5 a6 a7 hc3 hc7 (hres rfl rfl)
+  · exact c08_lorentz_add_k_xy_theta_tau_rhophi_theta_t a0 a1 a2 a3 a4 a5 a6 a7 hc3
+  · exact c08_lorentz_add_k_xy_theta_tau_rhophi_theta_tau a0 a1 a2 a3 a4 a5 a6 a7 hc3 hc7 (hres rfl rfl)
+  · exact c08_lorentz_add_k_xy_theta_tau_rhophi_eta_t a0 a1 a2 a3 a4 a5 a6 a7 hc3
+  · exact c08_lorentz_add_k_xy_theta_tau_rhophi_eta_tau a0 a1 a2 a3 a4 a5 a6 a7 hc3 hc7 (hres rfl rfl)
+  · exact VS.lorentz_add.k_xy_eta_t_xy_z_t_eq a0 a1 a2 a3 a4 a5 a6 a7
+  · exact c08_lorentz_add_k_xy_eta_t_xy_z_tau a0 a1 a2 a3 a4 a5 a6 a7 hc7
+  · exact VS.lorentz_add.k_xy_eta_t_xy_theta_t_eq a0 a1 a2 a3 a4 a5 a6 a7
+  · exact c08_lorentz_add_k_xy_eta_t_xy_theta_tau a0 a1 a2 a3 a4 a5 a6 a7 hc7
+  · exact VS.lorentz_add.k_xy_eta_t_xy_eta_t_eq a0 a1 a2 a3 a4 a5 a6 a7
+  · exact c08_lorentz_add_k_xy_eta_t_xy_eta_tau a0 a1 a2 a3 a4 a5 a6 a7 hc7
+  · exact VS.lorentz_add.k_xy_eta_t_rhophi_z_t_eq a0 a1 a2 a3 a4 a5 a6 a7
+  · exact c08_lorentz_add_k_xy_eta_t_rhophi_z_tau a0 a1 a2 a3 a4 a5 a6 a7 hc7
+  · exact VS.lorentz_add.k_xy_eta_t_rhophi_theta_t_eq a0 a1 a2 a3 a4 a5 a6 a7
+  · exact c08_lorentz_add_k_xy_eta_t_rhophi_theta_tau a0 a1 a2 a3 a4 a5 a6 a7 hc7
+  · exact VS.lorentz_add.k_xy_eta_t_rhophi_eta_t_eq a0 a1 a2 a3 a4 a5 a6 a7
+  · exact c08_lorentz_add_k_xy_eta_t_rhophi_eta_tau a0 a1 a2 a3 a4 a5 a6 a7 hc7
+  · exact c08_lorentz_add_k_xy_eta_tau_xy_z_t a0 a1 a2 a3 a4 a5 a6 a7 hc3
+  · exact c08_lorentz_add_k_xy_eta_tau_xy_z_tau a0 a1 a2 a3 a4 a5 a6 a7 hc3 hc7 (hres rfl rfl)
+  · exact c08_lorentz_add_k_xy_eta_tau_xy_theta_t a0 a1 a2 a3 a4 a5 a6 a7 hc3
+  · exact c08_lorentz_add_k_xy_eta_tau_xy_theta_tau a0 a1 a2 a3 a4 a5 a6 a7 hc3 hc7 (hres rfl rfl)
+  · exact c08_lorentz_add_k_xy_eta_tau_xy_eta_t a0 a1 a2 a3 a4 a5 a6 a7 hc3
+  · exact c08_lorentz_add_k_xy_eta_tau_xy_eta_tau a0 a1 a2 a3 a4 a5 a6 a7 hc3 hc7 (hres rfl rfl)
+  · exact c08_lorentz_add_k_xy_eta_tau_rhophi_z_t a0 a1 a2 a3 a4 a5 a6 a7 hc3
+  · exact c08_lorentz_add_k_xy_eta_tau_rhophi_z_tau a0 a1 a2 a3 a4 a5 a6 a7 hc3 hc7 (hres rfl rfl)
+  · exact c08_lorentz_add_k_xy_eta_tau_rhophi_theta_t a0 a1 a2 a3 a4 a5 a6 a7 hc3
+  · exact c08_lorentz_add_k_xy_eta_tau_rhophi_theta_tau a0 a1 a2 a3 a4 a5 a6 a7 hc3 hc7 (hres rfl rfl)
+  · exact c08_lorentz_add_k_xy_eta_tau_rhophi_eta_t a0 a1 a2 a3 a4 a5 a6 a7 hc3
+  · exact c08_lorentz_add_k_xy_eta_tau_rhophi_eta_tau a0 a1 a2 a3 a4 a5 a6 a7 hc3 hc7 (hres rfl rfl)
+  · exact VS.lorentz_add.k_rhophi_z_t_xy_z_t_eq a0 a1 a2 a3 a4 a5 a6 a7
+  · exact c08_lorentz_add_k_rhophi_z_t_xy_z_tau a0 a1 a2 a3 a4 a5 a6 a7 hc7
+  · exact VS.lorentz_add.k_rhophi_z_t_xy_theta_t_eq a0 a1 a2 a3 a4 a5 a6 a7
+  · exact c08_lorentz_add_k_rhophi_z_t_xy_theta_tau a0 a1 a2 a3 a4 a5 a6 a7 hc7
+  · exact VS.lorentz_add.k_rhophi_z_t_xy_eta_t_eq a0 a1 a2 a3 a4 a5 a6 a7
+  · exact c08_lorentz_add_k_rhophi_z_t_xy_eta_tau a0 a1 a2 a3 a4 a5 a6 a7 hc7
+  · exact VS.lorentz_add.k_rhophi_z_t_rhophi_z_t_eq a0 a1 a2 a3 a4 a5 a6 a7
+  · exact c08_lorentz_add_k_rhophi_z_t_rhophi_z_tau a0 a1 a2 a3 a4 a5 a6 a7 hc7
+  · exact VS.lorentz_add.k_rhophi_z_t_rhophi_theta_t_eq a0 a1 a2 a3 a4 a5 a6 a7
+  · exact c08_lorentz_add_k_rhophi_z_t_rhophi_theta_tau a0 a1 a2 a3 a4 a5 a6 a7 hc7
+  · exact VS.lorentz_add.k_rhophi_z_t_rhophi_eta_t_eq a0 a1 a2 a3 a4 a5 a6 a7
+  · exact c08_lorentz_add_k_rhophi_z_t_rhophi_eta_tau a0 a1 a2 a3 a4 a5 a6 a7 hc7
+  · exact c08_lorentz_add_k_rhophi_z_tau_xy_z_t a0 a1 a2 a3 a4 a5 a6 a7 hc3
+  · exact c08_lorentz_add_k_rhophi_z_tau_xy_z_tau a0 a1 a2 a3 a4 a5 a6 a7 hc3 hc7 (hres rfl rfl)
+  · exact c08_lorentz_add_k_rhophi_z_tau_xy_theta_t a0 a1 a2 a3 a4 a5 a6 a7 hc3
+  · exact c08_lorentz_add_k_rhophi_z_tau_xy_theta_tau a0 a1 a2 a3 a4 a5 a6 a7 hc3 hc7 (hres rfl rfl)
+  · exact c08_lorentz_add_k_rhophi_z_tau_xy_eta_t a0 a1 a2 a3 a4 a5 a6 a7 hc3
+  · exact c08_lorentz_add_k_rhophi_z_tau_xy_eta_tau a0 a1 a2 a3 a4 a5 a6 a7 hc3 hc7 (hres rfl rfl)
+  · exact c08_lorentz_add_k_rhophi_z_tau_rhophi_z_t a0 a1 a2 a3 a4 a5 a6 a7 hc3
+  · exact c08_lorentz_add_k_rhophi_z_tau_rhophi_z_tau a0 a1 a2 a3 a4 a5 a6 a7 hc3 hc7 (hres rfl rfl)
+  · exact c08_lorentz_add_k_rhophi_z_tau_rhophi_theta_t a0 a1 a2 a3 a4 a5 a6 a7 hc3
+  · exact c08_lorentz_add_k_rhophi_z_tau_rhophi_theta_tau a0 a1 a2 a3 a4 a5 a6 a7 hc3 hc7 (hres rfl rfl)
+  · exact c08_lorentz_add_k_rhophi_z_tau_rhophi_eta_t a0 a1 a2 a3 a4 a5 a6 a7 hc3
+  · exact c08_lorentz_add_k_rhophi_z_tau_rhophi_eta_tau a0 a1 a2 a3 a4 a5 a6 a7 hc3 hc7 (hres rfl rfl)
+  · exact VS.lorentz_add.k_rhophi_theta_t_xy_z_t_eq a0 a1 a2 a3 a4 a5 a6 a7
+  · exact c08_lorentz_add_k_rhophi_theta_t_xy_z_tau a0 a1 a2 a3 a4 a5 a6 a7 hc7
+  · exact VS.lorentz_add.k_rhophi_theta_t_xy_theta_t_eq a0 a1 a2 a3 a4 a5 a6 a7
+  · exact c08_lorentz_add_k_rhophi_theta_t_xy_theta_tau a0 a1 a2 a3 a4 a5 a6 a7 hc7
+  · exact VS.lorentz_add.k_rhophi_theta_t_xy_eta_t_eq a0 a1 a2 a3 a4 a5 a6 a7
+  · exact c08_lorentz_add_k_rhophi_theta_t_xy_eta_tau a0 a1 a2 a3 a4 a5 a6 a7 hc7
+  · exact VS.lorentz_add.k_rhophi_theta_t_rhophi_z_t_eq a0 a1 a2 a3 a4 a5 a6 a7
+  · exact c08_lorentz_add_k_rhophi_theta_t_rhophi_z_tau a0 a1 a2 a3 a4 a5 a6 a7 hc7
+  · exact VS.lorentz_add.k_rhophi_theta_t_rhophi_theta_t_eq a0 a1 a2 a3 a4 a5 a6 a7
+  · exact c08_lorentz_add_k_rhophi_theta_t_rhophi_theta_tau a0 a1 a2 a3 a4 a5 a6 a7 hc7
+  · exact VS.lorentz_add.k_rhophi_theta_t_rhophi_eta_t_eq a0 a1 a2 a3 a4 a5 a6 a7
+  · exact c08_lorentz_add_k_rhophi_theta_t_rhophi_eta_tau a0 a1 a2 a3 a4 a5 a6 a7 hc7
+  · exact c08_lorentz_add_k_rhophi_theta_tau_xy_z_t a0 a1 a2 a3 a4 a5 a6 a7 hc3
+  · exact c08_lorentz_add_k_rhophi_theta_tau_xy_z_tau a0 a1 a2 a3 a4 a5 a6 a7 hc3 hc7 (hres rfl rfl)
+  · exact c08_lorentz_add_k_rhophi_theta_tau_xy_theta_t a0 a1 a2 a3 a4 a5 a6 a7 hc3
+  · exact c08_lorentz_add_k_rhophi_theta_tau_xy_theta_tau a0 a1 a2 a3 a4 a5 a6 a7 hc3 hc7 (hres rfl rfl)
+  · exact c08_lorentz_add_k_rhophi_theta_tau_xy_eta_t a0 a1 a2 a3 a4 a5 a6 a7 hc3
+  · exact c08_lorentz_add_k_rhophi_theta_tau_xy_eta_tau a0 a1 a2 a3 a4 a5 a6 a7 hc3 hc7 (hres rfl rfl)
+  · exact c08_lorentz_add_k_rhophi_theta_tau_rhophi_z_t a0 a1 a2 a3 a4 a5 a6 a7 hc3
+  · exact c08_lorentz_add_k_rhophi_theta_tau_rhophi_z_tau a0 a1 a2 a3 a4 a5 a6 a7 hc3 hc7 (hres rfl rfl)
+  · exact c08_lorentz_add_k_rhophi_theta_tau_rhophi_theta_t a0 a1 a2 a3 a4 a5 a6 a7 hc3
+  · exact c08_lorentz_add_k_rhophi_theta_tau_rhophi_theta_tau a0 a1 a2 a3 a4 a5 a6 a7 hc3 hc7 (hres rfl rfl)
+  · exact c08_lorentz_add_k_rhophi_theta_tau_rhophi_eta_t a0 a1 a2 a3 a4 a5 a6 a7 hc3
+  · exact c08_lorentz_add_k_rhophi_theta_tau_rhophi_eta_tau a0 a1 a2 a3 a4 a5 a6 a7 hc3 hc7 (hres rfl rfl)
+  · exact VS.lorentz_add.k_rhophi_eta_t_xy_z_t_eq a0 a1 a2 a3 a4 a5 a6 a7
+  · exact c08_lorentz_add_k_rhophi_eta_t_xy_z_tau a0 a1 a2 a3 a4 a5 a6 a7 hc7
+  · exact VS.lorentz_add.k_rhophi_eta_t_xy_theta_t_eq a0 a1 a2 a3 a4 a5 a6 a7
+  · exact c08_lorentz_add_k_rhophi_eta_t_xy_theta_tau a0 a1 a2 a3 a4 a5 a6 a7 hc7
+  · exact VS.lorentz_add.k_rhophi_eta_t_xy_eta_t_eq a0 a1 a2 a3 a4 a5 a6 a7
+  · exact c08_lorentz_add_k_rhophi_eta_t_xy_eta_tau a0 a1 a2 a3 a4 a5 a6 a7 hc7
+  · exact VS.lorentz_add.k_rhophi_eta_t_rhophi_z_t_eq a0 a1 a2 a3 a4 a5 a6 a7
+  · exact c08_lorentz_add_k_rhophi_eta_t_rhophi_z_tau a0 a1 a2 a3 a4 a5 a6 a7 hc7
+  · exact VS.lorentz_add.k_rhophi_eta_t_rhophi_theta_t_eq a0 a1 a2 a3 a4 a5 a6 a7
+  · exact c08_lorentz_add_k_rhophi_eta_t_rhophi_theta_tau a0 a1 a2 a3 a4 a5 a6 a7 hc7
+  · exact VS.lorentz_add.k_rhophi_eta_t_rhophi_eta_t_eq a0 a1 a2 a3 a4 a5 a6 a7
+  · exact c08_lorentz_add_k_rhophi_eta_t_rhophi_eta_tau a0 a1 a2 a3 a4 a5 a6 a7 hc7
+  · exact c08_lorentz_add_k_rhophi_eta_tau_xy_z_t a0 a1 a2 a3 a4 a5 a6 a7 hc3
+  · exact c08_lorentz_add_k_rhophi_eta_tau_xy_z_tau a0 a1 a2 a3 a4 a5 a6 a7 hc3 hc7 (hres rfl rfl)
+  · exact c08_lorentz_add_k_rhophi_eta_tau_xy_theta_t a0 a1 a2 a3 a4 a5 a6 a7 hc3
+  · exact c08_lorentz_add_k_rhophi_eta_tau_xy_theta_tau a0 a1 a2 a3 a4 a5 a6 a7 hc3 hc7 (hres rfl rfl)
+  · exact c08_lorentz_add_k_rhophi_eta_tau_xy_eta_t a0 a1 a2 a3 a4 a5 a6 a7 hc3
+  · exact c08_lorentz_add_k_rhophi_eta_tau_xy_eta_tau a0 a1 a2 a3 a4 a5 a6 a7 hc3 hc7 (hres rfl rfl)
+  · exact c08_lorentz_add_k_rhophi_eta_tau_rhophi_z_t a0 a1 a2 a3 a4 a5 a6 a7 hc3
+  · exact c08_lorentz_add_k_rhophi_eta_tau_rhophi_z_tau a0 a1 a2 a3 a4 a5 a6 a7 hc3 hc7 (hres rfl rfl)
+  · exact c08_lorentz_add_k_rhophi_eta_tau_rhophi_theta_t a0 a1 a2 a3 a4 a5 a6 a7 hc3
+  · exact c08_lorentz_add_k_rhophi_eta_tau_rhophi_theta_tau a0 a1 a2 a3 a4 a5 a6 a7 hc3 hc7 (hres rfl rfl)
+  · exact c08_lorentz_add_k_rhophi_eta_tau_rhophi_eta_t a0 a1 a2 a3 a4 a5 a6 a7 hc3
+  · exact c08_lorentz_add_k_rhophi_eta_tau_rhophi_eta_tau a0 a1 a2 a3 a4 a5 a6 a7 hc3 hc7 (hres rfl rfl)
+
+/-- `lorentz_beta`: all 12 keys -/
+theorem c08_lorentz_beta (k0 : Az) (k1 : Lon) (k2 : Tmp) (a0 a1 a2 a3 : ℝ)
+    (hc3 : CanonTmp k2 a3) :
+    VS.lorentz_beta.eval k0 k1 k2 a0 a1 a2 a3 =
+      VR.lorentz_beta.eval k0 k1 k2 a0 a1 a2 a3 := by
+  cases k0 <;> cases k1 <;> cases k2
+  · exact VS.lorentz_beta.xy_z_t_eq a0 a1 a2 a3
+  · exact c08_lorentz_beta_xy_z_tau a0 a1 a2 a3 hc3
+  · exact VS.lorentz_beta.xy_theta_t_eq a0 a1 a2 a3
+  · exact c08_lorentz_beta_xy_theta_tau a0 a1 a2 a3 hc3
+  · exact VS.lorentz_beta.xy_eta_t_eq a0 a1 a2 a3
+  · exact c08_lorentz_beta_xy_eta_tau a0 a1 a2 a3 hc3
+  · exact VS.lorentz_beta.rhophi_z_t_eq a0 a1 a2 a3
+  · exact c08_lorentz_beta_rhophi_z_tau a0 a1 a2 a3 hc3
+  · exact VS.lorentz_beta.rhophi_theta_t_eq a0 a1 a2 a3
+  · exact c08_lorentz_beta_rhophi_theta_tau a0 a1 a2 a3 hc3
+  · exact VS.lorentz_beta.rhophi_eta_t_eq a0 a1 a2 a3
+  · exact c08_lorentz_beta_rhophi_eta_tau a0 a1 a2 a3 hc3
+
+/-- `lorentz_boostX_beta`: all 12 keys -/
+theorem c08_lorentz_boostX_beta (k0 : Az) (k1 : Lon) (k2 : Tmp) (a0 a1 a2 a3 a4 : ℝ)
+    (hc4 : CanonTmp k2 a4) :
+    VS.lorentz_boostX_beta.eval k0 k1 k2 a0 a1 a2 a3 a4 =
+      VR.lorentz_boostX_beta.eval k0 k1 k2 a0 a1 a2 a3 a4 := by
+  cases k0 <;> cases k1 <;> cases k2
+  · exact VS.lorentz_boostX_beta.xy_z_t_eq a0 a1 a2 a3 a4
+  · exact c08_lorentz_boostX_beta_xy_z_tau a0 a1 a2 a3 a4 hc4
+  · exact VS.lorentz_boostX_beta.xy_theta_t_eq a0 a1 a2 a3 a4
+  · exact c08_lorentz_boostX_beta_xy_theta_tau a0 a1 a2 a3 a4 hc4
+  · exact VS.lorentz_boostX_beta.xy_eta_t_eq a0 a1 a2 a3 a4
+  · exact c08_lorentz_boostX_beta_xy_eta_tau a0 a1 a2 a3 a4 hc4
+  · exact VS.lorentz_boostX_beta.rhophi_z_t_eq a0 a1 a2 a3 a4
+  · exact c08_lorentz_boostX_beta_rhophi_z_tau a0 a1 a2 a3 a4 hc4
+  · exact VS.lorentz_boostX_beta.rhophi_theta_t_eq a0 a1 a2 a3 a4
+  · exact c08_lorentz_boostX_beta_rhophi_theta_tau a0 a1 a2 a3 a4 hc4
+  · exact VS.lorentz_boostX_beta.rhophi_eta_t_eq a0 a1 a2 a3 a4
+  · exact c08_lorentz_boostX_beta_rhophi_eta_tau a0 a1 a2 a3 a4 hc4
+
+/-- `lorentz_boostX_gamma`: all 12 keys -/
+theorem c08_lorentz_boostX_gamma (k0 : Az) (k1 : Lon) (k2 : Tmp) (a0 a1 a2 a3 a4 : ℝ)
+    (ha0 : 0 ≤ a0)
+    (hc4 : CanonTmp k2 a4) :
+    VS.lorentz_boostX_gamma.eval k0 k1 k2 a0 a1 a2 a3 a4 =
+      VR.lorentz_boostX_gamma.eval k0 k1 k2 a0 a1 a2 a3 a4 := by
+  cases k0 <;> cases k1 <;> cases k2
+  · exact c08_lorentz_boostX_gamma_xy_z_t a0 a1 a2 a3 a4 ha0
+  · exact c08_lorentz_boostX_gamma_xy_z_tau a0 a1 a2 a3 a4 ha0 hc4
+  · exact c08_lorentz_boostX_gamma_xy_theta_t a0 a1 a2 a3 a4 ha0
+  · exact c08_lorentz_boostX_gamma_xy_theta_tau a0 a1 a2 a3 a4 ha0 hc4
+  · exact c08_lorentz_boostX_gamma_xy_eta_t a0 a1 a2 a3 a4 ha0
+  · exact c08_lorentz_boostX_gamma_xy_eta_tau a0 a1 a2 a3 a4 ha0 hc4
+  · exact c08_lorentz_boostX_gamma_rhophi_z_t a0 a1 a2 a3 a4 ha0
+  · exact c08_lorentz_boostX_gamma_rhophi_z_tau a0 a1 a2 a3 a4 ha0 hc4
+  · exact c08_lorentz_boostX_gamma_rhophi_theta_t a0 a1 a2 a3 a4 ha0
+  · exact c08_lorentz_boostX_gamma_rhophi_theta_tau a0 a1 a2 a3 a4 ha0 hc4
+  · exact c08_lorentz_boostX_gamma_rhophi_eta_t a0 a1 a2 a3 a4 ha0
+  · exact c08_lorentz_boostX_gamma_rhophi_eta_tau a0 a1 a2 a3 a4 ha0 hc4
+
+/-- `lorentz_boostY_beta`: all 12 keys -/
+theorem c08_lorentz_boostY_beta (k0 : Az) (k1 : Lon) (k2 : Tmp) (a0 a1 a2 a3 a4 : ℝ)
+    (hc4 : CanonTmp k2 a4) :
+    VS.lorentz_boostY_beta.eval k0 k1 k2 a0 a1 a2 a3 a4 =
+      VR.lorentz_boostY_beta.eval k0 k1 k2 a0 a1 a2 a3 a4 := by
+  cases k0 <;> cases k1 <;> cases k2
+  · exact VS.lorentz_boostY_beta.xy_z_t_eq a0 a1 a2 a3 a4
+  · exact c08_lorentz_boostY_beta_xy_z_tau a0 a1 a2 a3 a4 hc4
+  · exact VS.lorentz_boostY_beta.xy_theta_t_eq a0 a1 a2 a3 a4
+  · exact c08_lorentz_boostY_beta_xy_theta_tau a0 a1 a2 a3 a4 hc4
+  · exact VS.lorentz_boostY_beta.xy_eta_t_eq a0 a1 a2 a3 a4
+  · exact c08_lorentz_boostY_beta_xy_eta_tau a0 a1 a2 a3 a4 hc4
+  · exact VS.lorentz_boostY_beta.rhophi_z_t_eq a0 a1 a2 a3 a4
+  · exact c08_lorentz_boostY_beta_rhophi_z_tau a0 a1 a2 a3 a4 hc4
+  · exact VS.lorentz_boostY_beta.rhophi_theta_t_eq a0 a1 a2 a3 a4
+  · exact c08_lorentz_boostY_beta_rhophi_theta_tau a0 a1 a2 a3 a4 hc4
+  · exact VS.lorentz_boostY_beta.rhophi_eta_t_eq a0 a1 a2 a3 a4
+  · exact c08_lorentz_boostY_beta_rhophi_eta_tau a0 a1 a2 a3 a4 hc4
+
+/-- `lorentz_boostY_gamma`: all 12 keys -/
+theorem c08_lorentz_boostY_gamma (k0 : Az) (k1 : Lon) (k2 : Tmp) (a0 a1 a2 a3 a4 : ℝ)
+    (ha0 : 0 ≤ a0)
+    (hc4 : CanonTmp k2 a4) :
+    VS.lorentz_boostY_gamma.eval k0 k1 k2 a0 a1 a2 a3 a4 =
+      VR.lorentz_boostY_gamma.eval k0 k1 k2 a0 a1 a2 a3 a4 := by
+  cases k0 <;> cases k1 <;> cases k2
+  · exact c08_lorentz_boostY_gamma_xy_z_t a0 a1 a2 a3 a4 ha0
+  · exact c08_lorentz_boostY_gamma_xy_z_tau a0 a1 a2 a3 a4 ha0 hc4
+  · exact c08_lorentz_boostY_gamma_xy_theta_t a0 a1 a2 a3 a4 ha0
+  · exact c08_lorentz_boostY_gamma_xy_theta_tau a0 a1 a2 a3 a4 ha0 hc4
+  · exact c08_lorentz_boostY_gamma_xy_eta_t a0 a1 a2 a3 a4 ha0
+  · exact c08_lorentz_boostY_gamma_xy_eta_tau a0 a1 a2 a3 a4 ha0 hc4
+  · exact c08_lorentz_boostY_gamma_rhophi_z_t a0 a1 a2 a3 a4 ha0
+  · exact c08_lorentz_boostY_gamma_rhophi_z_tau a0 a1 a2 a3 a4 ha0 hc4
+  · exact c08_lorentz_boostY_gamma_rhophi_theta_t a0 a1 a2 a3 a4 ha0
+  · exact c08_lorentz_boostY_gamma_rhophi_theta_tau a0 a1 a2 a3 a4 ha0 hc4
+  · exact c08_lorentz_boostY_gamma_rhophi_eta_t a0 a1 a2 a3 a4 ha0
+  · exact c08_lorentz_boostY_gamma_rhophi_eta_tau a0 a1 a2 a3 a4 ha0 hc4
+
+/-- `lorentz_boostZ_beta`: all 12 keys -/
+theorem c08_lorentz_boostZ_beta (k0 : Az) (k1 : Lon) (k2 : Tmp) (a0 a1 a2 a3 a4 : ℝ)
+    (hc4 : CanonTmp k2 a4) :
+    VS.lorentz_boostZ_beta.eval k0 k1 k2 a0 a1 a2 a3 a4 =
+      VR.lorentz_boostZ_beta.eval k0 k1 k2 a0 a1 a2 a3 a4 := by
+  cases k0 <;> cases k1 <;> cases k2
+  · exact VS.lorentz_boostZ_beta.xy_z_t_eq a0 a1 a2 a3 a4
+  · exact c08_lorentz_boostZ_beta_xy_z_tau a0 a1 a2 a3 a4 hc4
+  · exact VS.lorentz_boostZ_beta.xy_theta_t_eq a0 a1 a2 a3 a4
+  · exact c08_lorentz_boostZ_beta_xy_theta_tau a0 a1 a2 a3 a4 hc4
+  · exact VS.lorentz_boostZ_beta.xy_eta_t_eq a0 a1 a2 a3 a4
+  · exact c08_lorentz_boostZ_beta_xy_eta_tau a0 a1 a2 a3 a4 hc4
+  · exact VS.lorentz_boostZ_beta.rhophi_z_t_eq a0 a1 a2 a3 a4
+  · exact c08_lorentz_boostZ_beta_rhophi_z_tau a0 a1 a2 a3 a4 hc4
+  · exact VS.lorentz_boostZ_beta.rhophi_theta_t_eq a0 a1 a2 a3 a4
+  · exact c08_lorentz_boostZ_beta_rhophi_theta_tau a0 a1 a2 a3 a4 hc4
+  · exact VS.lorentz_boostZ_beta.rhophi_eta_t_eq a0 a1 a2 a3 a4
+  · exact c08_lorentz_boostZ_beta_rhophi_eta_tau a0 a1 a2 a3 a4 hc4
+
+/-- `lorentz_boostZ_gamma`: all 12 keys -/
+theorem c08_lorentz_boostZ_gamma (k0 : Az) (k1 : Lon) (k2 : Tmp) (a0 a1 a2 a3 a4 : ℝ)
+    (ha0 : 0 ≤ a0)
+    (hc4 : CanonTmp k2 a4) :
+    VS.lorentz_boostZ_gamma.eval k0 k1 k2 a0 a1 a2 a3 a4 =
+      VR.lorentz_boostZ_gamma.eval k0 k1 k2 a0 a1 a2 a3 a4 := by
+  cases k0 <;> cases k1 <;> cases k2
+  · exact c08_lorentz_boostZ_gamma_xy_z_t a0 a1 a2 a3 a4 ha0
+  · exact c08_lorentz_boostZ_gamma_xy_z_tau a0 a1 a2 a3 a4 ha0 hc4
+  · exact c08_lorentz_boostZ_gamma_xy_theta_t a0 a1 a2 a3 a4 ha0
+  · exact c08_lorentz_boostZ_gamma_xy_theta_tau a0 a1 a2 a3 a4 ha0 hc4
+  · exact c08_lorentz_boostZ_gamma_xy_eta_t a0 a1 a2 a3 a4 ha0
+  · exact c08_lorentz_boostZ_gamma_xy_eta_tau a0 a1 a2 a3 a4 ha0 hc4
+  · exact c08_lorentz_boostZ_gamma_rhophi_z_t a0 a1 a2 a3 a4 ha0
+  · exact c08_lorentz_boostZ_gamma_rhophi_z_tau a0 a1 a2 a3 a4 ha0 hc4
+  · exact c08_lorentz_boostZ_gamma_rhophi_theta_t a0 a1 a2 a3 a4 ha0
+  · exact c08_lorentz_boostZ_gamma_rhophi_theta_tau a0 a1 a2 a3 a4 ha0 hc4
+  · exact c08_lorentz_boostZ_gamma_rhophi_eta_t a0 a1 a2 a3 a4 ha0
+  · exact c08_lorentz_boostZ_gamma_rhophi_eta_tau a0 a1 a2 a3 a4 ha0 hc4
+
+/-- `lorentz_boost_beta3`: all 72 keys -/
+theorem c08_lorentz_boost_beta3 (k0 : Az) (k1 : Lon) (k2 : Tmp) (k3 : Az) (k4 : Lon) (a0 a1 a2 a3 a4 a5 a6 : ℝ)
+    (hc3 : CanonTmp k2 a3) :
+    VS.lorentz_boost_beta3.eval k0 k1 k2 k3 k4 a0 a1 a2 a3 a4 a5 a6 =
+      VR.lorentz_boost_beta3.eval k0 k1 k2 k3 k4 a0 a1 a2 a3 a4 a5 a6 := by
+  cases k0 <;> cases k1 <;> cases k2 <;> cases k3 <;> cases k4
+  · exact VS.lorentz_boost_beta3.cartesian_t_xy_z_eq a0 a1 a2 a3 a4 a5 a6
+  · exact VS.lorentz_boost_beta3.cartesian_t_xy_theta_eq a0 a1 a2 a3 a4 a5 a6
+  · exact VS.lorentz_boost_beta3.cartesian_t_xy_eta_eq a0 a1 a2 a3 a4 a5 a6
+  · exact VS.lorentz_boost_beta3.cartesian_t_rhophi_z_eq a0 a1 a2 a3 a4 a5 a6
+  · exact VS.lorentz_boost_beta3.cartesian_t_rhophi_theta_eq a0 a1 a2 a3 a4 a5 a6
+  · exact VS.lorentz_boost_beta3.cartesian_t_rhophi_eta_eq a0 a1 a2 a3 a4 a5 a6
+  · exact c08_lorentz_boost_beta3_k_xy_z_tau_xy_z a0 a1 a2 a3 a4 a5 a6 hc3
+  · exact c08_lorentz_boost_beta3_k_xy_z_tau_xy_theta a0 a1 a2 a3 a4 a5 a6 hc3
+  · exact c08_lorentz_boost_beta3_k_xy_z_tau_xy_eta a0 a1 a2 a3 a4 a5 a6 hc3
+  · exact c08_lorentz_boost_beta3_k_xy_z_tau_rhophi_z a0 a1 a2 a3 a4 a5 a6 hc3
+  · exact c08_lorentz_boost_beta3_k_xy_z_tau_rhophi_theta a0 a1 a2 a3 a4 a5 a6 hc3
+  · exact c08_lorentz_boost_beta3_k_xy_z_tau_rhophi_eta a0 a1 a2 a3 a4 a5 a6 hc3
+  · exact VS.lorentz_boost_beta3.k_xy_theta_t_xy_z_eq a0 a1 a2 a3 a4 a5 a6
+  · exact VS.lorentz_boost_beta3.k_xy_theta_t_xy_theta_eq a0 a1 a2 a3 a4 a5 a6
+  · exact VS.lorentz_boost_beta3.k_xy_theta_t_xy_eta_eq a0 a1 a2 a3 a4 a5 a6
+  · exact VS.lorentz_boost_beta3.k_xy_theta_t_rhophi_z_eq a0 a1 a2 a3 a4 a5 a6
+  · exact VS.lorentz_boost_beta3.k_xy_theta_t_rhophi_theta_eq a0 a1 a2 a3 a4 a5 a6
+  · exact VS.lorentz_boost_beta3.k_xy_theta_t_rhophi_eta_eq a0 a1 a2 a3 a4 a5 a6
+  · exact c08_lorentz_boost_beta3_k_xy_theta_tau_xy_z a0 a1 a2 a3 a4 a5 a6 hc3
+  · exact c08_lorentz_boost_beta3_k_xy_theta_tau_xy_theta a0 a1 a2 a3 a4 a5 a6 hc3
+  · exact c08_lorentz_boost_beta3_k_xy_theta_tau_xy_eta a0 a1 a2 a3 a4 a5 a6 hc3
+  · exact c08_lorentz_boost_beta3_k_xy_theta_tau_rhophi_z a0 a1 a2 a3 a4 a5 a6 hc3
+  · exact c08_lorentz_boost_beta3_k_xy_theta_tau_rhophi_theta a0 a1 a2 a3 a4 a5 a6 hc3
+  · exact c08_lorentz_boost_beta3_k_xy_theta_tau_rhophi_eta a0 a1 a2 a3 a4 a5 a6 hc3
+  · exact VS.lorentz_boost_beta3.k_xy_eta_t_xy_z_eq a0 a1 a2 a3 a4 a5 a6
+  · exact VS.lorentz_boost_beta3.k_xy_eta_t_xy_theta_eq a0 a1 a2 a3 a4 a5 a6
+  · exact VS.lorentz_boost_beta3.k_xy_eta_t_xy_eta_eq a0 a1 a2 a3 a4 a5 a6
+  · exact VS.lorentz_boost_beta3.k_xy_eta_t_rhophi_z_eq a0 a1 a2 a3 a4 a5 a6
+  · exact VS.lorentz_boost_beta3.k_xy_eta_t_rhophi_theta_eq a0 a1 a2 a3 a4 a5 a6
+  · exact VS.lorentz_boost_beta3.k_xy_eta_t_rhophi_eta_eq a0 a1 a2 a3 a4 a5 a6
+  · exact c08_lorentz_boost_beta3_k_xy_eta_tau_xy_z a0 a1 a2 a3 a4 a5 a6 hc3
+  · exact c08_lorentz_boost_beta3_k_xy_eta_tau_xy_theta a0 a1 a2 a3 a4 a5 a6 hc3
+  · exact c08_lorentz_boost_beta3_k_xy_eta_tau_xy_eta a0 a1 a2 a3 a4 a5 a6 hc3
+  · exact c08_lorentz_boost_beta3_k_xy_eta_tau_rhophi_z a0 a1 a2 a3 a4 a5 a6 hc3
+  · exact c08_lorentz_boost_beta3_k_xy_eta_tau_rhophi_theta a0 a1 a2 a3 a4 a5 a6 hc3
+  · exact c08_lorentz_boost_beta3_k_xy_eta_tau_rhophi_eta a0 a1 a2 a3 a4 a5 a6 hc3
+  · exact VS.lorentz_boost_beta3.k_rhophi_z_t_xy_z_eq a0 a1 a2 a3 a4 a5 a6
+  · exact VS.lorentz_boost_beta3.k_rhophi_z_t_xy_theta_eq a0 a1 a2 a3 a4 a5 a6
+  · exact VS.lorentz_boost_beta3.k_rhophi_z_t_xy_eta_eq a0 a1 a2 a3 a4 a5 a6
+  · exact VS.lorentz_boost_beta3.k_rhophi_z_t_rhophi_z_eq a0 a1 a2 a3 a4 a5 a6
+  · exact VS.lorentz_boost_beta3.k_rhophi_z_t_rhophi_theta_eq a0 a1 a2 a3 a4 a5 a6
+  · exact VS.lorentz_boost_beta3.k_rhophi_z_t_rhophi_eta_eq a0 a1 a2 a3 a4 a5 a6
+  · exact c08_lorentz_boost_beta3_k_rhophi_z_tau_xy_z a0 a1 a2 a3 a4 a5 a6 hc3
+  · exact c08_lorentz_boost_beta3_k_rhophi_z_tau_xy_theta a0 a1 a2 a3 a4 a5 a6 hc3
+  · exact c08_lorentz_boost_beta3_k_rhophi_z_tau_xy_eta a0 a1 a2 a3 a4 a5 a6 hc3
+  · exact c08_lorentz_boost_beta3_k_rhophi_z_tau_rhophi_z a0 a1 a2 a3 a4 a5 a6 hc3
+  · exact c08_lorentz_boost_beta3_k_rhophi_z_tau_rhophi_theta a0 a1 a2 a3 a4 a5 a6 hc3
+  · exact c08_lorentz_boost_beta3_k_rhophi_z_tau_rhophi_eta a0 a1 a2 a3 a4 a5 a6 hc3
+  · exact VS.lorentz_boost_beta3.k_rhophi_theta_t_xy_z_eq a0 a1 a2 a3 a4 a5 a6
+  · exact VS.lorentz_boost_beta3.k_rhophi_theta_t_xy_theta_eq a0 a1 a2 a3 a4 a5 a6
+  · exact VS.lorentz_boost_beta3.k_rhophi_theta_t_xy_eta_eq a0 a1 a2 a3 a4 a5 a6
+  · exact VS.lorentz_boost_beta3.k_rhophi_theta_t_rhophi_z_eq a0 a1 a2 a3 a4 a5 a6
+  · exact VS.lorentz_boost_beta3.k_rhophi_theta_t_rhophi_theta_eq a0 a1 a2 a3 a4 a5 a6
+  · exact VS.lorentz_boost_beta3.k_rhophi_theta_t_rhophi_eta_eq a0 a1 a2 a3 a4 a5 a6
+  · exact c08_lorentz_boost_beta3_k_rhophi_theta_tau_xy_z a0 a1 a2 a3 a4 a5 a6 hc3
+  · exact c08_lorentz_boost_beta3_k_rhophi_theta_tau_xy_theta a0 a1 a2 a3 a4 a5 a6 hc3
+  · exact c08_lorentz_boost_beta3_k_rhophi_theta_tau_xy_eta a0 a1 a2 a3 a4 a5 a6 hc3
+  · exact c08_lorentz_boost_beta3_k_rhophi_theta_tau_rhophi_z a0 a1 a2 a3 a4 a5 a6 hc3
+  · exact c08_lorentz_boost_beta3_k_rhophi_theta_tau_rhophi_theta a0 a1 a2 a3 a4 a5 a6 hc3
+  · exact c08_lorentz_boost_beta3_k_rhophi_theta_tau_rhophi_eta a0 a1 a2 a3 a4 a5 a6 hc3
+  · exact VS.lorentz_boost_beta3.k_rhophi_eta_t_xy_z_eq a0 a1 a2 a3 a4 a5 a6
+  · exact VS.lorentz_boost_beta3.k_rhophi_eta_t_xy_theta_eq a0 a1 a2 a3 a4 a5 a6
+  · exact VS.lorentz_boost_beta3.k_rhophi_eta_t_xy_eta_eq a0 a1 a2 a3 a4 a5 a6
+  · exact VS.lorentz_boost_beta3.k_rhophi_eta_t_rhophi_z_eq a0 a1 a2 a3 a4 a5 a6
+  · exact VS.lorentz_boost_beta3.k_rhophi_eta_t_rhophi_theta_eq a0 a1 a2 a3 a4 a5 a6
+  · exact VS.lorentz_boost_beta3.k_rhophi_eta_t_rhophi_eta_eq a0 a1 a2 a3 a4 a5 a6
+  · exact c08_lorentz_boost_beta3_k_rhophi_eta_tau_xy_z a0 a1 a2 a3 a4 a5 a6 hc3
+  · exact c08_lorentz_boost_beta3_k_rhophi_eta_tau_xy_theta a0 a1 a2 a3 a4 a5 a6 hc3
+  · exact c08_lorentz_boost_beta3_k_rhophi_eta_tau_xy_eta a0 a1 a2 a3 a4 a5 a6 hc3
+  · exact c08_lorentz_boost_beta3_k_rhophi_eta_tau_rhophi_z a0 a1 a2 a3 a4 a5 a6 hc3
+  · exact c08_lorentz_boost_beta3_k_rhophi_eta_tau_rhophi_theta a0 a1 a2 a3 a4 a5 a6 hc3
+  · exact c08_lorentz_boost_beta3_k_rhophi_eta_tau_rhophi_eta a0 a1 a2 a3 a4 a5 a6 hc3
+
+/-- `lorentz_boost_p4`: all 144 keys -/
+theorem c08_lorentz_boost_p4 (k0 : Az) (k1 : Lon) (k2 : Tmp) (k3 : Az) (k4 : Lon) (k5 : Tmp) (a0 a1 a2 a3 a4 a5 a6 a7 : ℝ)
+    (hc3 : CanonTmp k2 a3) :
+    VS.lorentz_boost_p4.eval k0 k1 k2 k3 k4 k5 a0 a1 a2 a3 a4 a5 a6 a7 =
+      VR.lorentz_boost_p4.eval k0 k1 k2 k3 k4 k5 a0 a1 a2 a3 a4 a5 a6 a7 := by
+  cases k0 <;> cases k1 <;> cases k2 <;> cases k3 <;> cases k4 <;> cases k5
+  · exact VS.lorentz_boost_p4.cartesian_t_xy_z_t_eq a0 a1 a2 a3 a4 a5 a6 a7
+  · exact VS.lorentz_boost_p4.cartesian_t_xy_z_tau_eq a0 a1 a2 a3 a4 a5 a6 a7
+  · exact VS.lorentz_boost_p4.cartesian_t_xy_theta_t_eq a0 a1 a2 a3 a4 a5 a6 a7
+  · exact VS.lorentz_boost_p4.cartesian_t_xy_theta_tau_eq a0 a1 a2 a3 a4 a5 a6 a7
+  · exact VS.lorentz_boost_p4.cartesian_t_xy_eta_t_eq a0 a1 a2 a3 a4 a5 a6 a7
+  · exact VS.lorentz_boost_p4.cartesian_t_xy_eta_tau_eq a0 a1 a2 a3 a4 a5 a6 a7
+  · exact VS.lorentz_boost_p4.cartesian_t_rhophi_z_t_eq a0 a1 a2 a3 a4 a5 a6 a7
+  · exact VS.lorentz_boost_p4.cartesian_t_rhophi_z_tau_eq a0 a1 a2 a3 a4 a5 a6 a7
+  · exact VS.lorentz_boost_p4.cartesian_t_rhophi_theta_t_eq a0 a1 a2 a3 a4 a5 a6 a7
+  · exact VS.lorentz_boost_p4.cartesian_t_rhophi_theta_tau_eq a0 a1 a2 a3 a4 a5 a6 a7
+  · exact VS.lorentz_boost_p4.cartesian_t_rhophi_eta_t_eq a0 a1 a2 a3 a4 a5 a6 a7
+  · exact VS.lorentz_boost_p4.cartesian_t_rhophi_eta_tau_eq a0 a1 a2 a3 a4 a5 a6 a7
+  · exact c08_lorentz_boost_p4_k_xy_z_tau_xy_z_t a0 a1 a2 a3 a4 a5 a6 a7 hc3
+  · exact c08_lorentz_boost_p4_k_xy_z_tau_xy_z_tau a0 a1 a2 a3 a4 a5 a6 a7 hc3
+  · exact c08_lorentz_boost_p4_k_xy_z_tau_xy_theta_t a0 a1 a2 a3 a4 a5 a6 a7 hc3
+  · exact c08_lorentz_boost_p4_k_xy_z_tau_xy_theta_tau a0 a1 a2 a3 a4 a5 a6 a7 hc3
+  · exact c08_lorentz_boost_p4_k_xy_z_tau_xy_eta_t a0 a1 a2 a3 a4 a5 a6 a7 hc3
+  · exact c08_lorentz_boost_p4_k_xy_z_tau_xy_eta_tau a0 a1 a2 a3 a4 a5 a6 a7 hc3
+  · exact c08_lorentz_boost_p4_k_xy_z_tau_rhophi_z_t a0 a1 a2 a3 a4 a5 a6 a7 hc3
+  · exact c08_lorentz_boost_p4_k_xy_z_tau_rhophi_z_tau a0 a1 a2 a3 a4 a5 a6 a7 hc3
+  · exact c08_lorentz_boost_p4_k_xy_z_tau_rhophi_theta_t a0 a1 a2 a3 a4 a5 a6 a7 hc3
+  · exact c08_lorentz_boost_p4_k_xy_z_tau_rhophi_theta_tau a0 a1 a2 a3 a4 a5 a6 a7 hc3
+  · exact c08_lorentz_boost_p4_k_xy_z_tau_rhophi_eta_t a0 a1 a2 a3 a4 a5 a6 a7 hc3
+  · exact c08_lorentz_boost_p4_k_xy_z_tau_rhophi_eta_tau a0 a1 a2 a3 a4 a5 a6 a7 hc3
+  · exact VS.lorentz_boost_p4.k_xy_theta_t_xy_z_t_eq a0 a1 a2 a3 a4 a5 a6 a7
+  · exact VS.lorentz_boost_p4.k_xy_theta_t_xy_z_tau_eq a0 a1 a2 a3 a4 a5 a6 a7
+  · exact VS.lorentz_boost_p4.k_xy_theta_t_xy_theta_t_eq a0 a1 a2 a3 a4 a5 a6 a7
+  · exact VS.lorentz_boost_p4.k_xy_theta_t_xy_theta_tau_eq a0 a1 a2 a3 a4 a5 a6 a7
+  · exact VS.lorentz_boost_p4.k_xy_theta_t_xy_eta_t_eq a0 a1 a2 a3 a4 a5 a6 a7
+  · exact VS.lorentz_boost_p4.k_xy_theta_t_xy_eta_tau_eq a0 a1 a2 a3 a4 a5 a6 a7
+  · exact VS.lorentz_boost_p4.k_xy_theta_t_rhophi_z_t_eq a0 a1 a2 a3 a4 a5 a6 a7
+  · exact VS.lorentz_boost_p4.k_xy_theta_t_rhophi_z_tau_eq a0 a1 a2 a3 a4 a5 a6 a7
+  · exact VS.lorentz_boost_p4.k_xy_theta_t_rhophi_theta_t_eq a0 a1 a2 a3 a4 a5 a6 a7
+  · exact VS.lorentz_boost_p4.k_xy_theta_t_rhophi_theta_tau_eq a0 a1 a2 a3 a4 a5 a6 a7
+  · exact VS.lorentz_boost_p4.k_xy_theta_t_rhophi_eta_t_eq a0 a1 a2 a3 a4 a5 a6 a7
+  · exact VS.lorentz_boost_p4.k_xy_theta_t_rhophi_eta_tau_eq a0 a1 a2 a3 a4 a5 a6 a7
+  · exact c08_lorentz_boost_p4_k_xy_theta_tau_xy_z_t a0 a1 a2 a3 a4 a5 a6 a7 hc3
+  · exact c08_lorentz_boost_p4_k_xy_theta_tau_xy_z_tau a0 a1 a2 a3 a4 a5 a6 a7 hc3
+  · exact c08_lorentz_boost_p4_k_xy_theta_tau_xy_theta_t a0 a1 a2 a3 a4 a5 a6 a7 hc3
+  · exact c08_lorentz_boost_p4_k_xy_theta_tau_xy_theta_tau a0 a1 a2 a3 a4 a5 a6 a7 hc3
+  · exact c08_lorentz_boost_p4_k_xy_theta_tau_xy_eta_t a0 a1 a2 a3 a4 a5 a6 a7 hc3
+  · exact c08_lorentz_boost_p4_k_xy_theta_tau_xy_eta_tau a0 a1 a2 a3 a4 a5 a6 a7 hc3
+  · exact c08_lorentz_boost_p4_k_xy_theta_tau_rhophi_z_t a0 a1 a2 a3 a4 a5 a6 a7 hc3
+  · exact c08_lorentz_boost_p4_k_xy_theta_tau_rhophi_z_tau a0 a1 a2 a3 a4 a5 a6 a7 hc3
+  · exact c08_lorentz_boost_p4_k_xy_theta_tau_rhophi_theta_t a0 a1 a2 a3 a4 a5 a6 a7 hc3
+  · exact c08_lorentz_boost_p4_k_xy_theta_tau_rhophi_theta_tau a0 a1 a2 a3 a4 a5 a6 a7 hc3
+  · exact c08_lorentz_boost_p4_k_xy_theta_tau_rhophi_eta_t a0 a1 a2 a3 a4 a5 a6 a7 hc3
+  · exact c08_lorentz_boost_p4_k_xy_theta_tau_rhophi_eta_tau a0 a1 a2 a3 a4 a5 a6 a7 hc3
+  · exact VS.lorentz_boost_p4.k_xy_eta_t_xy_z_t_eq a0 a1 a2 a3 a4 a5 a6 a7
+  · exact VS.lorentz_boost_p4.k_xy_eta_t_xy_z_tau_eq a0 a1 a2 a3 a4 a5 a6 a7
+  · exact VS.lorentz_boost_p4.k_xy_eta_t_xy_theta_t_eq a0 a1 a2 a3 a4 a5 a6 a7
+  · exact VS.lorentz_boost_p4.k_xy_eta_t_xy_theta_tau_eq a0 a1 a2 a3 a4 a5 a6 a7
+  · exact VS.lorentz_boost_p4.k_xy_eta_t_xy_eta_t_eq a0 a1 a2 a3 a4 a5 a6 a7
+  · exact VS.lorentz_boost_p4.k_xy_eta_t_xy_eta_tau_eq a0 a1 a2 a3 a4 a5 a6 a7
+  · exact VS.lorentz_boost_p4.k_xy_eta_t_rhophi_z_t_eq a0 a1 a2 a3 a4 a5 a6 a7
+  · exact VS.lorentz_boost_p4.k_xy_eta_t_rhophi_z_tau_eq a0 a1 a2 a3 a4 a5 a6 a7
+  · exact VS.lorentz_boost_p4.k_xy_eta_t_rhophi_theta_t_eq a0 a1 a2 a3 a4 a5 a6 a7
+  · exact VS.lorentz_boost_p4.k_xy_eta_t_rhophi_theta_tau_eq a0 a1 a2 a3 a4 a5 a6 a7
+  · exact VS.lorentz_boost_p4.k_xy_eta_t_rhophi_eta_t_eq a0 a1 a2 a3 a4 a5 a6 a7
+  · exact VS.lorentz_boost_p4.k_xy_eta_t_rhophi_eta_tau_eq a0 a1 a2 a3 a4 a5 a6 a7
+  · exact c08_lorentz_boost_p4_k_xy_eta_tau_xy_z_t a0 a1 a2 a3 a4 a5 a6 a7 hc3
+  · exact c08_lorentz_boost_p4_k_xy_eta_tau_xy_z_tau a0 a1 a2 a3 a4 a5 a6 a7 hc3
+  · exact c08_lorentz_boost_p4_k_xy_eta_tau_xy_theta_t a0 a1 a2 a3 a4 a5 a6 a7 hc3
+  · exact c08_lorentz_boost_p4_k_xy_eta_tau_xy_theta_tau a0 a1 a2 a3 a4 a5 a6 a7 hc3
+  · exact c08_lorentz_boost_p4_k_xy_eta_tau_xy_eta_t a0 a1 a2 a3 a4 a5 a6 a7 hc3
+  · exact c08_lorentz_boost_p4_k_xy_eta_tau_xy_eta_tau a0 a1 a2 a3 a4 a5 a6 a7 hc3
+  · exact c08_lorentz_boost_p4_k_xy_eta_tau_rhophi_z_t a0 a1 a2 a3 a4 a5 a6 a7 hc3
+  · exact c08_lorentz_boost_p4_k_xy_eta_tau_rhophi_z_tau a0 a1 a2 a3 a4 a5 a6 a7 hc3
+  · exact c08_lorentz_boost_p4_k_xy_eta_tau_rhophi_theta_t a0 a1 a2 a3 a4 a5 a6 a7 hc3
+  · exact c08_lorentz_boost_p4_k_xy_eta_tau_rhophi_theta_tau a0 a1 a2 a3 a4 a5 a6 a7 hc3
+  · exact c08_lorentz_boost_p4_k_xy_eta_tau_rhophi_eta_t a0 a1 a2 a3 a4 a5 a6 a7 hc3
+  · exact c08_lorentz_boost_p4_k_xy_eta_tau_rhophi_eta_tau a0 a1 a2 a3 a4 a5 a6 a7 hc3
+  · exact VS.lorentz_boost_p4.k_rhophi_z_t_xy_z_t_eq a0 a1 a2 a3 a4 a5 a6 a7
+  · exact VS.lorentz_boost_p4.k_rhophi_z_t_xy_z_tau_eq a0 a1 a2 a3 a4 a5 a6 a7
+  · exact VS.lorentz_boost_p4.k_rhophi_z_t_xy_theta_t_eq a0 a1 a2 a3 a4 a5 a6 a7
+  · exact VS.lorentz_boost_p4.k_rhophi_z_t_xy_theta_tau_eq a0 a1 a2 a3 a4 a5 a6 a7
+  · exact VS.lorentz_boost_p4.k_rhophi_z_t_xy_eta_t_eq a0 a1 a2 a3 a4 a5 a6 a7
+  · exact VS.lorentz_boost_p4.k_rhophi_z_t_xy_eta_tau_eq a0 a1 a2 a3 a4 a5 a6 a7
+  · exact VS.lorentz_boost_p4.k_rhophi_z_t_rhophi_z_t_eq a0 a1 a2 a3 a4 a5 a6 a7
+  · exact VS.lorentz_boost_p4.k_rhophi_z_t_rhophi_z_tau_eq a0 a1 a2 a3 a4 a5 a6 a7
+  · exact VS.lorentz_boost_p4.k_rhophi_z_t_rhophi_theta_t_eq a0 a1 a2 a3 a4 a5 a6 a7
+  · exact VS.lorentz_boost_p4.k_rhophi_z_t_rhophi_theta_tau_eq a0 a1 a2 a3 a4 a5 a6 a7
+  · exact VS.lorentz_boost_p4.k_rhophi_z_t_rhophi_eta_t_eq a0 a1 a2 a3 a4 a5 a6 a7
+  · exact VS.lorentz_boost_p4.k_rhophi_z_t_rhophi_eta_tau_eq a0 a1 a2 a3 a4 a5 a6 a7
+  · exact c08_lorentz_boost_p4_k_rhophi_z_tau_xy_z_t a0 a1 a2 a3 a4 a5 a6 a7 hc3
+  · exact c08_lorentz_boost_p4_k_rhophi_z_tau_xy_z_tau a0 a1 a2 a3 a4 a5 a6 a7 hc3
+  · exact c08_lorentz_boost_p4_k_rhophi_z_tau_xy_theta_t a0 a1 a2 a3 a4 a5 a6 a7 hc3
+  · exact c08_lorentz_boost_p4_k_rhophi_z_tau_xy_theta_tau a0 a1 a2 a3 a4 a5 a6 a7 hc3
+  · exact c08_lorentz_boost_p4_k_rhophi_z_tau_xy_eta_t a0 a1 a2 a3 a4 a5 a6 a7 hc3
+  · exact c08_lorentz_boost_p4_k_rhophi_z_tau_xy_eta_tau a0 a1 a2 a3 a4 a5 a6 a7 hc3
+  · exact c08_lorentz_boost_p4_k_rhophi_z_tau_rhophi_z_t a0 a1 a2 a3 a4 a5 a6 a7 hc3
+  · exact c08_lorentz_boost_p4_k_rhophi_z_tau_rhophi_z_tau a0 a1 a2 a3 a4 a5 a6 a7 hc3
+  · exact c08_lorentz_boost_p4_k_rhophi_z_tau_rhophi_theta_t a0 a1 a2 a3 a4 a5 a6 a7 hc3
+  · exact c08_lorentz_boost_p4_k_rhophi_z_tau_rhophi_theta_tau a0 a1 a2 a3 a4 a5 a6 a7 hc3
+  · exact c08_lorentz_boost_p4_k_rhophi_z_tau_rhophi_eta_t a0 a1 a2 a3 a4 a5 a6 a7 hc3
+  · exact c08_lorentz_boost_p4_k_rhophi_z_tau_rhophi_eta_tau a0 a1 a2 a3 a4 a5 a6 a7 hc3
+  · exact VS.lorentz_boost_p4.k_rhophi_theta_t_xy_z_t_eq a0 a1 a2 a3 a4 a5 a6 a7
+  · exact VS.lorentz_boost_p4.k_rhophi_theta_t_xy_z_tau_eq a0 a1 a2 a3 a4 a5 a6 a7
+  · exact VS.lorentz_boost_p4.k_rhophi_theta_t_xy_theta_t_eq a0 a1 a2 a3 a4 a5 a6 a7
+  · exact VS.lorentz_boost_p4.k_rhophi_theta_t_xy_theta_tau_eq a0 a1 a2 a3 a4 a5 a6 a7
+  · exact VS.lorentz_boost_p4.k_rhophi_theta_t_xy_eta_t_eq a0 a1 a2 a3 a4 a5 a6 a7
+  · exact VS.lorentz_boost_p4.k_rhophi_theta_t_xy_eta_tau_eq a0 a1 a2 a3 a4 a5 a6 a7
+  · exact VS.lorentz_boost_p4.k_rhophi_theta_t_rhophi_z_t_eq a0 a1 a2 a3 a4 a5 a6 a7
+  · exact VS.lorentz_boost_p4.k_rhophi_theta_t_rhophi_z_tau_eq a0 a1 a2 a3 a4 a5 a6 a7
+  · exact VS.lorentz_boost_p4.k_rhophi_theta_t_rhophi_theta_t_eq a0 a1 a2 a3 a4 a5 a6 a7
+  · exact VS.lorentz_boost_p4.k_rhophi_theta_t_rhophi_theta_tau_eq a0 a1 a2 a3 a4 a5 a6 a7
+  · exact VS.lorentz_boost_p4.k_rhophi_theta_t_rhophi_eta_t_eq a0 a1 a2 a3 a4 a5 a6 a7
+  · exact VS.lorentz_boost_p4.k_rhophi_theta_t_rhophi_eta_tau_eq a0 a1 a2 a3 a4 a5 a6 a7
+  · exact c08_lorentz_boost_p4_k_rhophi_theta_tau_xy_z_t a0 a1 a2 a3 a4 a5 a6 a7 hc3
+  · exact c08_lorentz_boost_p4_k_rhophi_theta_tau_xy_z_tau a0 a1 a2 a3 a4 a5 a6 a7 hc3
+  · exact c08_lorentz_boost_p4_k_rhophi_theta_tau_xy_theta_t a0 a1 a2 a3 a4 a5 a6 a7 hc3
+  · exact c08_lorentz_boost_p4_k_rhophi_theta_tau_xy_theta_tau a0 a1 a2 a3 a4 a5 a6 a7 hc3
+  · exact c08_lorentz_boost_p4_k_rhophi_theta_tau_xy_eta_t a0 a1 a2 a3 a4 a5 a6 a7 hc3
+  · exact c08_lorentz_boost_p4_k_rhophi_theta_tau_xy_eta_tau a0 a1 a2 a3 a4 a5 a6 a7 hc3
+  · exact c08_lorentz_boost_p4_k_rhophi_theta_tau_rhophi_z_t a0 a1 a2 a3 a4 a5 a6 a7 hc3
+  · exact c08_lorentz_boost_p4_k_rhophi_theta_tau_rhophi_z_tau a0 a1 a2 a3 a4 a5 a6 a7 hc3
+  · exact c08_lorentz_boost_p4_k_rhophi_theta_tau_rhophi_theta_t a0 a1 a2 a3 a4 a5 a6 a7 hc3
+  · exact c08_lorentz_boost_p4_k_rhophi_theta_tau_rhophi_theta_tau a0 a1 a2 a3 a4 a5 a6 a7 hc3
+  · exact c08_lorentz_boost_p4_k_rhophi_theta_tau_rhophi_eta_t a0 a1 a2 a3 a4 a5 a6 a7 hc3
+  · exact c08_lorentz_boost_p4_k_rhophi_theta_tau_rhophi_eta_tau a0 a1 a2 a3 a4 a5 a6 a7 hc3
+  · exact VS.lorentz_boost_p4.k_rhophi_eta_t_xy_z_t_eq a0 a1 a2 a3 a4 a5 a6 a7
+  · exact VS.lorentz_boost_p4.k_rhophi_eta_t_xy_z_tau_eq a0 a1 a2 a3 a4 a5 a6 a7
+  · exact VS.lorentz_boost_p4.k_rhophi_eta_t_xy_theta_t_eq a0 a1 a2 a3 a4 a5 a6 a7
+  · exact VS.lorentz_boost_p4.k_rhophi_eta_t_xy_theta_tau_eq a0 a1 a2 a3 a4 a5 a6 a7
+  · exact VS.lorentz_boost_p4.k_rhophi_eta_t_xy_eta_t_eq a0 a1 a2 a3 a4 a5 a6 a7
+  · exact VS.lorentz_boost_p4.k_rhophi_eta_t_xy_eta_tau_eq a0 a1 a2 a3 a4 a5 a6 a7
+  · exact VS.lorentz_boost_p4.k_rhophi_eta_t_rhophi_z_t_eq a0 a1 a2 a3 a4 a5 a6 a7
+  · exact VS.lorentz_boost_p4.k_rhophi_eta_t_rhophi_z_tau_eq a0 a1 a2 a3 a4 a5 a6 a7
+  · exact VS.lorentz_boost_p4.k_rhophi_eta_t_rhophi_theta_t_eq a0 a1 a2 a3 a4 a5 a6 a7
+  · exact VS.lorentz_boost_p4.k_rhophi_eta_t_rhophi_theta_tau_eq a0 a1 a2 a3 a4 a5 a6 a7
+  · exact VS.lorentz_boost_p4.k_rhophi_eta_t_rhophi_eta_t_eq a0 a1 a2 a3 a4 a5 a6 a7
+  · exact VS.lorentz_boost_p4.k_rhophi_eta_t_rhophi_eta_tau_eq a0 a1 a2 a3 a4 a5 a6 a7
+  · exact c08_lorentz_boost_p4_k_rhophi_eta_tau_xy_z_t a0 a1 a2 a3 a4 a5 a6 a7 hc3
+  · exact c08_lorentz_boost_p4_k_rhophi_eta_tau_xy_z_tau a0 a1 a2 a3 a4 a5 a6 a7 hc3
+  · exact c08_lorentz_boost_p4_k_rhophi_eta_tau_xy_theta_t a0 a1 a2 a3 a4 a5 a6 a7 hc3
+  · exact c08_lorentz_boost_p4_k_rhophi_eta_tau_xy_theta_tau a0 a1 a2 a3 a4 a5 a6 a7 hc3
+  · exact c08_lorentz_boost_p4_k_rhophi_eta_tau_xy_eta_t a0 a1 a2 a3 a4 a5 a6 a7 hc3
+  · exact c08_lorentz_boost_p4_k_rhophi_eta_tau_xy_eta_tau a0 a1 a2 a3 a4 a5 a6 a7 hc3
+  · exact c08_lorentz_boost_p4_k_rhophi_eta_tau_rhophi_z_t a0 a1 a2 a3 a4 a5 a6 a7 hc3
+  · exact c08_lorentz_boost_p4_k_rhophi_eta_tau_rhophi_z_tau a0 a1 a2 a3 a4 a5 a6 a7 hc3
+  · exact c08_lorentz_boost_p4_k_rhophi_eta_tau_rhophi_theta_t a0 a1 a2 a3 a4 a5 a6 a7 hc3
+  · exact c08_lorentz_boost_p4_k_rhophi_eta_tau_rhophi_theta_tau a0 a1 a2 a3 a4 a5 a6 a7 hc3
+  · exact c08_lorentz_boost_p4_k_rhophi_eta_tau_rhophi_eta_t a0 a1 a2 a3 a4 a5 a6 a7 hc3
+  · exact c08_lorentz_boost_p4_k_rhophi_eta_tau_rhophi_eta_tau a0 a1 a2 a3 a4 a5 a6 a7 hc3
+
+/-- `lorentz_dot`: all 144 keys -/
+theorem c08_lorentz_dot (k0 : Az) (k1 : Lon) (k2 : Tmp) (k3 : Az) (k4 : Lon) (k5 : Tmp) (a0 a1 a2 a3 a4 a5 a6 a7 : ℝ)
+    (hc3 : CanonTmp k2 a3)
+    (hc7 : CanonTmp k5 a7) :
+    VS.lorentz_dot.eval k0 k1 k2 k3 k4 k5 a0 a1 a2 a3 a4 a5 a6 a7 =
+      VR.lorentz_dot.eval k0 k1 k2 k3 k4 k5 a0 a1 a2 a3 a4 a5 a6 a7 := by
+  cases k0 <;> cases k1 <;> cases k2 <;> cases k3 <;> cases k4 <;> cases k5
+  · exact VS.lorentz_dot.k_xy_z_t_xy_z_t_eq a0 a1 a2 a3 a4 a5 a6 a7
+  · exact c08_lorentz_dot_k_xy_z_t_xy_z_tau a0 a1 a2 a3 a4 a5 a6 a7 hc7
+  · exact VS.lorentz_dot.k_xy_z_t_xy_theta_t_eq a0 a1 a2 a3 a4 a5 a6 a7
+  · exact c08_lorentz_dot_k_xy_z_t_xy_theta_tau a0 a1 a2 a3 a4 a5 a6 a7 hc7
+  · exact VS.lorentz_dot.k_xy_z_t_xy_eta_t_eq a0 a1 a2 a3 a4 a5 a6 a7
+  · exact c08_lorentz_dot_k_xy_z_t_xy_eta_tau a0 a1 a2 a3 a4 a5 a6 a7 hc7
+  · exact VS.lorentz_dot.k_xy_z_t_rhophi_z_t_eq a0 a1 a2 a3 a4 a5 a6 a7
+  · exact c08_lorentz_dot_k_xy_z_t_rhophi_z_tau a0 a1 a2 a3 a4 a5 a6 a7 hc7
+  · exact VS.lorentz_dot.k_xy_z_t_rhophi_theta_t_eq a0 a1 a2 a3 a4 a5 a6 a7
+  · exact c08_lorentz_dot_k_xy_z_t_rhophi_theta_tau a0 a1 a2 a3 a4 a5 a6 a7 hc7
+  · exact VS.lorentz_dot.k_xy_z_t_rhophi_eta_t_eq a0 a1 a2 a3 a4 a5 a6 a7
+  · exact c08_lorentz_dot_k_xy_z_t_rhophi_eta_tau a0 a1 a2 a3 a4 a5 a6 a7 hc7
+  · exact c08_lorentz_dot_k_xy_z_tau_xy_z_t a0 a1 a2 a3 a4 a5 a6 a7 hc3
+  · exact c08_lorentz_dot_k_xy_z_tau_xy_z_tau a0 a1 a2 a3 a4 a5 a6 a7 hc3 hc7
+  · exact c08_lorentz_dot_k_xy_z_tau_xy_theta_t a0 a1 a2 a3 a4 a5 a6 a7 hc3
+  · exact c08_lorentz_dot_k_xy_z_tau_xy_theta_tau a0 a1 a2 a3 a4 a5 a6 a7 hc3 hc7
+  · exact c08_lorentz_dot_k_xy_z_tau_xy_eta_t a0 a1 a2 a3 a4 a5 a6 a7 hc3
+  · exact c08_lorentz_dot_k_xy_z_tau_xy_eta_tau a0 a1 a2 a3 a4 a5 a6 a7 hc3 hc7
+  · exact c08_lorentz_dot_k_xy_z_tau_rhophi_z_t a0 a1 a2 a3 a4 a5 a6 a7 hc3
+  · exact c08_lorentz_dot_k_xy_z_tau_rhophi_z_tau a0 a1 a2 a3 a4 a5 a6 a7 hc3 hc7
+  · exact c08_lorentz_dot_k_xy_z_tau_rhophi_theta_t a0 a1 a2 a3 a4 a5 a6 a7 hc3
+  · exact c08_lorentz_dot_k_xy_z_tau_rhophi_theta_tau a0 a1 a2 a3 a4 a5 a6 a7 hc3 hc7
+  · exact c08_lorentz_dot_k_xy_z_tau_rhophi_eta_t a0 a1 a2 a3 a4 a5 a6 a7 hc3
+  · exact c08_lorentz_dot_k_xy_z_tau_rhophi_eta_tau a0 a1 a2 a3 a4 a5 a6 a7 hc3 hc7
+  · exact VS.lorentz_dot.k_xy_theta_t_xy_z_t_eq a0 a1 a2 a3 a4 a5 a6 a7
+  · exact c08_lorentz_dot_k_xy_theta_t_xy_z_tau a0 a1 a2 a3 a4 a5 a6 a7 hc7
+  · exact VS.lorentz_dot.k_xy_theta_t_xy_theta_t_eq a0 a1 a2 a3 a4 a5 a6 a7
+  · exact c08_lorentz_dot_k_xy_theta_t_xy_theta_tau a0 a1 a2 a3 a4 a5 a6 a7 hc7
+  · exact VS.lorentz_dot.k_xy_theta_t_xy_eta_t_eq a0 a1 a2 a3 a4 a5 a6 a7
+  · exact c08_lorentz_dot_k_xy_theta_t_xy_eta_tau a0 a1 a2 a3 a4 a5 a6 a7 hc7
+  · exact VS.lorentz_dot.k_xy_theta_t_rhophi_z_t_eq a0 a1 a2 a3 a4 a5 a6 a7
+  · exact c08_lorentz_dot_k_xy_theta_t_rhophi_z_tau a0 a1 a2 a3 a4 a5 a6 a7 hc7
+  · exact VS.lorentz_dot.k_xy_theta_t_rhophi_theta_t_eq a0 a1 a2 a3 a4 a5 a6 a7
+  · exact c08_lorentz_dot_k_xy_theta_t_rhophi_theta_tau a0 a1 a2 a3 a4 a5 a6 a7 hc7
+  · exact VS.lorentz_dot.k_xy_theta_t_rhophi_eta_t_eq a0 a1 a2 a3 a4 a5 a6 a7
+  · exact c08_lorentz_dot_k_xy_theta_t_rhophi_eta_tau a0 a1 a2 a3 a4 a5 a6 a7 hc7
+  · exact c08_lorentz_dot_k_xy_theta_tau_xy_z_t a0 a1 a2 a3 a4 a5 a6 a7 hc3
+  · exact c08_lorentz_dot_k_xy_theta_tau_xy_z_tau a0 a1 a2 a3 a4 a5 a6 a7 hc3 hc7
+  · exact c08_lorentz_dot_k_xy_theta_tau_xy_theta_t a0 a1 a2 a3 a4 a5 a6 a7 hc3
+  · exact c08_lorentz_dot_k_xy_theta_tau_xy_theta_tau a0 a1 a2 a3 a4 a5 a6 a7 hc3 hc7
+  · exact c08_lorentz_dot_k_xy_theta_tau_xy_eta_t a0 a1 a2 a3 a4 a5 a6 a7 hc3
+  · exact c08_lorentz_dot_k_xy_theta_tau_xy_eta_tau a0 a1 a2 a3 a4 a5 a6 a7 hc3 hc7
+  · exact c08_lorentz_dot_k_xy_theta_tau_rhophi_z_t a0 a1 a2 a3 a4 a5 a6 a7 hc3
+  · exact c08_lorentz_dot_k_xy_theta_tau_rhophi_z_tau a0 a1 a2 a3 a4 a5 a6 a7 hc3 hc7
+  · exact c08_lorentz_dot_k_xy_theta_tau_rhophi_theta_t a0 a1 a2 a3 a4 a5 a6 a7 hc3
+  · exact c08_lorentz_dot_k_xy_theta_tau_rhophi_theta_tau a0 a1 a2 a3 a4 a5 a6 a7 hc3 hc7
+  · exact c08_lorentz_dot_k_xy_theta_tau_rhophi_eta_t a0 a1 a2 a3 a4 a5 a6 a7 hc3
+  · exact c08_lorentz_dot_k_xy_theta_tau_rhophi_eta_tau a0 a1 a2 a3 a4 a5 a6 a7 hc3 hc7
+  · exact VS.lorentz_dot.k_xy_eta_t_xy_z_t_eq a0 a1 a2 a3 a4 a5 a6 a7
+  · exact c08_lorentz_dot_k_xy_eta_t_xy_z_tau a0 a1 a2 a3 a4 a5 a6 a7 hc7
+  · exact VS.lorentz_dot.k_xy_eta_t_xy_theta_t_eq a0 a1 a2 a3 a4 a5 a6 a7
+  · exact c08_lorentz_dot_k_xy_eta_t_xy_theta_tau a0 a1 a2 a3 a4 a5 a6 a7 hc7
+  · exact VS.lorentz_dot.k_xy_eta_t_xy_eta_t_eq a0 a1 a2 a3 a4 a5 a6 a7
+  · exact c08_lorentz_dot_k_xy_eta_t_xy_eta_tau a0 a1 a2 a3 a4 a5 a6 a7 hc7
+  · exact VS.lorentz_dot.k_xy_eta_t_rhophi_z_t_eq a0 a1 a2 a3 a4 a5 a6 a7
+  · exact c08_lorentz_dot_k_xy_eta_t_rhophi_z_tau a0 a1 a2 a3 a4 a5 a6 a7 hc7
+  · exact VS.lorentz_dot.k_xy_eta_t_rhophi_theta_t_eq a0 a1 a2 a3 a4 a5 a6 a7
+  · exact c08_lorentz_dot_k_xy_eta_t_rhophi_theta_tau a0 a1 a2 a3 a4 a5 a6 a7 hc7
+  · exact VS.lorentz_dot.k_xy_eta_t_rhophi_eta_t_eq a0 a1 a2 a3 a4 a5 a6 a7
+  · exact c08_lorentz_dot_k_xy_eta_t_rhophi_eta_tau a0 a1 a2 a3 a4 a5 a6 a7 hc7
+  · exact c08_lorentz_dot_k_xy_eta_tau_xy_z_t a0 a1 a2 a3 a4 a5 a6 a7 hc3
+  · exact c08_lorentz_dot_k_xy_eta_tau_xy_z_tau a0 a1 a2 a3 a4 a5 a6 a7 hc3 hc7
+  · exact c08_lorentz_dot_k_xy_eta_tau_xy_theta_t a0 a1 a2 a3 a4 a5 a6 a7 hc3
+  · exact c08_lorentz_dot_k_xy_eta_tau_xy_theta_tau a0 a1 a2 a3 a4 a5 a6 a7 hc3 hc7
+  · exact c08_lorentz_dot_k_xy_eta_tau_xy_eta_t a0 a1 a2 a3 a4 a5 a6 a7 hc3
+  · exact c08_lorentz_dot_k_xy_eta_tau_xy_eta_tau a0 a1 a2 a3 a4 a5 a6 a7 hc3 hc7
+  · exact c08_lorentz_dot_k_xy_eta_tau_rhophi_z_t a0 a1 a2 a3 a4 a5 a6 a7 hc3
+  · exact c08_lorentz_dot_k_xy_eta_tau_rhophi_z_tau a0 a1 a2 a3 a4 a5 a6 a7 hc3 hc7
+  · exact c08_lorentz_dot_k_xy_eta_tau_rhophi_theta_t a0 a1 a2 a3 a4 a5 a6 a7 hc3
+  · exact c08_lorentz_dot_k_xy_eta_tau_rhophi_theta_tau a0 a1 a2 a3 a4 a5 a6 a7 hc3 hc7
+  · exact c08_lorentz_dot_k_xy_eta_tau_rhophi_eta_t a0 a1 a2 a3 a4 a5 a6 a7 hc3
+  · exact c08_lorentz_dot_k_xy_eta_tau_rhophi_eta_tau a0 a1 a2 a3 a4 a5 a6 a7 hc3 hc7
+  · exact VS.lorentz_dot.k_rhophi_z_t_xy_z_t_eq a0 a1 a2 a3 a4 a5 a6 a7
+  · exact c08_lorentz_dot_k_rhophi_z_t_xy_z_tau a0 a1 a2 a3 a4 a5 a6 a7 hc7
+  · exact VS.lorentz_dot.k_rhophi_z_t_xy_theta_t_eq a0 a1 a2 a3 a4 a5 a6 a7
+  · exact c08_lorentz_dot_k_rhophi_z_t_xy_theta_tau a0 a1 a2 a3 a4 a5 a6 a7 hc7
+  · exact VS.lorentz_dot.k_rhophi_z_t_xy_eta_t_eq a0 a1 a2 a3 a4 a5 a6 a7
+  · exact c08_lorentz_dot_k_rhophi_z_t_xy_eta_tau a0 a1 a2 a3 a4 a5 a6 a7 hc7
+  · exact VS.lorentz_dot.k_rhophi_z_t_rhophi_z_t_eq a0 a1 a2 a3 a4 a5 a6 a7
+  · exact c08_lorentz_dot_k_rhophi_z_t_rhophi_z_tau a0 a1 a2 a3 a4 a5 a6 a7 hc7
+  · exact VS.lorentz_dot.k_rhophi_z_t_rhophi_theta_t_eq a0 a1 a2 a3 a4 a5 a6 a7
+  · exact c08_lorentz_dot_k_rhophi_z_t_rhophi_theta_tau a0 a1 a2 a3 a4 a5 a6 a7 hc7
+  · exact VS.lorentz_dot.k_rhophi_z_t_rhophi_eta_t_eq a0 a1 a2 a3 a4 a5 a6 a7
+  · exact c08_lorentz_dot_k_rhophi_z_t_rhophi_eta_tau a0 a1 a2 a3 a4 a5 a6 a7 hc7
+  · exact c08_lorentz_dot_k_rhophi_z_tau_xy_z_t a0 a1 a2 a3 a4 a5 a6 a7 hc3
+  · exact c08_lorentz_dot_k_rhophi_z_tau_xy_z_tau a0 a1 a2 a3 a4 a5 a6 a7 hc3 hc7
+  · exact c08_lorentz_dot_k_rhophi_z_tau_xy_theta_t a0 a1 a2 a3 a4 a5 a6 a7 hc3
+  · exact c08_lorentz_dot_k_rhophi_z_tau_xy_theta_tau a0 a1 a2 a3 a4 a5 a6 a7 hc3 hc7
+  · exact c08_lorentz_dot_k_rhophi_z_tau_xy_eta_t a0 a1 a2 a3 a4 a5 a6 a7 hc3
+  · exact c08_lorentz_dot_k_rhophi_z_tau_xy_eta_tau a0 a1 a2 a3 a4 a5 a6 a7 hc3 hc7
+  · exact c08_lorentz_dot_k_rhophi_z_tau_rhophi_z_t a0 a1 a2 a3 a4 a5 a6 a7 hc3
+  · exact c08_lorentz_dot_k_rhophi_z_tau_rhophi_z_tau a0 a1 a2 a3 a4 a5 a6 a7 hc3 hc7
+  · exact c08_lorentz_dot_k_rhophi_z_tau_rhophi_theta_t a0 a1 a2 a3 a4 a5 a6 a7 hc3
+  · exact c08_lorentz_dot_k_rhophi_z_tau_rhophi_theta_tau a0 a1 a2 a3 a4 a5 a6 a7 hc3 hc7
+  · exact c08_lorentz_dot_k_rhophi_z_tau_rhophi_eta_t a0 a1 a2 a3 a4 a5 a6 a7 hc3
+  · exact c08_lorentz_dot_k_rhophi_z_tau_rhophi_eta_tau a0 a1 a2 a3 a4 a5 a6 a7 hc3 hc7
+  · exact VS.lorentz_dot.k_rhophi_theta_t_xy_z_t_eq a0 a1 a2 a3 a4 a5 a6 a7
+  · exact c08_lorentz_dot_k_rhophi_theta_t_xy_z_tau a0 a1 a2 a3 a4 a5 a6 a7 hc7
+  · exact VS.lorentz_dot.k_rhophi_theta_t_xy_theta_t_eq a0 a1 a2 a3 a4 a5 a6 a7
+  · exact c08_lorentz_dot_k_rhophi_theta_t_xy_theta_tau a0 a1 a2 a3 a4 a5 a6 a7 hc7
+  · exact VS.lorentz_dot.k_rhophi_theta_t_xy_eta_t_eq a0 a1 a2 a3 a4 a5 a6 a7
+  · exact c08_lorentz_dot_k_rhophi_theta_t_xy_eta_tau a0 a1 a2 a3 a4 a5 a6 a7 hc7
+  · exact VS.lorentz_dot.k_rhophi_theta_t_rhophi_z_t_eq a0 a1 a2 a3 a4 a5 a6 a7
+  · exact c08_lorentz_dot_k_rhophi_theta_t_rhophi_z_tau a0 a1 a2 a3 a4 a5 a6 a7 hc7
+  · exact VS.lorentz_dot.k_rhophi_theta_t_rhophi_theta_t_eq a0 a1 a2 a3 a4 a5 a6 a7
+  · exact c08_lorentz_dot_k_rhophi_theta_t_rhophi_theta_tau a0 a1 a2 a3 a4 a5 a6 a7 hc7
+  · exact VS.lorentz_dot.k_rhophi_theta_t_rhophi_eta_t_eq a0 a1 a2 a3 a4 a5 a6 a7
+  · exact c08_lorentz_dot_k_rhophi_theta_t_rhophi_eta_tau a0 a1 a2 a3 a4 a5 a6 a7 hc7
+  · exact c08_lorentz_dot_k_rhophi_theta_tau_xy_z_t a0 a1 a2 a3 a4 a5 a6 a7 hc3
+  · exact c08_lorentz_dot_k_rhophi_theta_tau_xy_z_tau a0 a1 a2 a3 a4 a5 a6 a7 hc3 hc7
+  · exact c08_lorentz_dot_k_rhophi_theta_tau_xy_theta_t a0 a1 a2 a3 a4 a5 a6 a7 hc3
+  · exact c08_lorentz_dot_k_rhophi_theta_tau_xy_theta_tau a0 a1 a2 a3 a4 a5 a6 a7 hc3 hc7
+  · exact c08_lorentz_dot_k_rhophi_theta_tau_xy_eta_t a0 a1 a2 a3 a4 a5 a6 a7 hc3
+  · exact c08_lorentz_dot_k_rhophi_theta_tau_xy_eta_tau a0 a1 a2 a3 a4 a5 a6 a7 hc3 hc7
+  · exact c08_lorentz_dot_k_rhophi_theta_tau_rhophi_z_t a0 a1 a2 a3 a4 a5 a6 a7 hc3
+  · exact c08_lorentz_dot_k_rhophi_theta_tau_rhophi_z_tau a0 a1 a2 a3 a4 a5 a6 a7 hc3 hc7
+  · exact c08_lorentz_dot_k_rhophi_theta_tau_rhophi_theta_t a0 a1 a2 a3 a4 a5 a6 a7 hc3
+  · exact c08_lorentz_dot_k_rhophi_theta_tau_rhophi_theta_tau a0 a1 a2 a3 a4 a5 a6 a7 hc3 hc7
+  · exact c08_lorentz_dot_k_rhophi_theta_tau_rhophi_eta_t a0 a1 a2 a3 a4 a5 a6 a7 hc3
+  · exact c08_lorentz_dot_k_rhophi_theta_tau_rhophi_eta_tau a0 a1 a2 a3 a4 a5 a6 a7 hc3 hc7
+  · exact VS.lorentz_dot.k_rhophi_eta_t_xy_z_t_eq a0 a1 a2 a3 a4 a5 a6 a7
+  · exact c08_lorentz_dot_k_rhophi_eta_t_xy_z_tau a0 a1 a2 a3 a4 a5 a6 a7 hc7
+  · exact VS.lorentz_dot.k_rhophi_eta_t_xy_theta_t_eq a0 a1 a2 a3 a4 a5 a6 a7
+  · exact c08_lorentz_dot_k_rhophi_eta_t_xy_theta_tau a0 a1 a2 a3 a4 a5 a6 a7 hc7
+  · exact VS.lorentz_dot.k_rhophi_eta_t_xy_eta_t_eq a0 a1 a2 a3 a4 a5 a6 a7
+  · exact c08_lorentz_dot_k_rhophi_eta_t_xy_eta_tau a0 a1 a2 a3 a4 a5 a6 a7 hc7
+  · exact VS.lorentz_dot.k_rhophi_eta_t_rhophi_z_t_eq a0 a1 a2 a3 a4 a5 a6 a7
+  · exact c08_lorentz_dot_k_rhophi_eta_t_rhophi_z_tau a0 a1 a2 a3 a4 a5 a6 a7 hc7
+  · exact VS.lorentz_dot.k_rhophi_eta_t_rhophi_theta_t_eq a0 a1 a2 a3 a4 a5 a6 a7
+  · exact c08_lorentz_dot_k_rhophi_eta_t_rhophi_theta_tau a0 a1 a2 a3 a4 a5 a6 a7 hc7
+  · exact VS.lorentz_dot.k_rhophi_eta_t_rhophi_eta_t_eq a0 a1 a2 a3 a4 a5 a6 a7
+  · exact c08_lorentz_dot_k_rhophi_eta_t_rhophi_eta_tau a0 a1 a2 a3 a4 a5 a6 a7 hc7
+  · exact c08_lorentz_dot_k_rhophi_eta_tau_xy_z_t a0 a1 a2 a3 a4 a5 a6 a7 hc3
+  · exact c08_lorentz_dot_k_rhophi_eta_tau_xy_z_tau a0 a1 a2 a3 a4 a5 a6 a7 hc3 hc7
+  · exact c08_lorentz_dot_k_rhophi_eta_tau_xy_theta_t a0 a1 a2 a3 a4 a5 a6 a7 hc3
+  · exact c08_lorentz_dot_k_rhophi_eta_tau_xy_theta_tau a0 a1 a2 a3 a4 a5 a6 a7 hc3 hc7
+  · exact c08_lorentz_dot_k_rhophi_eta_tau_xy_eta_t a0 a1 a2 a3 a4 a5 a6 a7 hc3
+  · exact c08_lorentz_dot_k_rhophi_eta_tau_xy_eta_tau a0 a1 a2 a3 a4 a5 a6 a7 hc3 hc7
+  · exact c08_lorentz_dot_k_rhophi_eta_tau_rhophi_z_t a0 a1 a2 a3 a4 a5 a6 a7 hc3
+  · exact c08_lorentz_dot_k_rhophi_eta_tau_rhophi_z_tau a0 a1 a2 a3 a4 a5 a6 a7 hc3 hc7
+  · exact c08_lorentz_dot_k_rhophi_eta_tau_rhophi_theta_t a0 a1 a2 a3 a4 a5 a6 a7 hc3
+  · exact c08_lorentz_dot_k_rhophi_eta_tau_rhophi_theta_tau a0 a1 a2 a3 a4 a5 a6 a7 hc3 hc7
+  · exact c08_lorentz_dot_k_rhophi_eta_tau_rhophi_eta_t a0 a1 a2 a3 a4 a5 a6 a7 hc3
+  · exact c08_lorentz_dot_k_rhophi_eta_tau_rhophi_eta_tau a0 a1 a2 a3 a4 a5 a6 a7 hc3 hc7
+
+/-- `lorentz_equal`: all 144 keys -/
+theorem c08_lorentz_equal (k0 : Az) (k1 : Lon) (k2 : Tmp) (k3 : Az) (k4 : Lon) (k5 : Tmp) (a0 a1 a2 a3 a4 a5 a6 a7 : ℝ)
+    (hc3 : CanonTmp k2 a3)
+    (hc7 : CanonTmp k5 a7) :
+    VS.lorentz_equal.eval k0 k1 k2 k3 k4 k5 a0 a1 a2 a3 a4 a5 a6 a7 ↔
+      VR.lorentz_equal.eval k0 k1 k2 k3 k4 k5 a0 a1 a2 a3 a4 a5 a6 a7 := by
+  cases k0 <;> cases k1 <;> cases k2 <;> cases k3 <;> cases k4 <;> cases k5
+  · exact Iff.of_eq (VS.lorentz_equal.k_xy_z_t_xy_z_t_eq a0 a1 a2 a3 a4 a5 a6 a7)
+  · exact Iff.of_eq (c08_lorentz_equal_k_xy_z_t_xy_z_tau a0 a1 a2 a3 a4 a5 a6 a7 hc7)
+  · exact Iff.of_eq (VS.lorentz_equal.k_xy_z_t_xy_theta_t_eq a0 a1 a2 a3 a4 a5 a6 a7)
+  · exact Iff.of_eq (c08_lorentz_equal_k_xy_z_t_xy_theta_tau a0 a1 a2 a3 a4 a5 a6 a7 hc7)
+  · exact Iff.of_eq (VS.lorentz_equal.k_xy_z_t_xy_eta_t_eq a0 a1 a2 a3 a4 a5 a6 a7)
+  · exact Iff.of_eq (c08_lorentz_equal_k_xy_z_t_xy_eta_tau a0 a1 a2 a3 a4 a5 a6 a7 hc7)
+  · exact Iff.of_eq (VS.lorentz_equal.k_xy_z_t_rhophi_z_t_eq a0 a1 a2 a3 a4 a5 a6 a7)
+  · exact Iff.of_eq (c08_lorentz_equal_k_xy_z_t_rhophi_z_tau a0 a1 a2 a3 a4 a5 a6 a7 hc7)
+  · exact Iff.of_eq (VS.lorentz_equal.k_xy_z_t_rhophi_theta_t_eq a0 a1 a2 a3 a4 a5 a6 a7)
+  · exact Iff.of_eq (c08_lorentz_equal_k_xy_z_t_rhophi_theta_tau a0 a1 a2 a3 a4 a5 a6 a7 hc7)
+  · exact Iff.of_eq (VS.lorentz_equal.k_xy_z_t_rhophi_eta_t_eq a0 a1 a2 a3 a4 a5 a6 a7)
+  · exact Iff.of_eq (c08_lorentz_equal_k_xy_z_t_rhophi_eta_tau a0 a1 a2 a3 a4 a5 a6 a7 hc7)
+  · exact Iff.of_eq (c08_lorentz_equal_k_xy_z_tau_xy_z_t a0 a1 a2 a3 a4 a5 a6 a7 hc3)
+  · exact Iff.of_eq (VS.lorentz_equal.k_xy_z_tau_xy_z_tau_eq a0 a1 a2 a3 a4 a5 a6 a7)
+  · exact Iff.of_eq (c08_lorentz_equal_k_xy_z_tau_xy_theta_t a0 a1 a2 a3 a4 a5 a6 a7 hc3)
+  · exact Iff.of_eq (VS.lorentz_equal.k_xy_z_tau_xy_theta_tau_eq a0 a1 a2 a3 a4 a5 a6 a7)
+  · exact Iff.of_eq (c08_lorentz_equal_k_xy_z_tau_xy_eta_t a0 a1 a2 a3 a4 a5 a6 a7 hc3)
+  · exact Iff.of_eq (VS.lorentz_equal.k_xy_z_tau_xy_eta_tau_eq a0 a1 a2 a3 a4 a5 a6 a7)
+  · exact Iff.of_eq (c08_lorentz_equal_k_xy_z_tau_rhophi_z_t a0 a1 a2 a3 a4 a5 a6 a7 hc3)
+  · exact Iff.of_eq (VS.lorentz_equal.k_xy_z_tau_rhophi_z_tau_eq a0 a1 a2 a3 a4 a5 a6 a7)
+  · exact Iff.of_eq (c08_lorentz_equal_k_xy_z_tau_rhophi_theta_t a0 a1 a2 a3 a4 a5 a6 a7 hc3)
+  · exact Iff.of_eq (VS.lorentz_equal.k_xy_z_tau_rhophi_theta_tau_eq a0 a1 a2 a3 a4 a5 a6 a7)
+  · exact Iff.of_eq (c08_lorentz_equal_k_xy_z_tau_rhophi_eta_t a0 a1 a2 a3 a4 a5 a6 a7 hc3)
+  · exact Iff.of_eq (VS.lorentz_equal.k_xy_z_tau_rhophi_eta_tau_eq a0 a1 a2 a3 a4 a5 a6 a7)
+  · exact Iff.of_eq (VS.lorentz_equal.k_xy_theta_t_xy_z_t_eq a0 a1 a2 a3 a4 a5 a6 a7)
+  · exact Iff.of_eq (c08_lorentz_equal_k_xy_theta_t_xy_z_tau a0 a1 a2 a3 a4 a5 a6 a7 hc7)
+  · exact Iff.of_eq (VS.lorentz_equal.k_xy_theta_t_xy_theta_t_eq a0 a1 a2 a3 a4 a5 a6 a7)
+  · exact Iff.of_eq (c08_lorentz_equal_k_xy_theta_t_xy_theta_tau a0 a1 a2 a3 a4 a5 a6 a7 hc7)
+  · exact Iff.of_eq (VS.lorentz_equal.k_xy_theta_t_xy_eta_t_eq a0 a1 a2 a3 a4 a5 a6 a7)
+  · exact Iff.of_eq (c08_lorentz_equal_k_xy_theta_t_xy_eta_tau a0 a1 a2 a3 a4 a5 a6 a7 hc7)
+  · exact Iff.of_eq (VS.lorentz_equal.k_xy_theta_t_rhophi_z_t_eq a0 a1 a2 a3 a4 a5 a6 a7)
+  · exact Iff.of_eq (c08_lorentz_equal_k_xy_theta_t_rhophi_z_tau a0 a1 a2 a3 a4 a5 a6 a7 hc7)
+  · exact Iff.of_eq (VS.lorentz_equal.k_xy_theta_t_rhophi_theta_t_eq a0 a1 a2 a3 a4 a5 a6 a7)
+  · exact Iff.of_eq (c08_lorentz_equal_k_xy_theta_t_rhophi_theta_tau a0 a1 a2 a3 a4 a5 a6 a7 hc7)
+  · exact Iff.of_eq (VS.lorentz_equal.k_xy_theta_t_rhophi_eta_t_eq a0 a1 a2 a3 a4 a5 a6 a7)
+  · exact Iff.of_eq (c08_lorentz_equal_k_xy_theta_t_rhophi_eta_tau a0 a1 a2 a3 a4 a5 a6 a7 hc7)
+  · exact Iff.of_eq (c08_lorentz_equal_k_xy_theta_tau_xy_z_t a0 a1 a2 a3 a4 a5 a6 a7 hc3)
+  · exact Iff.of_eq (VS.lorentz_equal.k_xy_theta_tau_xy_z_tau_eq a0 a1 a2 a3 a4 a5 a6 a7)
+  · exact Iff.of_eq (c08_lorentz_equal_k_xy_theta_tau_xy_theta_t a0 a1 a2 a3 a4 a5 a6 a7 hc3)
+  · exact Iff.of_eq (VS.lorentz_equal.k_xy_theta_tau_xy_theta_tau_eq a0 a1 a2 a3 a4 a5 a6 a7)
+  · exact Iff.of_eq (c08_lorentz_equal_k_xy_theta_tau_xy_eta_t a0 a1 a2 a3 a4 a5 a6 a7 hc3)
+  · exact Iff.of_eq (VS.lorentz_equal.k_xy_theta_tau_xy_eta_tau_eq a0 a1 a2 a3 a4 a5 a6 a7)
+  · exact Iff.of_eq (c08_lorentz_equal_k_xy_theta_tau_rhophi_z_t a0 a1 a2 a3 a4 a5 a6 a7 hc3)
+  · exact Iff.of_eq (VS.lorentz_equal.k_xy_theta_tau_rhophi_z_tau_eq a0 a1 a2 a3 a4 a5 a6 a7)
+  · exact Iff.of_eq (c08_lorentz_equal_k_xy_theta_tau_rhophi_theta_t a0 a1 a2 a3 a4 a5 a6 a7 hc3)
+  · exact Iff.of_eq (VS.lorentz_equal.k_xy_theta_tau_rhophi_theta_tau_eq a0 a1 a2 a3 a4 a5 a6 a7)
+  · exact Iff.of_eq (c08_lorentz_equal_k_xy_theta_tau_rhophi_eta_t a0 a1 a2 a3 a4 a5 a6 a7 hc3)
+  · exact Iff.of_eq (VS.lorentz_equal.k_xy_theta_tau_rhophi_eta_tau_eq a0 a1 a2 a3 a4 a5 a6 a7)
+  · exact Iff.of_eq (VS.lorentz_equal.k_xy_eta_t_xy_z_t_eq a0 a1 a2 a3 a4 a5 a6 a7)
+  · exact Iff.of_eq (c08_lorentz_equal_k_xy_eta_t_xy_z_tau a0 a1 a2 a3 a4 a5 a6 a7 hc7)
+  · exact Iff.of_eq (VS.lorentz_equal.k_xy_eta_t_xy_theta_t_eq a0 a1 a2 a3 a4 a5 a6 a7)
+  · exact Iff.of_eq (c08_lorentz_equal_k_xy_eta_t_xy_theta_tau a0 a1 a2 a3 a4 a5 a6 a7 hc7)
+  · exact Iff.of_eq (VS.lorentz_equal.k_xy_eta_t_xy_eta_t_eq a0 a1 a2 a3 a4 a5 a6 a7)
+  · exact Iff.of_eq (c08_lorentz_equal_k_xy_eta_t_xy_eta_tau a0 a1 a2 a3 a4 a5 a6 a7 hc7)
+  · exact Iff.of_eq (VS.lorentz_equal.k_xy_eta_t_rhophi_z_t_eq a0 a1 a2 a3 a4 a5 a6 a7)
+  · exact Iff.of_eq (c08_lorentz_equal_k_xy_eta_t_rhophi_z_tau a0 a1 a2 a3 a4 a5 a6 a7 hc7)
+  · exact Iff.of_eq (VS.lorentz_equal.k_xy_eta_t_rhophi_theta_t_eq a0 a1 a2 a3 a4 a5 a6 a7)
+  · exact Iff.of_eq (c08_lorentz_equal_k_xy_eta_t_rhophi_theta_tau a0 a1 a2 a3 a4 a5 a6 a7 hc7)
+  · exact Iff.of_eq (VS.lorentz_equal.k_xy_eta_t_rhophi_eta_t_eq a0 a1 a2 a3 a4 a5 a6 a7)
+  · exact Iff.of_eq (c08_lorentz_equal_k_xy_eta_t_rhophi_eta_tau a0 a1 a2 a3 a4 a5 a6 a7 hc7)
+  · exact Iff.of_eq (c08_lorentz_equal_k_xy_eta_tau_xy_z_t a0 a1 a2 a3 a4 a5 a6 a7 hc3)
+  · exact Iff.of_eq (VS.lorentz_equal.k_xy_eta_tau_xy_z_tau_eq a0 a1 a2 a3 a4 a5 a6 a7)
+  · exact Iff.of_eq (c08_lorentz_equal_k_xy_eta_tau_xy_theta_t a0 a1 a2 a3 a4 a5 a6 a7 hc3)
+  · exact Iff.of_eq (VS.lorentz_equal.k_xy_eta_tau_xy_theta_tau_eq a0 a1 a2 a3 a4 a5 a6 a7)
+  · exact Iff.of_eq (c08_lorentz_equal_k_xy_eta_tau_xy_eta_t a0 a1 a2 a3 a4 a5 a6 a7 hc3)
+  · exact Iff.of_eq (VS.lorentz_equal.k_xy_eta_tau_xy_eta_tau_eq a0 a1 a2 a3 a4 a5 a6 a7)
+  · exact Iff.of_eq (c08_lorentz_equal_k_xy_eta_tau_rhophi_z_t a0 a1 a2 a3 a4 a5 a6 a7 hc3)
+  · exact Iff.of_eq (VS.lorentz_equal.k_xy_eta_tau_rhophi_z_tau_eq a0 a1 a2 a3 a4 a5 a6 a7)
+  · exact Iff.of_eq (c08_lorentz_equal_k_xy_eta_tau_rhophi_theta_t a0 a1 a2 a3 a4 a5 a6 a7 hc3)
+  · exact Iff.of_eq (VS.lorentz_equal.k_xy_eta_tau_rhophi_theta_tau_eq a0 a1 a2 a3 a4 a5 a6 a7)
+  · exact Iff.of_eq (c08_lorentz_equal_k_xy_eta_tau_rhophi_eta_t a0 a1 a2 a3 a4 a5 a6 a7 hc3)
+  · exact Iff.of_eq (VS.lorentz_equal.k_xy_eta_tau_rhophi_eta_tau_eq a0 a1 a2 a3 a4 a5 a6 a7)
+  · exact Iff.of_eq (VS.lorentz_equal.k_rhophi_z_t_xy_z_t_eq a0 a1 a2 a3 a4 a5 a6 a7)
+  · exact Iff.of_eq (c08_lorentz_equal_k_rhophi_z_t_xy_z_tau a0 a1 a2 a3 a4 a5 a6 a7 hc7)
+  · exact Iff.of_eq (VS.lorentz_equal.k_rhophi_z_t_xy_theta_t_eq a0 a1 a2 a3 a4 a5 a6 a7)
+  · exact Iff.of_eq (c08_lorentz_equal_k_rhophi_z_t_xy_theta_tau a0 a1 a2 a3 a4 a5 a6 a7 hc7)
+  · exact Iff.of_eq (VS.lorentz_equal.k_rhophi_z_t_xy_eta_t_eq a0 a1 a2 a3 a4 a5 a6 a7)
+  · exact Iff.of_eq (c08_lorentz_equal_k_rhophi_z_t_xy_eta_tau a0 a1 a2 a3 a4 a5 a6 a7 hc7)
+  · exact Iff.of_eq (VS.lorentz_equal.k_rhophi_z_t_rhophi_z_t_eq a0 a1 a2 a3 a4 a5 a6 a7)
+  · exact Iff.of_eq (c08_lorentz_equal_k_rhophi_z_t_rhophi_z_tau a0 a1 a2 a3 a4 a5 a6 a7 hc7)
+  · exact Iff.of_eq (VS.lorentz_equal.k_rhophi_z_t_rhophi_theta_t_eq a0 a1 a2 a3 a4 a5 a6 a7)
+  · exact Iff.of_eq (c08_lorentz_equal_k_rhophi_z_t_rhophi_theta_tau a0 a1 a2 a3 a4 a5 a6 a7 hc7)
+  · exact Iff.of_eq (VS.lorentz_equal.k_rhophi_z_t_rhophi_eta_t_eq a0 a1 a2 a3 a4 a5 a6 a7)
+  · exact Iff.of_eq (c08_lorentz_equal_k_rhophi_z_t_rhophi_eta_tau a0 a1 a2 a3 a4 a5 a6 a7 hc7)
+  · exact Iff.of_eq (c08_lorentz_equal_k_rhophi_z_tau_xy_z_t a0 a1 a2 a3 a4 a5 a6 a7 hc3)
+  · exact Iff.of_eq (VS.lorentz_equal.k_rhophi_z_tau_xy_z_tau_eq a0 a1 a2 a3 a4 a5 a6 a7)
+  · exact Iff.of_eq (c08_lorentz_equal_k_rhophi_z_tau_xy_theta_t a0 a1 a2 a3 a4 a5 a6 a7 hc3)
+  · exact Iff.of_eq (VS.lorentz_equal.k_rhophi_z_tau_xy_theta_tau_eq a0 a1 a2 a3 a4 a5 a6 a7)
+  · exact Iff.of_eq (c08_lorentz_equal_k_rhophi_z_tau_xy_eta_t a0 a1 a2 a3 a4 a5 a6 a7 hc3)
+  · exact Iff.of_eq (VS.lorentz_equal.k_rhophi_z_tau_xy_eta_tau_eq a0 a1 a2 a3 a4 a5 a6 a7)
+  · exact Iff.of_eq (c08_lorentz_equal_k_rhophi_z_tau_rhophi_z_t a0 a1 a2 a3 a4 a5 a6 a7 hc3)
+  · exact Iff.of_eq (VS.lorentz_equal.k_rhophi_z_tau_rhophi_z_tau_eq a0 a1 a2 a3 a4 a5 a6 a7)
+  · exact Iff.of_eq (c08_lorentz_equal_k_rhophi_z_tau_rhophi_theta_t a0 a1 a2 a3 a4 a5 a6 a7 hc3)
+  · exact Iff.of_eq (VS.lorentz_equal.k_rhophi_z_tau_rhophi_theta_tau_eq a0 a1 a2 a3 a4 a5 a6 a7)
+  · exact Iff.of_eq (c08_lorentz_equal_k_rhophi_z_tau_rhophi_eta_t a0 a1 a2 a3 a4 a5 a6 a7 hc3)
+  · exact Iff.of_eq (VS.lorentz_equal.k_rhophi_z_tau_rhophi_eta_tau_eq a0 a1 a2 a3 a4 a5 a6 a7)
+  · exact Iff.of_eq (VS.lorentz_equal.k_rhophi_theta_t_xy_z_t_eq a0 a1 a2 a3 a4 a5 a6 a7)
+  · exact Iff.of_eq (c08_lorentz_equal_k_rhophi_theta_t_xy_z_tau a0 a1 a2 a3 a4 a5 a6 a7 hc7)
+  · exact Iff.of_eq (VS.lorentz_equal.k_rhophi_theta_t_xy_theta_t_eq a0 a1 a2 a3 a4 a5 a6 a7)
+  · exact Iff.of_eq (c08_lorentz_equal_k_rhophi_theta_t_xy_theta_tau a0 a1 a2 a3 a4 a5 a6 a7 hc7)
+  · exact Iff.of_eq (VS.lorentz_equal.k_rhophi_theta_t_xy_eta_t_eq a0 a1 a2 a3 a4 a5 a6 a7)
+  · exact Iff.of_eq (c08_lorentz_equal_k_rhophi_theta_t_xy_eta_tau a0 a1 a2 a3 a4 a5 a6 a7 hc7)
+  · exact Iff.of_eq (VS.lorentz_equal.k_rhophi_theta_t_rhophi_z_t_eq a0 a1 a2 a3 a4 a5 a6 a7)
+  · exact Iff.of_eq (c08_lorentz_equal_k_rhophi_theta_t_rhophi_z_tau a0 a1 a2 a3 a4 a5 a6 a7 hc7)
+  · exact Iff.of_eq (VS.lorentz_equal.k_rhophi_theta_t_rhophi_theta_t_eq a0 a1 a2 a3 a4 a5 a6 a7)
+  · exact Iff.of_eq (c08_lorentz_equal_k_rhophi_theta_t_rhophi_theta_tau a0 a1 a2 a3 a4 a5 a6 a7 hc7)
+  · exact Iff.of_eq (VS.lorentz_equal.k_rhophi_theta_t_rhophi_eta_t_eq a0 a1 a2 a3 a4 a5 a6 a7)
+  · exact Iff.of_eq (c08_lorentz_equal_k_rhophi_theta_t_rhophi_eta_tau a0 a1 a2 a3 a4 a5 a6 a7 hc7)
+  · exact Iff.of_eq (c08_lorentz_equal_k_rhophi_theta_tau_xy_z_t a0 a1 a2 a3 a4 a5 a6 a7 hc3)
+  · exact Iff.of_eq (VS.lorentz_equal.k_rhophi_theta_tau_xy_z_tau_eq a0 a1 a2 a3 a4 a5 a6 a7)
+  · exact Iff.of_eq (c08_lorentz_equal_k_rhophi_theta_tau_xy_theta_t a0 a1 a2 a3 a4 a5 a6 a7 hc3)
+  · exact Iff.of_eq (VS.lorentz_equal.k_rhophi_theta_tau_xy_theta_tau_eq a0 a1 a2 a3 a4 a5 a6 a7)
+  · exact Iff.of_eq (c08_lorentz_equal_k_rhophi_theta_tau_xy_eta_t a0 a1 a2 a3 a4 a5 a6 a7 hc3)
+  · exact Iff.of_eq (VS.lorentz_equal.k_rhophi_theta_tau_xy_eta_tau_eq a0 a1 a2 a3 a4 a5 a6 a7)
+  · exact Iff.of_eq (c08_lorentz_equal_k_rhophi_theta_tau_rhophi_z_t a0 a1 a2 a3 a4 a5 a6 a7 hc3)
+  · exact Iff.of_eq (VS.lorentz_equal.k_rhophi_theta_tau_rhophi_z_tau_eq a0 a1 a2 a3 a4 a5 a6 a7)
+  · exact Iff.of_eq (c08_lorentz_equal_k_rhophi_theta_tau_rhophi_theta_t a0 a1 a2 a3 a4 a5 a6 a7 hc3)
+  · exact Iff.of_eq (VS.lorentz_equal.k_rhophi_theta_tau_rhophi_theta_tau_eq a0 a1 a2 a3 a4 a5 a6 a7)
+  · exact Iff.of_eq (c08_lorentz_equal_k_rhophi_theta_tau_rhophi_eta_t a0 a1 a2 a3 a4 a5 a6 a7 hc3)
+  · exact Iff.of_eq (VS.lorentz_equal.k_rhophi_theta_tau_rhophi_eta_tau_eq a0 a1 a2 a3 a4 a5 a6 a7)
+  · exact Iff.of_eq (VS.lorentz_equal.k_rhophi_eta_t_xy_z_t_eq a0 a1 a2 a3 a4 a5 a6 a7)
+  · exact Iff.of_eq (c08_lorentz_equal_k_rhophi_eta_t_xy_z_tau a0 a1 a2 a3 a4 a5 a6 a7 hc7)
+  · exact Iff.of_eq (VS.lorentz_equal.k_rhophi_eta_t_xy_theta_t_eq a0 a1 a2 a3 a4 a5 a6 a7)
+  · exact Iff.of_eq (c08_lorentz_equal_k_rhophi_eta_t_xy_theta_tau a0 a1 a2 a3 a4 a5 a6 a7 hc7)
+  · exact Iff.of_eq (VS.lorentz_equal.k_rhophi_eta_t_xy_eta_t_eq a0 a1 a2 a3 a4 a5 a6 a7)
+  · exact Iff.of_eq (c08_lorentz_equal_k_rhophi_eta_t_xy_eta_tau a0 a1 a2 a3 a4 a5 a6 a7 hc7)
+  · exact Iff.of_eq (VS.lorentz_equal.k_rhophi_eta_t_rhophi_z_t_eq a0 a1 a2 a3 a4 a5 a6 a7)
+  · exact Iff.of_eq (c08_lorentz_equal_k_rhophi_eta_t_rhophi_z_tau a0 a1 a2 a3 a4 a5 a6 a7 hc7)
+  · exact Iff.of_eq (VS.lorentz_equal.k_rhophi_eta_t_rhophi_theta_t_eq a0 a1 a2 a3 a4 a5 a6 a7)
+  · exact Iff.of_eq (c08_lorentz_equal_k_rhophi_eta_t_rhophi_theta_tau a0 a1 a2 a3 a4 a5 a6 a7 hc7)
+  · exact Iff.of_eq (VS.lorentz_equal.k_rhophi_eta_t_rhophi_eta_t_eq a0 a1 a2 a3 a4 a5 a6 a7)
+  · exact Iff.of_eq (c08_lorentz_equal_k_rhophi_eta_t_rhophi_eta_tau a0 a1 a2 a3 a4 a5 a6 a7 hc7)
+  · exact Iff.of_eq (c08_lorentz_equal_k_rhophi_eta_tau_xy_z_t a0 a1 a2 a3 a4 a5 a6 a7 hc3)
+  · exact Iff.of_eq (VS.lorentz_equal.k_rhophi_eta_tau_xy_z_tau_eq a0 a1 a2 a3 a4 a5 a6 a7)
+  · exact Iff.of_eq (c08_lorentz_equal_k_rhophi_eta_tau_xy_theta_t a0 a1 a2 a3 a4 a5 a6 a7 hc3)
+  · exact Iff.of_eq (VS.lorentz_equal.k_rhophi_eta_tau_xy_theta_tau_eq a0 a1 a2 a3 a4 a5 a6 a7)
+  · exact Iff.of_eq (c08_lorentz_equal_k_rhophi_eta_tau_xy_eta_t a0 a1 a2 a3 a4 a5 a6 a7 hc3)
+  · exact Iff.of_eq (VS.lorentz_equal.k_rhophi_eta_tau_xy_eta_tau_eq a0 a1 a2 a3 a4 a5 a6 a7)
+  · exact Iff.of_eq (c08_lorentz_equal_k_rhophi_eta_tau_rhophi_z_t a0 a1 a2 a3 a4 a5 a6 a7 hc3)
+  · exact Iff.of_eq (VS.lorentz_equal.k_rhophi_eta_tau_rhophi_z_tau_eq a0 a1 a2 a3 a4 a5 a6 a7)
+  · exact Iff.of_eq (c08_lorentz_equal_k_rhophi_eta_tau_rhophi_theta_t a0 a1 a2 a3 a4 a5 a6 a7 hc3)
+  · exact Iff.of_eq (VS.lorentz_equal.k_rhophi_eta_tau_rhophi_theta_tau_eq a0 a1 a2 a3 a4 a5 a6 a7)
+  · exact Iff.of_eq (c08_lorentz_equal_k_rhophi_eta_tau_rhophi_eta_t a0 a1 a2 a3 a4 a5 a6 a7 hc3)
+  · exact Iff.of_eq (VS.lorentz_equal.k_rhophi_eta_tau_rhophi_eta_tau_eq a0 a1 a2 a3 a4 a5 a6 a7)
+
+/-- `lorentz_gamma`: all 12 keys -/
+theorem c08_lorentz_gamma (k0 : Az) (k1 : Lon) (k2 : Tmp) (a0 a1 a2 a3 : ℝ)
+    (hs : 0 ≤ VR.lorentz_tau2.eval k0 k1 k2 a0 a1 a2 a3) :
+    VS.lorentz_gamma.eval k0 k1 k2 a0 a1 a2 a3 =
+      VR.lorentz_gamma.eval k0 k1 k2 a0 a1 a2 a3 := by
+  cases k0 <;> cases k1 <;> cases k2
+  · exact c08_lorentz_gamma_xy_z_t a0 a1 a2 a3 hs
+  · exact c08_lorentz_gamma_xy_z_tau a0 a1 a2 a3 (c08_nonneg_of_copysign_sq hs)
+  · exact c08_lorentz_gamma_xy_theta_t a0 a1 a2 a3 hs
+  · exact c08_lorentz_gamma_xy_theta_tau a0 a1 a2 a3 (c08_nonneg_of_copysign_sq hs)
+  · exact c08_lorentz_gamma_xy_eta_t a0 a1 a2 a3 hs
+  · exact c08_lorentz_gamma_xy_eta_tau a0 a1 a2 a3 (c08_nonneg_of_copysign_sq hs)
+  · exact c08_lorentz_gamma_rhophi_z_t a0 a1 a2 a3 hs
+  · exact c08_lorentz_gamma_rhophi_z_tau a0 a1 a2 a3 (c08_nonneg_of_copysign_sq hs)
+  · exact c08_lorentz_gamma_rhophi_theta_t a0 a1 a2 a3 hs
+  · exact c08_lorentz_gamma_rhophi_theta_tau a0 a1 a2 a3 (c08_nonneg_of_copysign_sq hs)
+  · exact c08_lorentz_gamma_rhophi_eta_t a0 a1 a2 a3 hs
+  · exact c08_lorentz_gamma_rhophi_eta_tau a0 a1 a2 a3 (c08_nonneg_of_copysign_sq hs)
+
+/-- `lorentz_is_lightlike`: all 12 keys -/
+theorem c08_lorentz_is_lightlike (k0 : Az) (k1 : Lon) (k2 : Tmp) (a0 a1 a2 a3 a4 : ℝ)
+    (hc4 : CanonTmp k2 a4) :
+    VS.lorentz_is_lightlike.eval k0 k1 k2 a0 a1 a2 a3 a4 ↔
+      VR.lorentz_is_lightlike.eval k0 k1 k2 a0 a1 a2 a3 a4 := by
+  cases k0 <;> cases k1 <;> cases k2
+  · exact Iff.of_eq (VS.lorentz_is_lightlike.k_xy_z_t_eq a0 a1 a2 a3 a4)
+  · exact Iff.of_eq (c08_lorentz_is_lightlike_k_xy_z_tau a0 a1 a2 a3 a4 hc4)
+  · exact Iff.of_eq (VS.lorentz_is_lightlike.k_xy_theta_t_eq a0 a1 a2 a3 a4)
+  · exact Iff.of_eq (c08_lorentz_is_lightlike_k_xy_theta_tau a0 a1 a2 a3 a4 hc4)
+  · exact Iff.of_eq (VS.lorentz_is_lightlike.k_xy_eta_t_eq a0 a1 a2 a3 a4)
+  · exact Iff.of_eq (c08_lorentz_is_lightlike_k_xy_eta_tau a0 a1 a2 a3 a4 hc4)
+  · exact Iff.of_eq (VS.lorentz_is_lightlike.k_rhophi_z_t_eq a0 a1 a2 a3 a4)
+  · exact Iff.of_eq (c08_lorentz_is_lightlike_k_rhophi_z_tau a0 a1 a2 a3 a4 hc4)
+  · exact Iff.of_eq (VS.lorentz_is_lightlike.k_rhophi_theta_t_eq a0 a1 a2 a3 a4)
+  · exact Iff.of_eq (c08_lorentz_is_lightlike_k_rhophi_theta_tau a0 a1 a2 a3 a4 hc4)
+  · exact Iff.of_eq (VS.lorentz_is_lightlike.k_rhophi_eta_t_eq a0 a1 a2 a3 a4)
+  · exact Iff.of_eq (c08_lorentz_is_lightlike_k_rhophi_eta_tau a0 a1 a2 a3 a4 hc4)
+
+/-- `lorentz_is_spacelike`: all 12 keys -/
+theorem c08_lorentz_is_spacelike (k0 : Az) (k1 : Lon) (k2 : Tmp) (a0 a1 a2 a3 a4 : ℝ)
+    (hc4 : CanonTmp k2 a4) :
+    VS.lorentz_is_spacelike.eval k0 k1 k2 a0 a1 a2 a3 a4 ↔
+      VR.lorentz_is_spacelike.eval k0 k1 k2 a0 a1 a2 a3 a4 := by
+  cases k0 <;> cases k1 <;> cases k2
+  · exact Iff.of_eq (VS.lorentz_is_spacelike.k_xy_z_t_eq a0 a1 a2 a3 a4)
+  · exact Iff.of_eq (c08_lorentz_is_spacelike_k_xy_z_tau a0 a1 a2 a3 a4 hc4)
+  · exact Iff.of_eq (VS.lorentz_is_spacelike.k_xy_theta_t_eq a0 a1 a2 a3 a4)
+  · exact Iff.of_eq (c08_lorentz_is_spacelike_k_xy_theta_tau a0 a1 a2 a3 a4 hc4)
+  · exact Iff.of_eq (VS.lorentz_is_spacelike.k_xy_eta_t_eq a0 a1 a2 a3 a4)
+  · exact Iff.of_eq (c08_lorentz_is_spacelike_k_xy_eta_tau a0 a1 a2 a3 a4 hc4)
+  · exact Iff.of_eq (VS.lorentz_is_spacelike.k_rhophi_z_t_eq a0 a1 a2 a3 a4)
+  · exact Iff.of_eq (c08_lorentz_is_spacelike_k_rhophi_z_tau a0 a1 a2 a3 a4 hc4)
+  · exact Iff.of_eq (VS.lorentz_is_spacelike.k_rhophi_theta_t_eq a0 a1 a2 a3 a4)
+  · exact Iff.of_eq (c08_lorentz_is_spacelike_k_rhophi_theta_tau a0 a1 a2 a3 a4 hc4)
+  · exact Iff.of_eq (VS.lorentz_is_spacelike.k_rhophi_eta_t_eq a0 a1 a2 a3 a4)
+  · exact Iff.of_eq (c08_lorentz_is_spacelike_k_rhophi_eta_tau a0 a1 a2 a3 a4 hc4)
+
+/-- `lorentz_is_timelike`: all 12 keys -/
+theorem c08_lorentz_is_timelike (k0 : Az) (k1 : Lon) (k2 : Tmp) (a0 a1 a2 a3 a4 : ℝ)
+    (hc4 : CanonTmp k2 a4) :
+    VS.lorentz_is_timelike.eval k0 k1 k2 a0 a1 a2 a3 a4 ↔
+      VR.lorentz_is_timelike.eval k0 k1 k2 a0 a1 a2 a3 a4 := by
+  cases k0 <;> cases k1 <;> cases k2
+  · exact Iff.of_eq (VS.lorentz_is_timelike.k_xy_z_t_eq a0 a1 a2 a3 a4)
+  · exact Iff.of_eq (c08_lorentz_is_timelike_k_xy_z_tau a0 a1 a2 a3 a4 hc4)
+  · exact Iff.of_eq (VS.lorentz_is_timelike.k_xy_theta_t_eq a0 a1 a2 a3 a4)
+  · exact Iff.of_eq (c08_lorentz_is_timelike_k_xy_theta_tau a0 a1 a2 a3 a4 hc4)
+  · exact Iff.of_eq (VS.lorentz_is_timelike.k_xy_eta_t_eq a0 a1 a2 a3 a4)
+  · exact Iff.of_eq (c08_lorentz_is_timelike_k_xy_eta_tau a0 a1 a2 a3 a4 hc4)
+  · exact Iff.of_eq (VS.lorentz_is_timelike.k_rhophi_z_t_eq a0 a1 a2 a3 a4)
+  · exact Iff.of_eq (c08_lorentz_is_timelike_k_rhophi_z_tau a0 a1 a2 a3 a4 hc4)
+  · exact Iff.of_eq (VS.lorentz_is_timelike.k_rhophi_theta_t_eq a0 a1 a2 a3 a4)
+  · exact Iff.of_eq (c08_lorentz_is_timelike_k_rhophi_theta_tau a0 a1 a2 a3 a4 hc4)
+  · exact Iff.of_eq (VS.lorentz_is_timelike.k_rhophi_eta_t_eq a0 a1 a2 a3 a4)
+  · exact Iff.of_eq (c08_lorentz_is_timelike_k_rhophi_eta_tau a0 a1 a2 a3 a4 hc4)
+
+/-- `lorentz_not_equal`: all 144 keys -/
+theorem c08_lorentz_not_equal (k0 : Az) (k1 : Lon) (k2 : Tmp) (k3 : Az) (k4 : Lon) (k5 : Tmp) (a0 a1 a2 a3 a4 a5 a6 a7 : ℝ)
+    (hc3 : CanonTmp k2 a3)
+    (hc7 : CanonTmp k5 a7) :
+    VS.lorentz_not_equal.eval k0 k1 k2 k3 k4 k5 a0 a1 a2 a3 a4 a5 a6 a7 ↔
+      VR.lorentz_not_equal.eval k0 k1 k2 k3 k4 k5 a0 a1 a2 a3 a4 a5 a6 a7 := by
+  cases k0 <;> cases k1 <;> cases k2 <;> cases k3 <;> cases k4 <;> cases k5
+  · exact Iff.of_eq (VS.lorentz_not_equal.k_xy_z_t_xy_z_t_eq a0 a1 a2 a3 a4 a5 a6 a7)
+  · exact Iff.of_eq (c08_lorentz_not_equal_k_xy_z_t_xy_z_tau a0 a1 a2 a3 a4 a5 a6 a7 hc7)
+  · exact Iff.of_eq (VS.lorentz_not_equal.k_xy_z_t_xy_theta_t_eq a0 a1 a2 a3 a4 a5 a6 a7)
+  · exact Iff.of_eq (c08_lorentz_not_equal_k_xy_z_t_xy_theta_tau a0 a1 a2 a3 a4 a5 a6 a7 hc7)
+  · exact Iff.of_eq (VS.lorentz_not_equal.k_xy_z_t_xy_eta_t_eq a0 a1 a2 a3 a4 a5 a6 a7)
+  · exact Iff.of_eq (c08_lorentz_not_equal_k_xy_z_t_xy_eta_tau a0 a1 a2 a3 a4 a5 a6 a7 hc7)
+  · exact Iff.of_eq (VS.lorentz_not_equal.k_xy_z_t_rhophi_z_t_eq a0 a1 a2 a3 a4 a5 a6 a7)
+  · exact Iff.of_eq (c08_lorentz_not_equal_k_xy_z_t_rhophi_z_tau a0 a1 a2 a3 a4 a5 a6 a7 hc7)
+  · exact Iff.of_eq (VS.lorentz_not_equal.k_xy_z_t_rhophi_theta_t_eq a0 a1 a2 a3 a4 a5 a6 a7)
+  · exact Iff.of_eq (c08_lorentz_not_equal_k_xy_z_t_rhophi_theta_tau a0 a1 a2 a3 a4 a5 a6 a7 hc7)
+  · exact Iff.of_eq (VS.lorentz_not_equal.k_xy_z_t_rhophi_eta_t_eq a0 a1 a2 a3 a4 a5 a6 a7)
+  · exact Iff.of_eq (c08_lorentz_not_equal_k_xy_z_t_rhophi_eta_tau a0 a1 a2 a3 a4 a5 a6 a7 hc7)
+  · exact Iff.of_eq (c08_lorentz_not_equal_k_xy_z_tau_xy_z_t a0 a1 a2 a3 a4 a5 a6 a7 hc3)
+  · exact Iff.of_eq (VS.lorentz_not_equal.k_xy_z_tau_xy_z_tau_eq a0 a1 a2 a3 a4 a5 a6 a7)
+  · exact Iff.of_eq (c08_lorentz_not_equal_k_xy_z_tau_xy_theta_t a0 a1 a2 a3 a4 a5 a6 a7 hc3)
+  · exact Iff.of_eq (VS.lorentz_not_equal.k_xy_z_tau_xy_theta_tau_eq a0 a1 a2 a3 a4 a5 a6 a7)
+  · exact Iff.of_eq (c08_lorentz_not_equal_k_xy_z_tau_xy_eta_t a0 a1 a2 a3 a4 a5 a6 a7 hc3)
+  · exact Iff.of_eq (VS.lorentz_not_equal.k_xy_z_tau_xy_eta_tau_eq a0 a1 a2 a3 a4 a5 a6 a7)
+  · exact Iff.of_eq (c08_lorentz_not_equal_k_xy_z_tau_rhophi_z_t a0 a1 a2 a3 a4 a5 a6 a7 hc3)
+  · exact Iff.of_eq (VS.lorentz_not_equal.k_xy_z_tau_rhophi_z_tau_eq a0 a1 a2 a3 a4 a5 a6 a7)
+  · exact Iff.of_eq (c08_lorentz_not_equal_k_xy_z_tau_rhophi_theta_t a0 a1 a2 a3 a4 a5 a6 a7 hc3)
+  · exact Iff.of_eq (VS.lorentz_not_equal.k_xy_z_tau_rhophi_theta_tau_eq a0 a1 a2 a3 a4 a5 a6 a7)
+  · exact Iff.of_eq (c08_lorentz_not_equal_k_xy_z_tau_rhophi_eta_t a0 a1 a2 a3 a4 a5 a6 a7 hc3)
+  · exact Iff.of_eq (VS.lorentz_not_equal.k_xy_z_tau_rhophi_eta_tau_eq a0 a1 a2 a3 a4 a5 a6 a7)
+  · exact Iff.of_eq (VS.lorentz_not_equal.k_xy_theta_t_xy_z_t_eq a0 a1 a2 a3 a4 a5 a6 a7)
+  · exact Iff.of_eq (c08_lorentz_not_equal_k_xy_theta_t_xy_z_tau a0 a1 a2 a3 a4 a5 a6 a7 hc7)
+  · exact Iff.of_eq (VS.lorentz_not_equal.k_xy_theta_t_xy_theta_t_eq a0 a1 a2 a3 a4 a5 a6 a7)
+  · exact Iff.of_eq (c08_lorentz_not_equal_k_xy_theta_t_xy_theta_tau a0 a1 a2 a3 a4 a5 a6 a7 hc7)
+  · exact Iff.of_eq (VS.lorentz_not_equal.k_xy_theta_t_xy_eta_t_eq a0 a1 a2 a3 a4 a5 a6 a7)
+  · exact Iff.of_eq (c08_lorentz_not_equal_k_xy_theta_t_xy_eta_tau a0 a1 a2 a3 a4 a5 a6 a7 hc7)
+  · exact Iff.of_eq (VS.lorentz_not_equal.k_xy_theta_t_rhophi_z_t_eq a0 a1 a2 a3 a4 a5 a6 a7)
+  · exact Iff.of_eq (c08_lorentz_not_equal_k_xy_theta_t_rhophi_z_tau a0 a1 a2 a3 a4 a5 a6 a7 hc7)
+  · exact Iff.of_eq (VS.lorentz_not_equal.k_xy_theta_t_rhophi_theta_t_eq a0 a1 a2 a3 a4 a5 a6 a7)
+  · exact Iff.of_eq (c08_lorentz_not_equal_k_xy_theta_t_rhophi_theta_tau a0 a1 a2 a3 a4 a5 a6 a7 hc7)
+  · exact Iff.of_eq (VS.lorentz_not_equal.k_xy_theta_t_rhophi_eta_t_eq a0 a1 a2 a3 a4 a5 a6 a7)
+  · exact Iff.of_eq (c08_lorentz_not_equal_k_xy_theta_t_rhophi_eta_tau a0 a1 a2 a3 a4 a5 a6 a7 hc7)
+  · exact Iff.of_eq (c08_lorentz_not_equal_k_xy_theta_tau_xy_z_t a0 a1 a2 a3 a4 a5 a6 a7 hc3)
+  · exact Iff.of_eq (VS.lorentz_not_equal.k_xy_theta_tau_xy_z_tau_eq a0 a1 a2 a3 a4 a5 a6 a7)
+  · exact Iff.of_eq (c08_lorentz_not_equal_k_xy_theta_tau_xy_theta_t a0 a1 a2 a3 a4 a5 a6 a7 hc3)
+  · exact Iff.of_eq (VS.lorentz_not_equal.k_xy_theta_tau_xy_theta_tau_eq a0 a1 a2 a3 a4 a5 a6 a7)
+  · exact Iff.of_eq (c08_lorentz_not_equal_k_xy_theta_tau_xy_eta_t a0 a1 a2 a3 a4 a5 a6 a7 hc3)
+  · exact Iff.of_eq (VS.lorentz_not_equal.k_xy_theta_tau_xy_eta_tau_eq a0 a1 a2 a3 a4 a5 a6 a7)
+  · exact Iff.of_eq (c08_lorentz_not_equal_k_xy_theta_tau_rhophi_z_t a0 a1 a2 a3 a4 a5 a6 a7 hc3)
+  · exact Iff.of_eq (VS.lorentz_not_equal.k_xy_theta_tau_rhophi_z_tau_eq a0 a1 a2 a3 a4 a5 a6 a7)
+  · exact Iff.of_eq (c08_lorentz_not_equal_k_xy_theta_tau_rhophi_theta_t a0 a1 a2 a3 a4 a5 a6 a7 hc3)
+  · exact Iff.of_eq (VS.lorentz_not_equal.k_xy_theta_tau_rhophi_theta_tau_eq a0 a1 a2 a3 a4 a5 a6 a7)
+  · exact Iff.of_eq (c08_lorentz_not_equal_k_xy_theta_tau_rhophi_eta_t a0 a1 a2 a3 a4 a5 a6 a7 hc3)
+  · exact Iff.of_eq (VS.lorentz_not_equal.k_xy_theta_tau_rhophi_eta_tau_eq a0 a1 a2 a3 a4 a5 a6 a7)
+  · exact Iff.of_eq (VS.lorentz_not_equal.k_xy_eta_t_xy_z_t_eq a0 a1 a2 a3 a4 a5 a6 a7)
+  · exact Iff.of_eq (c08_lorentz_not_equal_k_xy_eta_t_xy_z_tau a0 a1 a2 a3 a4 a5 a6 a7 hc7)
+  · exact Iff.of_eq (VS.lorentz_not_equal.k_xy_eta_t_xy_theta_t_eq a0 a1 a2 a3 a4 a5 a6 a7)
+  · exact Iff.of_eq (c08_lorentz_not_equal_k_xy_eta_t_xy_theta_tau a0 a1 a2 a3 a4 a5 a6 a7 hc7)
+  · exact Iff.of_eq (VS.lorentz_not_equal.k_xy_eta_t_xy_eta_t_eq a0 a1 a2 a3 a4 a5 a6 a7)
+  · exact Iff.of_eq (c08_lorentz_not_equal_k_xy_eta_t_xy_eta_tau a0 a1 a2 a3 a4 a5 a6 a7 hc7)
+  · exact Iff.of_eq (VS.lorentz_not_equal.k_xy_eta_t_rhophi_z_t_eq a0 a1 a2 a3 a4 a5 a6 a7)
+  · exact Iff.of_eq (c08_lorentz_not_equal_k_xy_eta_t_rhophi_z_tau a0 a1 a2 a3 a4 a5 a6 a7 hc7)
+  · exact Iff.of_eq (VS.lorentz_not_equal.k_xy_eta_t_rhophi_theta_t_eq a0 a1 a2 a3 a4 a5 a6 a7)
+  · exact Iff.of_eq (c08_lorentz_not_equal_k_xy_eta_t_rhophi_theta_tau a0 a1 a2 a3 a4 a5 a6 a7 hc7)
+  · exact Iff.of_eq (VS.lorentz_not_equal.k_xy_eta_t_rhophi_eta_t_eq a0 a1 a2 a3 a4 a5 a6 a7)
+  · exact Iff.of_eq (c08_lorentz_not_equal_k_xy_eta_t_rhophi_eta_tau a0 a1 a2 a3 a4 a5 a6 a7 hc7)
+  · exact Iff.of_eq (c08_lorentz_not_equal_k_xy_eta_tau_xy_z_t a0 a1 a2 a3 a4 a5 a6 a7 hc3)
+  · exact Iff.of_eq (VS.lorentz_not_equal.k_xy_eta_tau_xy_z_tau_eq a0 a1 a2 a3 a4 a5 a6 a7)
+  · exact Iff.of_eq (c08_lorentz_not_equal_k_xy_eta_tau_xy_theta_t a0 a1 a2 a3 a4 a5 a6 a7 hc3)
+  · exact Iff.of_eq (VS.lorentz_not_equal.k_xy_eta_tau_xy_theta_tau_eq a0 a1 a2 a3 a4 a5 a6 a7)
+  · exact Iff.of_eq (c08_lorentz_not_equal_k_xy_eta_tau_xy_eta_t a0 a1 a2 a3 a4 a5 a6 a7 hc3)
+  · exact Iff.of_eq (VS.lorentz_not_equal.k_xy_eta_tau_xy_eta_tau_eq a0 a1 a2 a3 a4 a5 a6 a7)
+  · exact Iff.of_eq (c08_lorentz_not_equal_k_xy_eta_tau_rhophi_z_t a0 a1 a2 a3 a4 a5 a6 a7 hc3)
+  · exact Iff.of_eq (VS.lorentz_not_equal.k_xy_eta_tau_rhophi_z_tau_eq a0 a1 a2 a3 a4 a5 a6 a7)
+  · exact Iff.of_eq (c08_lorentz_not_equal_k_xy_eta_tau_rhophi_theta_t a0 a1 a2 a3 a4 a5 a6 a7 hc3)
+  · exact Iff.of_eq (VS.lorentz_not_equal.k_xy_eta_tau_rhophi_theta_tau_eq a0 a1 a2 a3 a4 a5 a6 a7)
+  · exact Iff.of_eq (c08_lorentz_not_equal_k_xy_eta_tau_rhophi_eta_t a0 a1 a2 a3 a4 a5 a6 a7 hc3)
+  · exact Iff.of_eq (VS.lorentz_not_equal.k_xy_eta_tau_rhophi_eta_tau_eq a0 a1 a2 a3 a4 a5 a6 a7)
+  · exact Iff.of_eq (VS.lorentz_not_equal.k_rhophi_z_t_xy_z_t_eq a0 a1 a2 a3 a4 a5 a6 a7)
+  · exact Iff.of_eq (c08_lorentz_not_equal_k_rhophi_z_t_xy_z_tau a0 a1 a2 a3 a4 a5 a6 a7 hc7)
+  · exact Iff.of_eq (VS.lorentz_not_equal.k_rhophi_z_t_xy_theta_t_eq a0 a1 a2 a3 a4 a5 a6 a7)
+  · exact Iff.of_eq (c08_lorentz_not_equal_k_rhophi_z_t_xy_theta_tau a0 a1 a2 a3 a4 a5 a6 a7 hc7)
+  · exact Iff.of_eq (VS.lorentz_not_equal.k_rhophi_z_t_xy_eta_t_eq a0 a1 a2 a3 a4 a5 a6 a7)
+  · exact Iff.of_eq (c08_lorentz_not_equal_k_rhophi_z_t_xy_eta_tau a0 a1 a2 a3 a4 a5 a6 a7 hc7)
+  · exact Iff.of_eq (VS.lorentz_not_equal.k_rhophi_z_t_rhophi_z_t_eq a0 a1 a2 a3 a4 a5 a6 a7)
+  · exact Iff.of_eq (c08_lorentz_not_equal_k_rhophi_z_t_rhophi_z_tau a0 a1 a2 a3 a4 a5 a6 a7 hc7)
+  · exact Iff.of_eq (VS.lorentz_not_equal.k_rhophi_z_t_rhophi_theta_t_eq a0 a1 a2 a3 a4 a5 a6 a7)
+  · exact Iff.of_eq (c08_lorentz_not_equal_k_rhophi_z_t_rhophi_theta_tau a0 a1 a2 a3 a4 a5 a6 a7 hc7)
+  · exact Iff.of_eq (VS.lorentz_not_equal.k_rhophi_z_t_rhophi_eta_t_eq a0 a1 a2 a3 a4 a5 a6 a7)
+  · exact Iff.of_eq (c08_lorentz_not_equal_k_rhophi_z_t_rhophi_eta_tau a0 a1 a2 a3 a4 a5 a6 a7 hc7)
+  · exact Iff.of_eq (c08_lorentz_not_equal_k_rhophi_z_tau_xy_z_t a0 a1 a2 a3 a4 a5 a6 a7 hc3)
+  · exact Iff.of_eq (VS.lorentz_not_equal.k_rhophi_z_tau_xy_z_tau_eq a0 a1 a2 a3 a4 a5 a6 a7)
+  · exact Iff.of_eq (c08_lorentz_not_equal_k_rhophi_z_tau_xy_theta_t a0 a1 a2 a3 a4 a5 a6 a7 hc3)
+  · exact Iff.of_eq (VS.lorentz_not_equal.k_rhophi_z_tau_xy_theta_tau_eq a0 a1 a2 a3 a4 a5 a6 a7)
+  · exact Iff.of_eq (c08_lorentz_not_equal_k_rhophi_z_tau_xy_eta_t a0 a1 a2 a3 a4 a5 a6 a7 hc3)
+  · exact Iff.of_eq (VS.lorentz_not_equal.k_rhophi_z_tau_xy_eta_tau_eq a0 a1 a2 a3 a4 a5 a6 a7)
+  · exact Iff.of_eq (c08_lorentz_not_equal_k_rhophi_z_tau_rhophi_z_t a0 a1 a2 a3 a4 a5 a6 a7 hc3)
+  · exact Iff.of_eq (VS.lorentz_not_equal.k_rhophi_z_tau_rhophi_z_tau_eq a0 a1 a2 a3 a4 a5 a6 a7)
+  · exact Iff.of_eq (c08_lorentz_not_equal_k_rhophi_z_tau_rhophi_theta_t a0 a1 a2 a3 a4 a5 a6 a7 hc3)
+  · exact Iff.of_eq (VS.lorentz_not_equal.k_rhophi_z_tau_rhophi_theta_tau_eq a0 a1 a2 a3 a4 a5 a6 a7)
+  · exact Iff.of_eq (c08_lorentz_not_equal_k_rhophi_z_tau_rhophi_eta_t a0 a1 a2 a3 a4 a5 a6 a7 hc3)
+  · exact Iff.of_eq (VS.lorentz_not_equal.k_rhophi_z_tau_rhophi_eta_tau_eq a0 a1 a2 a3 a4 a5 a6 a7)
+  · exact Iff.of_eq (VS.lorentz_not_equal.k_rhophi_theta_t_xy_z_t_eq a0 a1 a2 a3 a4 a5 a6 a7)
+  · exact Iff.of_eq (c08_lorentz_not_equal_k_rhophi_theta_t_xy_z_tau a0 a1 a2 a3 a4 a5 a6 a7 hc7)
+  · exact Iff.of_eq (VS.lorentz_not_equal.k_rhophi_theta_t_xy_theta_t_eq a0 a1 a2 a3 a4 a5 a6 a7)
+  · exact Iff.of_eq (c08_lorentz_not_equal_k_rhophi_theta_t_xy_theta_tau a0 a1 a2 a3 a4 a5 a6 a7 hc7)
+  · exact Iff.of_eq (VS.lorentz_not_equal.k_rhophi_theta_t_xy_eta_t_eq a0 a1 a2 a3 a4 a5 a6 a7)
+  · exact Iff.of_eq (c08_lorentz_not_equal_k_rhophi_theta_t_xy_eta_tau a0 a1 a2 a3 a4 a5 a6 a7 hc7)
+  · exact Iff.of_eq (VS.lorentz_not_equal.k_rhophi_theta_t_rhophi_z_t_eq a0 a1 a2 a3 a4 a5 a6 a7)
+  · exact Iff.of_eq (c08_lorentz_not_equal_k_rhophi_theta_t_rhophi_z_tau a0 a1 a2 a3 a4 a5 a6 a7 hc7)
+  · exact Iff.of_eq (VS.lorentz_not_equal.k_rhophi_theta_t_rhophi_theta_t_eq a0 a1 a2 a3 a4 a5 a6 a7)
+  · exact Iff.of_eq (c08_lorentz_not_equal_k_rhophi_theta_t_rhophi_theta_tau a0 a1 a2 a3 a4 a5 a6 a7 hc7)
+  · exact Iff.of_eq (VS.lorentz_not_equal.k_rhophi_theta_t_rhophi_eta_t_eq a0 a1 a2 a3 a4 a5 a6 a7)
+  · exact Iff.of_eq (c08_lorentz_not_equal_k_rhophi_theta_t_rhophi_eta_tau a0 a1 a2 a3 a4 a5 a6 a7 hc7)
+  · exact Iff.of_eq (c08_lorentz_not_equal_k_rhophi_theta_tau_xy_z_t a0 a1 a2 a3 a4 a5 a6 a7 hc3)
+  · exact Iff.of_eq (VS.lorentz_not_equal.k_rhophi_theta_tau_xy_z_tau_eq a0 a1 a2 a3 a4 a5 a6 a7)
+  · exact Iff.of_eq (c08_lorentz_not_equal_k_rhophi_theta_tau_xy_theta_t a0 a1 a2 a3 a4 a5 a6 a7 hc3)
+  · exact Iff.of_eq (VS.lorentz_not_equal.k_rhophi_theta_tau_xy_theta_tau_eq a0 a1 a2 a3 a4 a5 a6 a7)
+  · exact Iff.of_eq (c08_lorentz_not_equal_k_rhophi_theta_tau_xy_eta_t a0 a1 a2 a3 a4 a5 a6 a7 hc3)
+  · exact Iff.of_eq (VS.lorentz_not_equal.k_rhophi_theta_tau_xy_eta_tau_eq a0 a1 a2 a3 a4 a5 a6 a7)
+  · exact Iff.of_eq (c08_lorentz_not_equal_k_rhophi_theta_tau_rhophi_z_t a0 a1 a2 a3 a4 a5 a6 a7 hc3)
+  · exact Iff.of_eq (VS.lorentz_not_equal.k_rhophi_theta_tau_rhophi_z_tau_eq a0 a1 a2 a3 a4 a5 a6 a7)
+  · exact Iff.of_eq (c08_lorentz_not_equal_k_rhophi_theta_tau_rhophi_theta_t a0 a1 a2 a3 a4 a5 a6 a7 hc3)
+  · exact Iff.of_eq (VS.lorentz_not_equal.k_rhophi_theta_tau_rhophi_theta_tau_eq a0 a1 a2 a3 a4 a5 a6 a7)
+  · exact Iff.of_eq (c08_lorentz_not_equal_k_rhophi_theta_tau_rhophi_eta_t a0 a1 a2 a3 a4 a5 a6 a7 hc3)
+  · exact Iff.of_eq (VS.lorentz_not_equal.k_rhophi_theta_tau_rhophi_eta_tau_eq a0 a1 a2 a3 a4 a5 a6 a7)
+  · exact Iff.of_eq (VS.lorentz_not_equal.k_rhophi_eta_t_xy_z_t_eq a0 a1 a2 a3 a4 a5 a6 a7)
+  · exact Iff.of_eq (c08_lorentz_not_equal_k_rhophi_eta_t_xy_z_tau a0 a1 a2 a3 a4 a5 a6 a7 hc7)
+  · exact Iff.of_eq (VS.lorentz_not_equal.k_rhophi_eta_t_xy_theta_t_eq a0 a1 a2 a3 a4 a5 a6 a7)
+  · exact Iff.of_eq (c08_lorentz_not_equal_k_rhophi_eta_t_xy_theta_tau a0 a1 a2 a3 a4 a5 a6 a7 hc7)
+  · exact Iff.of_eq (VS.lorentz_not_equal.k_rhophi_eta_t_xy_eta_t_eq a0 a1 a2 a3 a4 a5 a6 a7)
+  · exact Iff.of_eq (c08_lorentz_not_equal_k_rhophi_eta_t_xy_eta_tau a0 a1 a2 a3 a4 a5 a6 a7 hc7)
+  · exact Iff.of_eq (VS.lorentz_not_equal.k_rhophi_eta_t_rhophi_z_t_eq a0 a1 a2 a3 a4 a5 a6 a7)
+  · exact Iff.of_eq (c08_lorentz_not_equal_k_rhophi_eta_t_rhophi_z_tau a0 a1 a2 a3 a4 a5 a6 a7 hc7)
+  · exact Iff.of_eq (VS.lorentz_not_equal.k_rhophi_eta_t_rhophi_theta_t_eq a0 a1 a2 a3 a4 a5 a6 a7)
+  · exact Iff.of_eq (c08_lorentz_not_equal_k_rhophi_eta_t_rhophi_theta_tau a0 a1 a2 a3 a4 a5 a6 a7 hc7)
+  · exact Iff.of_eq (VS.lorentz_not_equal.k_rhophi_eta_t_rhophi_eta_t_eq a0 a1 a2 a3 a4 a5 a6 a7)
+  · exact Iff.of_eq (c08_lorentz_not_equal_k_rhophi_eta_t_rhophi_eta_tau a0 a1 a2 a3 a4 a5 a6 a7 hc7)
+  · exact Iff.of_eq (c08_lorentz_not_equal_k_rhophi_eta_tau_xy_z_t a0 a1 a2 a3 a4 a5 a6 a7 hc3)
+  · exact Iff.of_eq (VS.lorentz_not_equal.k_rhophi_eta_tau_xy_z_tau_eq a0 a1 a2 a3 a4 a5 a6 a7)
+  · exact Iff.of_eq (c08_lorentz_not_equal_k_rhophi_eta_tau_xy_theta_t a0 a1 a2 a3 a4 a5 a6 a7 hc3)
+  · exact Iff.of_eq (VS.lorentz_not_equal.k_rhophi_eta_tau_xy_theta_tau_eq a0 a1 a2 a3 a4 a5 a6 a7)
+  · exact Iff.of_eq (c08_lorentz_not_equal_k_rhophi_eta_tau_xy_eta_t a0 a1 a2 a3 a4 a5 a6 a7 hc3)
+  · exact Iff.of_eq (VS.lorentz_not_equal.k_rhophi_eta_tau_xy_eta_tau_eq a0 a1 a2 a3 a4 a5 a6 a7)
+  · exact Iff.of_eq (c08_lorentz_not_equal_k_rhophi_eta_tau_rhophi_z_t a0 a1 a2 a3 a4 a5 a6 a7 hc3)
+  · exact Iff.of_eq (VS.lorentz_not_equal.k_rhophi_eta_tau_rhophi_z_tau_eq a0 a1 a2 a3 a4 a5 a6 a7)
+  · exact Iff.of_eq (c08_lorentz_not_equal_k_rhophi_eta_tau_rhophi_theta_t a0 a1 a2 a3 a4 a5 a6 a7 hc3)
+  · exact Iff.of_eq (VS.lorentz_not_equal.k_rhophi_eta_tau_rhophi_theta_tau_eq a0 a1 a2 a3 a4 a5 a6 a7)
+  · exact Iff.of_eq (c08_lorentz_not_equal_k_rhophi_eta_tau_rhophi_eta_t a0 a1 a2 a3 a4 a5 a6 a7 hc3)
+  · exact Iff.of_eq (VS.lorentz_not_equal.k_rhophi_eta_tau_rhophi_eta_tau_eq a0 a1 a2 a3 a4 a5 a6 a7)
+
+/-- `lorentz_rapidity`: all 12 keys -/
+theorem c08_lorentz_rapidity (k0 : Az) (k1 : Lon) (k2 : Tmp) (a0 a1 a2 a3 : ℝ)
+    (hc3 : CanonTmp k2 a3) :
+    VS.lorentz_rapidity.eval k0 k1 k2 a0 a1 a2 a3 =
+      VR.lorentz_rapidity.eval k0 k1 k2 a0 a1 a2 a3 := by
+  cases k0 <;> cases k1 <;> cases k2
+  · exact VS.lorentz_rapidity.xy_z_t_eq a0 a1 a2 a3
+  · exact c08_lorentz_rapidity_xy_z_tau a0 a1 a2 a3 hc3
+  · exact VS.lorentz_rapidity.xy_theta_t_eq a0 a1 a2 a3
+  · exact c08_lorentz_rapidity_xy_theta_tau a0 a1 a2 a3 hc3
+  · exact VS.lorentz_rapidity.xy_eta_t_eq a0 a1 a2 a3
+  · exact c08_lorentz_rapidity_xy_eta_tau a0 a1 a2 a3 hc3
+  · exact VS.lorentz_rapidity.rhophi_z_t_eq a0 a1 a2 a3
+  · exact c08_lorentz_rapidity_rhophi_z_tau a0 a1 a2 a3 hc3
+  · exact VS.lorentz_rapidity.rhophi_theta_t_eq a0 a1 a2 a3
+  · exact c08_lorentz_rapidity_rhophi_theta_tau a0 a1 a2 a3 hc3
+  · exact VS.lorentz_rapidity.rhophi_eta_t_eq a0 a1 a2 a3
+  · exact c08_lorentz_rapidity_rhophi_eta_tau a0 a1 a2 a3 hc3
+
+/-- `lorentz_subtract`: all 144 keys -/
+theorem c08_lorentz_subtract (k0 : Az) (k1 : Lon) (k2 : Tmp) (k3 : Az) (k4 : Lon) (k5 : Tmp) (a0 a1 a2 a3 a4 a5 a6 a7 : ℝ)
+    (hc3 : CanonTmp k2 a3)
+    (hc7 : CanonTmp k5 a7)
+    (hres : k2 = .tau → k5 = .tau → 0 ≤ (VR.lorentz_subtract.eval k0 k1 k2 k3 k4 k5 a0 a1 a2 a3 a4 a5 a6 a7).2.2.2) :
+    VS.lorentz_subtract.eval k0 k1 k2 k3 k4 k5 a0 a1 a2 a3 a4 a5 a6 a7 =
+      VR.lorentz_subtract.eval k0 k1 k2 k3 k4 k5 a0 a1 a2 a3 a4 a5 a6 a7 := by
+  cases k0 <;> cases k1 <;> cases k2 <;> cases k3 <;> cases k4 <;> cases k5
+  · exact VS.lorentz_subtract.k_xy_z_t_xy_z_t_eq a0 a1 a2 a3 a4 a5 a6 a7
+  · exact c08_lorentz_subtract_k_xy_z_t_xy_z_tau a0 a1 a2 a3 a4 a5 a6 a7 hc7
+  · exact VS.lorentz_subtract.k_xy_z_t_xy_theta_t_eq a0 a1 a2 a3 a4 a5 a6 a7
+  · exact c08_lorentz_subtract_k_xy_z_t_xy_theta_tau a0 a1 a2 a3 a4 a5 a6 a7 hc7
+  · exact VS.lorentz_subtract.k_xy_z_t_xy_eta_t_eq a0 a1 a2 a3 a4 a5 a6 a7
+  · exact c08_lorentz_subtract_k_xy_z_t_xy_eta_tau a0 a1 a2 a3 a4 a5 a6 a7 hc7
+  · exact VS.lorentz_subtract.k_xy_z_t_rhophi_z_t_eq a0 a1 a2 a3 a4 a5 a6 a7
+  · exact c08_lorentz_subtract_k_xy_z_t_rhophi_z_tau a0 a1 a2 a3 a4 a5 a6 a7 hc7
+  · exact VS.lorentz_subtract.k_xy_z_t_rhophi_theta_t_eq a0 a1 a2 a3 a4 a5 a6 a7
+  · exact c08_lorentz_subtract_k_xy_z_t_rhophi_theta_tau a0 a1 a2 a3 a4 a5 a6 a7 hc7
+  · exact VS.lorentz_subtract.k_xy_z_t_rhophi_eta_t_eq a0 a1 a2 a3 a4 a5 a6 a7
+  · exact c08_lorentz_subtract_k_xy_z_t_rhophi_eta_tau a0 a1 a2 a3 a4 a5 a6 a7 hc7
+  · exact c08_lorentz_subtract_k_xy_z_tau_xy_z_t a0 a1 a2 a3 a4 a5 a6 a7 hc3
+  · exact c08_lorentz_subtract_k_xy_z_tau_xy_z_tau a0 a1 a2 a3 a4 a5 a6 a7 hc3 hc7 (hres rfl rfl)
+  · exact c08_lorentz_subtract_k_xy_z_tau_xy_theta_t a0 a1 a2 a3 a4 a5 a6 a7 hc3
+  · exact c08_lorentz_subtract_k_xy_z_tau_xy_theta_tau a0 a1 a2 a3 a4 a5 a6 a7 hc3 hc7 (hres rfl rfl)
+  · exact c08_lorentz_subtract_k_xy_z_tau_xy_eta_t a0 a1 a2 a3 a4 a5 a6 a7 hc3
+  · exact c08_lorentz_subtract_k_xy_z_tau_xy_eta_tau a0 a1 a2 a3 a4 a5 a6 a7 hc3 hc7 (hres rfl rfl)
+  · exact c08_lorentz_subtract_k_xy_z_tau_rhophi_z_t a0 a1 a2 a3 a4 a5 a6 a7 hc3
+  · exact c08_lorentz_subtract_k_xy_z_tau_rhophi_z_tau a0 a1 a2 a3 a4 a5 a6 a7 hc3 hc7 (hres rfl rfl)
+  · exact c08_lorentz_subtract_k_xy_z_tau_rhophi_theta_t a0 a1 a2 a3 a4 a5 a6 a7 hc3
+  · exact c08_lorentz_subtract_k_xy_z_tau_rhophi_theta_tau a0 a1 a2 a3 a4 a5 a6 a7 hc3 hc7 (hres rfl rfl)
+  · exact c08_lorentz_subtract_k_xy_z_tau_rhophi_eta_t a0 a1 a2 a3 a4 a5 a6 a7 hc3
+  · exact c08_lorentz_subtract_k_xy_z_tau_rhophi_eta_tau a0 a1 a2 a3 a4 a5 a6 a7 hc3 hc7 (hres rfl rfl)
+  · exact VS.lorentz_subtract.k_xy_theta_t_xy_z_t_eq a0 a1 a2 a3 a4 a5 a6 a7
+  · exact c08_lorentz_subtract_k_xy_theta_t_xy_z_tau a0 a1 a2 a3 a4 a5 a6 a7 hc7
+  · exact VS.lorentz_subtract.k_xy_theta_t_xy_theta_t_eq a0 a1 a2 a3 a4 a5 a6 a7
+  · exact c08_lorentz_subtract_k_xy_theta_t_xy_theta_tau a0 a1 a2 a3 a4 a5 a6 a7 hc7
+  · exact VS.lorentz_subtract.k_xy_theta_t_xy_eta_t_eq a0 a1 a2 a3 a4 a5 a6 a7
+  · exact c08_lorentz_subtract_k_xy_theta_t_xy_eta_tau a0 a1 a2 a3 a4 a5 a6 a7 hc7
+  · exact VS.lorentz_subtract.k_xy_theta_t_rhophi_z_t_eq a0 a1 a2 a3 a4 a5 a6 a7
+  · exact c08_lorentz_subtract_k_xy_theta_t_rhophi_z_tau a0 a1 a2 a3 a4 a5 a6 a7 hc7
+  · exact VS.lorentz_subtract.k_xy_theta_t_rhophi_theta_t_eq a0 a1 a2 a3 a4 a5 a6 a7
+  · exact c08_lorentz_subtract_k_xy_theta_t_rhophi_theta_tau a0 a1 a2 a3 a4 a5 a6 a7 hc7
+  · exact VS.lorentz_subtract.k_xy_theta_t_rhophi_eta_t_eq a0 a1 a2 a3 a4 a5 a6 a7
+  · exact c08_lorentz_subtract_k_xy_theta_t_rhophi_eta_tau a0 a1 a2 a3 a4 a5 a6 a7 hc7
+  · exact c08_lorentz_subtract_k_xy_theta_tau_xy_z_t a0 a1 a2 a3 a4 a5 a6 a7 hc3
+  · exact c08_lorentz_subtract_k_xy_theta_tau_xy_z_tau a0 a1 a2 a3 a4 a5 a6 a7 hc3 hc7 (hres rfl rfl)
+  · exact c08_lorentz_subtract_k_xy_theta_tau_xy_theta_t a0 a1 a2 a3 a4 a5 a6 a7 hc3
+  · exact c08_lorentz_subtract_k_xy_theta_tau_xy_theta_tau a0 a1 a2 a3 a4 a5 a6 a7 hc3 hc7 (hres rfl rfl)
+  · exact c08_lorentz_subtract_k_xy_theta_tau_xy_eta_t a0 a1 a2 a3 a4 a5 a6 a7 hc3
+  · exact c08_lorentz_subtract_k_xy_theta_tau_xy_eta_tau a0 a1 a2 a3 a4 a5 a6 a7 hc3 hc7 (hres rfl rfl)
+  · exact c08_lorentz_subtract_k_xy_theta_tau_rhophi_z_t a0 a1 a2 a3 a4 a5 a6 a7 hc3
+  · exact c08_lorentz_subtract_k_xy_theta_tau_rhophi_z_tau a0 a1 a2 a3 a4 a5 a6 a7 hc3 hc7 (hres rfl rfl)
+  · exact c08_lorentz_subtract_k_xy_theta_tau_rhophi_theta_t a0 a1 a2 a3 a4 a5 a6 a7 hc3
+  · exact c08_lorentz_subtract_k_xy_theta_tau_rhophi_theta_tau a0 a1 a2 a3 a4 a5 a6 a7 hc3 hc7 (hres rfl rfl)
+  · exact c08_lorentz_subtract_k_xy_theta_tau_rhophi_eta_t a0 a1 a2 a3 a4 a5 a6 a7 hc3
+  · exact c08_lorentz_subtract_k_xy_theta_tau_rhophi_eta_tau a0 a1 a2 a3 a4 a5 a6 a7 hc3 hc7 (hres rfl rfl)
+  · exact VS.lorentz_subtract.k_xy_eta_t_xy_z_t_eq a0 a1 a2 a3 a4 a5 a6 a7
+  · exact c08_lorentz_subtract_k_xy_eta_t_xy_z_tau a0 a1 a2 a3 a4 a5 a6 a7 hc7
+  · exact VS.lorentz_subtract.k_xy_eta_t_xy_theta_t_eq a0 a1 a2 a3 a4 a5 a6 a7
+  · exact c08_lorentz_subtract_k_xy_eta_t_xy_theta_tau a0 a1 a2 a3 a4 a5 a6 a7 hc7
+  · exact VS.lorentz_subtract.k_xy_eta_t_xy_eta_t_eq a0 a1 a2 a3 a4 a5 a6 a7
+  · exact c08_lorentz_subtract_k_xy_eta_t_xy_eta_tau a0 a1 a2 a3 a4 a5 a6 a7 hc7
+  · exact VS.lorentz_subtract.k_xy_eta_t_rhophi_z_t_eq a0 a1 a2 a3 a4 a5 a6 a7
+  · exact c08_lorentz_subtract_k_xy_eta_t_rhophi_z_tau a0 a1 a2 a3 a4 a5 a6 a7 hc7
+  · exact VS.lorentz_subtract.k_xy_eta_t_rhophi_theta_t_eq a0 a1 a2 a3 a4 a5 a6 a7
+  · exact c08_lorentz_subtract_k_xy_eta_t_rhophi_theta_tau a0 a1 a2 a3 a4 a5 a6 a7 hc7
+  · exact VS.lorentz_subtract.k_xy_eta_t_rhophi_eta_t_eq a0 a1 a2 a3 a4 a5 a6 a7
+  · exact c08_lorentz_subtract_k_xy_eta_t_rhophi_eta_tau a0 a1 a2 a3 a4 a5 a6 a7 hc7
+  · exact c08_lorentz_subtract_k_xy_eta_tau_xy_z_t a0 a1 a2 a3 a4 a5 a6 a7 hc3
+  · exact c08_lorentz_subtract_k_xy_eta_tau_xy_z_tau a0 a1 a2 a3 a4 a5 a6 a7 hc3 hc7 (hres rfl rfl)
+  · exact c08_lorentz_subtract_k_xy_eta_tau_xy_theta_t a0 a1 a2 a3 a4 a5 a6 a7 hc3
+  · exact c08_lorentz_subtract_k_xy_eta_tau_xy_theta_tau a0 a1 a2 a3 a4 a5 a6 a7 hc3 hc7 (hres rfl rfl)
+  · exact c08_lorentz_subtract_k_xy_eta_tau_xy_eta_t a0 a1 a2 a3 a4 a5 a6 a7 hc3
+  · exact c08_lorentz_subtract_k_xy_eta_tau_xy_eta_tau a0 a1 a2 a3 a4 a5 a6 a7 hc3 hc7 (hres rfl rfl)
+  · exact c08_lorentz_subtract_k_xy_eta_tau_rhophi_z_t a0 a1 a2 a3 a4 a5 a6 a7 hc3
+  · exact c08_lorentz_subtract_k_xy_eta_tau_rhophi_z_tau a0 a1 a2 a3 a4 a5 a6 a7 hc3 hc7 (hres rfl rfl)
+  · exact c08_lorentz_subtract_k_xy_eta_tau_rhophi_theta_t a0 a1 a2 a3 a4 a5 a6 a7 hc3
+  · exact c08_lorentz_subtract_k_xy_eta_tau_rhophi_theta_tau a0 a1 a2 a3 a4 a5 a6 a7 hc3 hc7 (hres rfl rfl)
+  · exact c08_lorentz_subtract_k_xy_eta_tau_rhophi_eta_t a0 a1 a2 a3 a4 a5 a6 a7 hc3
+  · exact c08_lorentz_subtract_k_xy_eta_tau_rhophi_eta_tau a0 a1 a2 a3 a4 a5 a6 a7 hc3 hc7 (hres rfl rfl)
+  · exact VS.lorentz_subtract.k_rhophi_z_t_xy_z_t_eq a0 a1 a2 a3 a4 a5 a6 a7
+  · exact c08_lorentz_subtract_k_rhophi_z_t_xy_z_tau a0 a1 a2 a3 a4 a5 a6 a7 hc7
+  · exact VS.lorentz_subtract.k_rhophi_z_t_xy_theta_t_eq a0 a1 a2 a3 a4 a5 a6 a7
+  · exact c08_lorentz_subtract_k_rhophi_z_t_xy_theta_tau a0 a1 a2 a3 a4 a5 a6 a7 hc7
+  · exact VS.lorentz_subtract.k_rhophi_z_t_xy_eta_t_eq a0 a1 a2 a3 a4 a5 a6 a7
+  · exact c08_lorentz_subtract_k_rhophi_z_t_xy_eta_tau a0 a1 a2 a3 a4 a5 a6 a7 hc7
+  · exact VS.lorentz_subtract.k_rhophi_z_t_rhophi_z_t_eq a0 a1 a2 a3 a4 a5 a6 a7
+  · exact c08_lorentz_subtract_k_rhophi_z_t_rhophi_z_tau a0 a1 a2 a3 a4 a5 a6 a7 hc7
+  · exact VS.lorentz_subtract.k_rhophi_z_t_rhophi_theta_t_eq a0 a1 a2 a3 a4 a5 a6 a7
+  · exact c08_lorentz_subtract_k_rhophi_z_t_rhophi_theta_tau a0 a1 a2 a3 a4 a5 a6 a7 hc7
+  · exact VS.lorentz_subtract.k_rhophi_z_t_rhophi_eta_t_eq a0 a1 a2 a3 a4 a5 a6 a7
+  · exact c08_lorentz_subtract_k_rhophi_z_t_rhophi_eta_tau a0 a1 a2 a3 a4 a5 a6 a7 hc7
+  · exact c08_lorentz_subtract_k_rhophi_z_tau_xy_z_t a0 a1 a2 a3 a4 a5 a6 a7 hc3
+  · exact c08_lorentz_subtract_k_rhophi_z_tau_xy_z_tau a0 a1 a2 a3 a4 a5 a6 a7 hc3 hc7 (hres rfl rfl)
+  · exact c08_lorentz_subtract_k_rhophi_z_tau_xy_theta_t a0 a1 a2 a3 a4 a5 a6 a7 hc3
+  · exact c08_lorentz_subtract_k_rhophi_z_tau_xy_theta_tau a0 a1 a2 a3 a4 a5 a6 a7 hc3 hc7 (hres rfl rfl)
+  · exact c08_lorentz_subtract_k_rhophi_z_tau_xy_eta_t a0 a1 a2 a3 a4 a5 a6 a7 hc3
+  · exact c08_lorentz_subtract_k_rhophi_z_tau_xy_eta_tau a0 a1 a2 a3 a4 a5 a6 a7 hc3 hc7 (hres rfl rfl)
+  · exact c08_lorentz_subtract_k_rhophi_z_tau_rhophi_z_t a0 a1 a2 a3 a4 a5 a6 a7 hc3
+  · exact c08_lorentz_subtract_k_rhophi_z_tau_rhophi_z_tau a0 a1 a2 a3 a4 a5 a6 a7 hc3 hc7 (hres rfl rfl)
+  · exact c08_lorentz_subtract_k_rhophi_z_tau_rhophi_theta_t a0 a1 a2 a3 a4 a5 a6 a7 hc3
+  · exact c08_lorentz_subtract_k_rhophi_z_tau_rhophi_theta_tau a0 a1 a2 a3 a4 a5 a6 a7 hc3 hc7 (hres rfl rfl)
+  · exact c08_lorentz_subtract_k_rhophi_z_tau_rhophi_eta_t a0 a1 a2 a3 a4 a5 a6 a7 hc3
+  · exact c08_lorentz_subtract_k_rhophi_z_tau_rhophi_eta_tau a0 a1 a2 a3 a4 a5 a6 a7 hc3 hc7 (hres rfl rfl)
+  · exact VS.lorentz_subtract.k_rhophi_theta_t_xy_z_t_eq a0 a1 a2 a3 a4 a5 a6 a7
+  · exact c08_lorentz_subtract_k_rhophi_theta_t_xy_z_tau a0 a1 a2 a3 a4 a5 a6 a7 hc7
+  · exact VS.lorentz_subtract.k_rhophi_theta_t_xy_theta_t_eq a0 a1 a2 a3 a4 a5 a6 a7
+  · exact c08_lorentz_subtract_k_rhophi_theta_t_xy_theta_tau a0 a1 a2 a3 a4 a5 a6 a7 hc7
+  · exact VS.lorentz_subtract.k_rhophi_theta_t_xy_eta_t_eq a0 a1 a2 a3 a4 a5 a6 a7
+  · exact c08_lorentz_subtract_k_rhophi_theta_t_xy_eta_tau a0 a1 a2 a3 a4 a5 a6 a7 hc7
+  · exact VS.lorentz_subtract.k_rhophi_theta_t_rhophi_z_t_eq a0 a1 a2 a3 a4 a5 a6 a7
+  · exact c08_lorentz_subtract_k_rhophi_theta_t_rhophi_z_tau a0 a1 a2 a3 a4 a5 a6 a7 hc7
+  · exact VS.lorentz_subtract.k_rhophi_theta_t_rhophi_theta_t_eq a0 a1 a2 a3 a4 a5 a6 a7
+  · exact c08_lorentz_subtract_k_rhophi_theta_t_rhophi_theta_tau a0 a1 a2 a3 a4 a5 a6 a7 hc7
+  · exact VS.lorentz_subtract.k_rhophi_theta_t_rhophi_eta_t_eq a0 a1 a2 a3 a4 a5 a6 a7
+  · exact c08_lorentz_subtract_k_rhophi_theta_t_rhophi_eta_tau a0 a1 a2 a3 a4 a5 a6 a7 hc7
+  · exact c08_lorentz_subtract_k_rhophi_theta_tau_xy_z_t a0 a1 a2 a3 a4 a5 a6 a7 hc3
+  · exact c08_lorentz_subtract_k_rhophi_theta_tau_xy_z_tau a0 a1 a2 a3 a4 a5 a6 a7 hc3 hc7 (hres rfl rfl)
+  · exact c08_lorentz_subtract_k_rhophi_theta_tau_xy_theta_t a0 a1 a2 a3 a4 a5 a6 a7 hc3
+  · exact c08_lorentz_subtract_k_rhophi_theta_tau_xy_theta_tau a0 a1 a2 a3 a4 a5 a6 a7 hc3 hc7 (hres rfl rfl)
+  · exact c08_lorentz_subtract_k_rhophi_theta_tau_xy_eta_t a0 a1 a2 a3 a4 a5 a6 a7 hc3
+  · exact c08_lorentz_subtract_k_rhophi_theta_tau_xy_eta_tau a0 a1 a2 a3 a4 a5 a6 a7 hc3 hc7 (hres rfl rfl)
+  · exact c08_lorentz_subtract_k_rhophi_theta_tau_rhophi_z_t a0 a1 a2 a3 a4 a5 a6 a7 hc3
+  · exact c08_lorentz_subtract_k_rhophi_theta_tau_rhophi_z_tau a0 a1 a2 a3 a4 a5 a6 a7 hc3 hc7 (hres rfl rfl)
+  · exact c08_lorentz_subtract_k_rhophi_theta_tau_rhophi_theta_t a0 a1 a2 a3 a4 a5 a6 a7 hc3
+  · exact c08_lorentz_subtract_k_rhophi_theta_tau_rhophi_theta_tau a0 a1 a2 a3 a4 a5 a6 a7 hc3 hc7 (hres rfl rfl)
+  · exact c08_lorentz_subtract_k_rhophi_theta_tau_rhophi_eta_t a0 a1 a2 a3 a4 a5 a6 a7 hc3
+  · exact c08_lorentz_subtract_k_rhophi_theta_tau_rhophi_eta_tau a0 a1 a2 a3 a4 a5 a6 a7 hc3 hc7 (hres rfl rfl)
+  · exact VS.lorentz_subtract.k_rhophi_eta_t_xy_z_t_eq a0 a1 a2 a3 a4 a5 a6 a7
+  · exact c08_lorentz_subtract_k_rhophi_eta_t_xy_z_tau a0 a1 a2 a3 a4 a5 a6 a7 hc7
+  · exact VS.lorentz_subtract.k_rhophi_eta_t_xy_theta_t_eq a0 a1 a2 a3 a4 a5 a6 a7
+  · exact c08_lorentz_subtract_k_rhophi_eta_t_xy_theta_tau a0 a1 a2 a3 a4 a5 a6 a7 hc7
+  · exact VS.lorentz_subtract.k_rhophi_eta_t_xy_eta_t_eq a0 a1 a2 a3 a4 a5 a6 a7
+  · exact c08_lorentz_subtract_k_rhophi_eta_t_xy_eta_tau a0 a1 a2 a3 a4 a5 a6 a7 hc7
+  · exact VS.lorentz_subtract.k_rhophi_eta_t_rhophi_z_t_eq a0 a1 a2 a3 a4 a5 a6 a7
+  · exact c08_lorentz_subtract_k_rhophi_eta_t_rhophi_z_tau a0 a1 a2 a3 a4 a5 a6 a7 hc7
+  · exact VS.lorentz_subtract.k_rhophi_eta_t_rhophi_theta_t_eq a0 a1 a2 a3 a4 a5 a6 a7
+  · exact c08_lorentz_subtract_k_rhophi_eta_t_rhophi_theta_tau a0 a1 a2 a3 a4 a5 a6 a7 hc7
+  · exact VS.lorentz_subtract.k_rhophi_eta_t_rhophi_eta_t_eq a0 a1 a2 a3 a4 a5 a6 a7
+  · exact c08_lorentz_subtract_k_rhophi_eta_t_rhophi_eta_tau a0 a1 a2 a3 a4 a5 a6 a7 hc7
+  · exact c08_lorentz_subtract_k_rhophi_eta_tau_xy_z_t a0 a1 a2 a3 a4 a5 a6 a7 hc3
+  · exact c08_lorentz_subtract_k_rhophi_eta_tau_xy_z_tau a0 a1 a2 a3 a4 a5 a6 a7 hc3 hc7 (hres rfl rfl)
+  · exact c08_lorentz_subtract_k_rhophi_eta_tau_xy_theta_t a0 a1 a2 a3 a4 a5 a6 a7 hc3
+  · exact c08_lorentz_subtract_k_rhophi_eta_tau_xy_theta_tau a0 a1 a2 a3 a4 a5 a6 a7 hc3 hc7 (hres rfl rfl)
+  · exact c08_lorentz_subtract_k_rhophi_eta_tau_xy_eta_t a0 a1 a2 a3 a4 a5 a6 a7 hc3
+  · exact c08_lorentz_subtract_k_rhophi_eta_tau_xy_eta_tau a0 a1 a2 a3 a4 a5 a6 a7 hc3 hc7 (hres rfl rfl)
+  · exact c08_lorentz_subtract_k_rhophi_eta_tau_rhophi_z_t a0 a1 a2 a3 a4 a5 a6 a7 hc3
+  · exact c08_lorentz_subtract_k_rhophi_eta_tau_rhophi_z_tau a0 a1 a2 a3 a4 a5 a6 a7 hc3 hc7 (hres rfl rfl)
+  · exact c08_lorentz_subtract_k_rhophi_eta_tau_rhophi_theta_t a0 a1 a2 a3 a4 a5 a6 a7 hc3
+  · exact c08_lorentz_subtract_k_rhophi_eta_tau_rhophi_theta_tau a0 a1 a2 a3 a4 a5 a6 a7 hc3 hc7 (hres rfl rfl)
+  · exact c08_lorentz_subtract_k_rhophi_eta_tau_rhophi_eta_t a0 a1 a2 a3 a4 a5 a6 a7 hc3
+  · exact c08_lorentz_subtract_k_rhophi_eta_tau_rhophi_eta_tau a0 a1 a2 a3 a4 a5 a6 a7 hc3 hc7 (hres rfl rfl)
+
+/-- `lorentz_deltaRapidityPhi2`: all 144 keys -/
+theorem c08_lorentz_deltaRapidityPhi2 (k0 : Az) (k1 : Lon) (k2 : Tmp) (k3 : Az) (k4 : Lon) (k5 : Tmp) (a0 a1 a2 a3 a4 a5 a6 a7 : ℝ)
+    (hc3 : CanonTmp k2 a3)
+    (hc7 : CanonTmp k5 a7) :
+    VS.lorentz_deltaRapidityPhi2.eval k0 k1 k2 k3 k4 k5 a0 a1 a2 a3 a4 a5 a6 a7 =
+      VR.lorentz_deltaRapidityPhi2.eval k0 k1 k2 k3 k4 k5 a0 a1 a2 a3 a4 a5 a6 a7 := by
+  cases k0 <;> cases k1 <;> cases k2 <;> cases k3 <;> cases k4 <;> cases k5
+  · exact VS.lorentz_deltaRapidityPhi2.k_xy_z_t_xy_z_t_eq a0 a1 a2 a3 a4 a5 a6 a7
+  · exact c08_lorentz_deltaRapidityPhi2_k_xy_z_t_xy_z_tau a0 a1 a2 a3 a4 a5 a6 a7 hc7
+  · exact VS.lorentz_deltaRapidityPhi2.k_xy_z_t_xy_theta_t_eq a0 a1 a2 a3 a4 a5 a6 a7
+  · exact c08_lorentz_deltaRapidityPhi2_k_xy_z_t_xy_theta_tau a0 a1 a2 a3 a4 a5 a6 a7 hc7
+  · exact VS.lorentz_deltaRapidityPhi2.k_xy_z_t_xy_eta_t_eq a0 a1 a2 a3 a4 a5 a6 a7
+  · exact c08_lorentz_deltaRapidityPhi2_k_xy_z_t_xy_eta_tau a0 a1 a2 a3 a4 a5 a6 a7 hc7
+  · exact VS.lorentz_deltaRapidityPhi2.k_xy_z_t_rhophi_z_t_eq a0 a1 a2 a3 a4 a5 a6 a7
+  · exact c08_lorentz_deltaRapidityPhi2_k_xy_z_t_rhophi_z_tau a0 a1 a2 a3 a4 a5 a6 a7 hc7
+  · exact VS.lorentz_deltaRapidityPhi2.k_xy_z_t_rhophi_theta_t_eq a0 a1 a2 a3 a4 a5 a6 a7
+  · exact c08_lorentz_deltaRapidityPhi2_k_xy_z_t_rhophi_theta_tau a0 a1 a2 a3 a4 a5 a6 a7 hc7
+  · exact VS.lorentz_deltaRapidityPhi2.k_xy_z_t_rhophi_eta_t_eq a0 a1 a2 a3 a4 a5 a6 a7
+  · exact c08_lorentz_deltaRapidityPhi2_k_xy_z_t_rhophi_eta_tau a0 a1 a2 a3 a4 a5 a6 a7 hc7
+  · exact c08_lorentz_deltaRapidityPhi2_k_xy_z_tau_xy_z_t a0 a1 a2 a3 a4 a5 a6 a7 hc3
+  · exact c08_lorentz_deltaRapidityPhi2_k_xy_z_tau_xy_z_tau a0 a1 a2 a3 a4 a5 a6 a7 hc3 hc7
+  · exact c08_lorentz_deltaRapidityPhi2_k_xy_z_tau_xy_theta_t a0 a1 a2 a3 a4 a5 a6 a7 hc3
+  · exact c08_lorentz_deltaRapidityPhi2_k_xy_z_tau_xy_theta_tau a0 a1 a2 a3 a4 a5 a6 a7 hc3 hc7
+  · exact c08_lorentz_deltaRapidityPhi2_k_xy_z_tau_xy_eta_t a0 a1 a2 a3 a4 a5 a6 a7 hc3
+  · exact c08_lorentz_deltaRapidityPhi2_k_xy_z_tau_xy_eta_tau a0 a1 a2 a3 a4 a5 a6 a7 hc3 hc7
+  · exact c08_lorentz_deltaRapidityPhi2_k_xy_z_tau_rhophi_z_t a0 a1 a2 a3 a4 a5 a6 a7 hc3
+  · exact c08_lorentz_deltaRapidityPhi2_k_xy_z_tau_rhophi_z_tau a0 a1 a2 a3 a4 a5 a6 a7 hc3 hc7
+  · exact c08_lorentz_deltaRapidityPhi2_k_xy_z_tau_rhophi_theta_t a0 a1 a2 a3 a4 a5 a6 a7 hc3
+  · exact c08_lorentz_deltaRapidityPhi2_k_xy_z_tau_rhophi_theta_tau a0 a1 a2 a3 a4 a5 a6 a7 hc3 hc7
+  · exact c08_lorentz_deltaRapidityPhi2_k_xy_z_tau_rhophi_eta_t a0 a1 a2 a3 a4 a5 a6 a7 hc3
+  · exact c08_lorentz_deltaRapidityPhi2_k_xy_z_tau_rhophi_eta_tau a0 a1 a2 a3 a4 a5 a6 a7 hc3 hc7
+  · exact VS.lorentz_deltaRapidityPhi2.k_xy_theta_t_xy_z_t_eq a0 a1 a2 a3 a4 a5 a6 a7
+  · exact c08_lorentz_deltaRapidityPhi2_k_xy_theta_t_xy_z_tau a0 a1 a2 a3 a4 a5 a6 a7 hc7
+  · exact VS.lorentz_deltaRapidityPhi2.k_xy_theta_t_xy_theta_t_eq a0 a1 a2 a3 a4 a5 a6 a7
+  · exact c08_lorentz_deltaRapidityPhi2_k_xy_theta_t_xy_theta_tau a0 a1 a2 a3 a4 a5 a6 a7 hc7
+  · exact VS.lorentz_deltaRapidityPhi2.k_xy_theta_t_xy_eta_t_eq a0 a1 a2 a3 a4 a5 a6 a7
+  · exact c08_lorentz_deltaRapidityPhi2_k_xy_theta_t_xy_eta_tau a0 a1 a2 a3 a4 a5 a6 a7 hc7
+  · exact VS.lorentz_deltaRapidityPhi2.k_xy_theta_t_rhophi_z_t_eq a0 a1 a2 a3 a4 a5 a6 a7
+  · exact c08_lorentz_deltaRapidityPhi2_k_xy_theta_t_rhophi_z_tau a0 a1 a2 a3 a4 a5 a6 a7 hc7
+  · exact VS.lorentz_deltaRapidityPhi2.k_xy_theta_t_rhophi_theta_t_eq a0 a1 a2 a3 a4 a5 a6 a7
+  · exact c08_lorentz_deltaRapidityPhi2_k_xy_theta_t_rhophi_theta_tau a0 a1 a2 a3 a4 a5 a6 a7 hc7
+  · exact VS.lorentz_deltaRapidityPhi2.k_xy_theta_t_rhophi_eta_t_eq a0 a1 a2 a3 a4 a5 a6 a7
+  · exact c08_lorentz_deltaRapidityPhi2_k_xy_theta_t_rhophi_eta_tau a0 a1 a2 a3 a4 a5 a6 a7 hc7
+  · exact c08_lorentz_deltaRapidityPhi2_k_xy_theta_tau_xy_z_t a0 a1 a2 a3 a4 a5 a6 a7 hc3
+  · exact c08_lorentz_deltaRapidityPhi2_k_xy_theta_tau_xy_z_tau a0 a1 a2 a3 a4 a5 a6 a7 hc3 hc7
+  · exact c08_lorentz_deltaRapidityPhi2_k_xy_theta_tau_xy_theta_t a0 a1 a2 a3 a4 a5 a6 a7 hc3
+  · exact c08_lorentz_deltaRapidityPhi2_k_xy_theta_tau_xy_theta_tau a0 a1 a2 a3 a4 a5 a6 a7 hc3 hc7
+  · exact c08_lorentz_deltaRapidityPhi2_k_xy_theta_tau_xy_eta_t a0 a1 a2 a3 a4 a5 a6 a7 hc3
+  · exact c08_lorentz_deltaRapidityPhi2_k_xy_theta_tau_xy_eta_tau a0 a1 a2 a3 a4 a5 a6 a7 hc3 hc7
+  · exact c08_lorentz_deltaRapidityPhi2_k_xy_theta_tau_rhophi_z_t a0 a1 a2 a3 a4 a5 a6 a7 hc3
+  · exact c08_lorentz_deltaRapidityPhi2_k_xy_theta_tau_rhophi_z_tau a0 a1 a2 a3 a4 a5 a6 a7 hc3 hc7
+  · exact c08_lorentz_deltaRapidityPhi2_k_xy_theta_tau_rhophi_theta_t a0 a1 a2 a3 a4 a5 a6 a7 hc3
+  · exact c08_lorentz_deltaRapidityPhi2_k_xy_theta_tau_rhophi_theta_tau a0 a1 a2 a3 a4 a5 a6 a7 hc3 hc7
+  · exact c08_lorentz_deltaRapidityPhi2_k_xy_theta_tau_rhophi_eta_t a0 a1 a2 a3 a4 a5 a6 a7 hc3
+  · exact c08_lorentz_deltaRapidityPhi2_k_xy_theta_tau_rhophi_eta_tau a0 a1 a2 a3 a4 a5 a6 a7 hc3 hc7
+  · exact VS.lorentz_deltaRapidityPhi2.k_xy_eta_t_xy_z_t_eq a0 a1 a2 a3 a4 a5 a6 a7
+  · exact c08_lorentz_deltaRapidityPhi2_k_xy_eta_t_xy_z_tau a0 a1 a2 a3 a4 a5 a6 a7 hc7
+  · exact VS.lorentz_deltaRapidityPhi2.k_xy_eta_t_xy_theta_t_eq a0 a1 a2 a3 a4 a5 a6 a7
+  · exact c08_lorentz_deltaRapidityPhi2_k_xy_eta_t_xy_theta_tau a0 a1 a2 a3 a4 a5 a6 a7 hc7
+  · exact VS.lorentz_deltaRapidityPhi2.k_xy_eta_t_xy_eta_t_eq a0 a1 a2 a3 a4 a5 a6 a7
+  · exact c08_lorentz_deltaRapidityPhi2_k_xy_eta_t_xy_eta_tau a0 a1 a2 a3 a4 a5 a6 a7 hc7
+  · exact VS.lorentz_deltaRapidityPhi2.k_xy_eta_t_rhophi_z_t_eq a0 a1 a2 a3 a4 a5 a6 a7
+  · exact c08_lorentz_deltaRapidityPhi2_k_xy_eta_t_rhophi_z_tau a0 a1 a2 a3 a4 a5 a6 a7 hc7
+  · exact VS.lorentz_deltaRapidityPhi2.k_xy_eta_t_rhophi_theta_t_eq a0 a1 a2 a3 a4 a5 a6 a7
+  · exact c08_lorentz_deltaRapidityPhi2_k_xy_eta_t_rhophi_theta_tau a0 a1 a2 a3 a4 a5 a6 a7 hc7
+  · exact VS.lorentz_deltaRapidityPhi2.k_xy_eta_t_rhophi_eta_t_eq a0 a1 a2 a3 a4 a5 a6 a7
+  · exact c08_lorentz_deltaRapidityPhi2_k_xy_eta_t_rhophi_eta_tau a0 a1 a2 a3 a4 a5 a6 a7 hc7
+  · exact c08_lorentz_deltaRapidityPhi2_k_xy_eta_tau_xy_z_t a0 a1 a2 a3 a4 a5 a6 a7 hc3
+  · exact c08_lorentz_deltaRapidityPhi2_k_xy_eta_tau_xy_z_tau a0 a1 a2 a3 a4 a5 a6 a7 hc3 hc7
+  · exact c08_lorentz_deltaRapidityPhi2_k_xy_eta_tau_xy_theta_t a0 a1 a2 a3 a4 a5 a6 a7 hc3
+  · exact c08_lorentz_deltaRapidityPhi2_k_xy_eta_tau_xy_theta_tau a0 a1 a2 a3 a4 a5 a6 a7 hc3 hc7
+  · exact c08_lorentz_deltaRapidityPhi2_k_xy_eta_tau_xy_eta_t a0 a1 a2 a3 a4 a5 a6 a7 hc3
+  · exact c08_lorentz_deltaRapidityPhi2_k_xy_eta_tau_xy_eta_tau a0 a1 a2 a3 a4 a5 a6 a7 hc3 hc7
+  · exact c08_lorentz_deltaRapidityPhi2_k_xy_eta_tau_rhophi_z_t a0 a1 a2 a3 a4 a5 a6 a7 hc3
+  · exact c08_lorentz_deltaRapidityPhi2_k_xy_eta_tau_rhophi_z_tau a0 a1 a2 a3 a4 a5 a6 a7 hc3 hc7
+  · exact c08_lorentz_deltaRapidityPhi2_k_xy_eta_tau_rhophi_theta_t a0 a1 a2 a3 a4 a5 a6 a7 hc3
+  · exact c08_lorentz_deltaRapidityPhi2_k_xy_eta_tau_rhophi_theta_tau a0 a1 a2 a3 a4 a5 a6 a7 hc3 hc7
+  · exact c08_lorentz_deltaRapidityPhi2_k_xy_eta_tau_rhophi_eta_t a0 a1 a2 a3 a4 a5 a6 a7 hc3
+  · exact c08_lorentz_deltaRapidityPhi2_k_xy_eta_tau_rhophi_eta_tau a0 a1 a2 a3 a4 a5 a6 a7 hc3 hc7
+  · exact VS.lorentz_deltaRapidityPhi2.k_rhophi_z_t_xy_z_t_eq a0 a1 a2 a3 a4 a5 a6 a7
+  · exact c08_lorentz_deltaRapidityPhi2_k_rhophi_z_t_xy_z_tau a0 a1 a2 a3 a4 a5 a6 a7 hc7
+  · exact VS.lorentz_deltaRapidityPhi2.k_rhophi_z_t_xy_theta_t_eq a0 a1 a2 a3 a4 a5 a6 a7
+  · exact c08_lorentz_deltaRapidityPhi2_k_rhophi_z_t_xy_theta_tau a0 a1 a2 a3 a4 a5 a6 a7 hc7
+  · exact VS.lorentz_deltaRapidityPhi2.k_rhophi_z_t_xy_eta_t_eq a0 a1 a2 a3 a4 a5 a6 a7
+  · exact c08_lorentz_deltaRapidityPhi2_k_rhophi_z_t_xy_eta_tau a0 a1 a2 a3 a4 a5 a6 a7 hc7
+  · exact VS.lorentz_deltaRapidityPhi2.k_rhophi_z_t_rhophi_z_t_eq a0 a1 a2 a3 a4 a5 a6 a7
+  · exact c08_lorentz_deltaRapidityPhi2_k_rhophi_z_t_rhophi_z_tau a0 a1 a2 a3 a4 a5 a6 a7 hc7
+  · exact VS.lorentz_deltaRapidityPhi2.k_rhophi_z_t_rhophi_theta_t_eq a0 a1 a2 a3 a4 a5 a6 a7
+  · exact c08_lorentz_deltaRapidityPhi2_k_rhophi_z_t_rhophi_theta_tau a0 a1 a2 a3 a4 a5 a6 a7 hc7
+  · exact VS.lorentz_deltaRapidityPhi2.k_rhophi_z_t_rhophi_eta_t_eq a0 a1 a2 a3 a4 a5 a6 a7
+  · exact c08_lorentz_deltaRapidityPhi2_k_rhophi_z_t_rhophi_eta_tau a0 a1 a2 a3 a4 a5 a6 a7 hc7
+  · exact c08_lorentz_deltaRapidityPhi2_k_rhophi_z_tau_xy_z_t a0 a1 a2 a3 a4 a5 a6 a7 hc3
+  · exact c08_lorentz_deltaRapidityPhi2_k_rhophi_z_tau_xy_z_tau a0 a1 a2 a3 a4 a5 a6 a7 hc3 hc7
+  · exact c08_lorentz_deltaRapidityPhi2_k_rhophi_z_tau_xy_theta_t a0 a1 a2 a3 a4 a5 a6 a7 hc3
+  · exact c08_lorentz_deltaRapidityPhi2_k_rhophi_z_tau_xy_theta_tau a0 a1 a2 a3 a4 a5 a6 a7 hc3 hc7
+  · exact c08_lorentz_deltaRapidityPhi2_k_rhophi_z_tau_xy_eta_t a0 a1 a2 a3 a4 a5 a6 a7 hc3
+  · exact c08_lorentz_deltaRapidityPhi2_k_rhophi_z_tau_xy_eta_tau a0 a1 a2 a3 a4 a5 a6 a7 hc3 hc7
+  · exact c08_lorentz_deltaRapidityPhi2_k_rhophi_z_tau_rhophi_z_t a0 a1 a2 a3 a4 a5 a6 a7 hc3
+  · exact c08_lorentz_deltaRapidityPhi2_k_rhophi_z_tau_rhophi_z_tau a0 a1 a2 a3 a4 a5 a6 a7 hc3 hc7
+  · exact c08_lorentz_deltaRapidityPhi2_k_rhophi_z_tau_rhophi_theta_t a0 a1 a2 a3 a4 a5 a6 a7 hc3
+  · exact c08_lorentz_deltaRapidityPhi2_k_rhophi_z_tau_rhophi_theta_tau a0 a1 a2 a3 a4 a5 a6 a7 hc3 hc7
+  · exact c08_lorentz_deltaRapidityPhi2_k_rhophi_z_tau_rhophi_eta_t a0 a1 a2 a3 a4 a5 a6 a7 hc3
+  · exact c08_lorentz_deltaRapidityPhi2_k_rhophi_z_tau_rhophi_eta_tau a0 a1 a2 a3 a4 a5 a6 a7 hc3 hc7
+  · exact VS.lorentz_deltaRapidityPhi2.k_rhophi_theta_t_xy_z_t_eq a0 a1 a2 a3 a4 a5 a6 a7
+  · exact c08_lorentz_deltaRapidityPhi2_k_rhophi_theta_t_xy_z_tau a0 a1 a2 a3 a4 a5 a6 a7 hc7
+  · exact VS.lorentz_deltaRapidityPhi2.k_rhophi_theta_t_xy_theta_t_eq a0 a1 a2 a3 a4 a5 a6 a7
+  · exact c08_lorentz_deltaRapidityPhi2_k_rhophi_theta_t_xy_theta_tau a0 a1 a2 a3 a4 a5 a6 a7 hc7
+  · exact VS.lorentz_deltaRapidityPhi2.k_rhophi_theta_t_xy_eta_t_eq a0 a1 a2 a3 a4 a5 a6 a7
+  · exact c08_lorentz_deltaRapidityPhi2_k_rhophi_theta_t_xy_eta_tau a0 a1 a2 a3 a4 a5 a6 a7 hc7
+  · exact VS.lorentz_deltaRapidityPhi2.k_rhophi_theta_t_rhophi_z_t_eq a0 a1 a2 a3 a4 a5 a6 a7
+  · exact c08_lorentz_deltaRapidityPhi2_k_rhophi_theta_t_rhophi_z_tau a0 a1 a2 a3 a4 a5 a6 a7 hc7
+  · exact VS.lorentz_deltaRapidityPhi2.k_rhophi_theta_t_rhophi_theta_t_eq a0 a1 a2 a3 a4 a5 a6 a7
+  · exact c08_lorentz_deltaRapidityPhi2_k_rhophi_theta_t_rhophi_theta_tau a0 a1 a2 a3 a4 a5 a6 a7 hc7
+  · exact VS.lorentz_deltaRapidityPhi2.k_rhophi_theta_t_rhophi_eta_t_eq a0 a1 a2 a3 a4 a5 a6 a7
+  · exact c08_lorentz_deltaRapidityPhi2_k_rhophi_theta_t_rhophi_eta_tau a0 a1 a2 a3 a4 a5 a6 a7 hc7
+  · exact c08_lorentz_deltaRapidityPhi2_k_rhophi_theta_tau_xy_z_t a0 a1 a2 a3 a4 a5 a6 a7 hc3
+  · exact c08_lorentz_deltaRapidityPhi2_k_rhophi_theta_tau_xy_z_tau a0 a1 a2 a3 a4 a5 a6 a7 hc3 hc7
+  · exact c08_lorentz_deltaRapidityPhi2_k_rhophi_theta_tau_xy_theta_t a0 a1 a2 a3 a4 a5 a6 a7 hc3
+  · exact c08_lorentz_deltaRapidityPhi2_k_rhophi_theta_tau_xy_theta_tau a0 a1 a2 a3 a4 a5 a6 a7 hc3 hc7
+  · exact c08_lorentz_deltaRapidityPhi2_k_rhophi_theta_tau_xy_eta_t a0 a1 a2 a3 a4 a5 a6 a7 hc3
+  · exact c08_lorentz_deltaRapidityPhi2_k_rhophi_theta_tau_xy_eta_tau a0 a1 a2 a3 a4 a5 a6 a7 hc3 hc7
+  · exact c08_lorentz_deltaRapidityPhi2_k_rhophi_theta_tau_rhophi_z_t a0 a1 a2 a3 a4 a5 a6 a7 hc3
+  · exact c08_lorentz_deltaRapidityPhi2_k_rhophi_theta_tau_rhophi_z_tau a0 a1 a2 a3 a4 a5 a6 a7 hc3 hc7
+  · exact c08_lorentz_deltaRapidityPhi2_k_rhophi_theta_tau_rhophi_theta_t a0 a1 a2 a3 a4 a5 a6 a7 hc3
+  · exact c08_lorentz_deltaRapidityPhi2_k_rhophi_theta_tau_rhophi_theta_tau a0 a1 a2 a3 a4 a5 a6 a7 hc3 hc7
+  · exact c08_lorentz_deltaRapidityPhi2_k_rhophi_theta_tau_rhophi_eta_t a0 a1 a2 a3 a4 a5 a6 a7 hc3
+  · exact c08_lorentz_deltaRapidityPhi2_k_rhophi_theta_tau_rhophi_eta_tau a0 a1 a2 a3 a4 a5 a6 a7 hc3 hc7
+  · exact VS.lorentz_deltaRapidityPhi2.k_rhophi_eta_t_xy_z_t_eq a0 a1 a2 a3 a4 a5 a6 a7
+  · exact c08_lorentz_deltaRapidityPhi2_k_rhophi_eta_t_xy_z_tau a0 a1 a2 a3 a4 a5 a6 a7 hc7
+  · exact VS.lorentz_deltaRapidityPhi2.k_rhophi_eta_t_xy_theta_t_eq a0 a1 a2 a3 a4 a5 a6 a7
+  · exact c08_lorentz_deltaRapidityPhi2_k_rhophi_eta_t_xy_theta_tau a0 a1 a2 a3 a4 a5 a6 a7 hc7
+  · exact VS.lorentz_deltaRapidityPhi2.k_rhophi_eta_t_xy_eta_t_eq a0 a1 a2 a3 a4 a5 a6 a7
+  · exact c08_lorentz_deltaRapidityPhi2_k_rhophi_eta_t_xy_eta_tau a0 a1 a2 a3 a4 a5 a6 a7 hc7
+  · exact VS.lorentz_deltaRapidityPhi2.k_rhophi_eta_t_rhophi_z_t_eq a0 a1 a2 a3 a4 a5 a6 a7
+  · exact c08_lorentz_deltaRapidityPhi2_k_rhophi_eta_t_rhophi_z_tau a0 a1 a2 a3 a4 a5 a6 a7 hc7
+  · exact VS.lorentz_deltaRapidityPhi2.k_rhophi_eta_t_rhophi_theta_t_eq a0 a1 a2 a3 a4 a5 a6 a7
+  · exact c08_lorentz_deltaRapidityPhi2_k_rhophi_eta_t_rhophi_theta_tau a0 a1 a2 a3 a4 a5 a6 a7 hc7
+  · exact VS.lorentz_deltaRapidityPhi2.k_rhophi_eta_t_rhophi_eta_t_eq a0 a1 a2 a3 a4 a5 a6 a7
+  · exact c08_lorentz_deltaRapidityPhi2_k_rhophi_eta_t_rhophi_eta_tau a0 a1 a2 a3 a4 a5 a6 a7 hc7
+  · exact c08_lorentz_deltaRapidityPhi2_k_rhophi_eta_tau_xy_z_t a0 a1 a2 a3 a4 a5 a6 a7 hc3
+  · exact c08_lorentz_deltaRapidityPhi2_k_rhophi_eta_tau_xy_z_tau a0 a1 a2 a3 a4 a5 a6 a7 hc3 hc7
+  · exact c08_lorentz_deltaRapidityPhi2_k_rhophi_eta_tau_xy_theta_t a0 a1 a2 a3 a4 a5 a6 a7 hc3
+  · exact c08_lorentz_deltaRapidityPhi2_k_rhophi_eta_tau_xy_theta_tau a0 a1 a2 a3 a4 a5 a6 a7 hc3 hc7
+  · exact c08_lorentz_deltaRapidityPhi2_k_rhophi_eta_tau_xy_eta_t a0 a1 a2 a3 a4 a5 a6 a7 hc3
+  · exact c08_lorentz_deltaRapidityPhi2_k_rhophi_eta_tau_xy_eta_tau a0 a1 a2 a3 a4 a5 a6 a7 hc3 hc7
+  · exact c08_lorentz_deltaRapidityPhi2_k_rhophi_eta_tau_rhophi_z_t a0 a1 a2 a3 a4 a5 a6 a7 hc3
+  · exact c08_lorentz_deltaRapidityPhi2_k_rhophi_eta_tau_rhophi_z_tau a0 a1 a2 a3 a4 a5 a6 a7 hc3 hc7
+  · exact c08_lorentz_deltaRapidityPhi2_k_rhophi_eta_tau_rhophi_theta_t a0 a1 a2 a3 a4 a5 a6 a7 hc3
+  · exact c08_lorentz_deltaRapidityPhi2_k_rhophi_eta_tau_rhophi_theta_tau a0 a1 a2 a3 a4 a5 a6 a7 hc3 hc7
+  · exact c08_lorentz_deltaRapidityPhi2_k_rhophi_eta_tau_rhophi_eta_t a0 a1 a2 a3 a4 a5 a6 a7 hc3
+  · exact c08_lorentz_deltaRapidityPhi2_k_rhophi_eta_tau_rhophi_eta_tau a0 a1 a2 a3 a4 a5 a6 a7 hc3 hc7
+
+/-- `lorentz_deltaRapidityPhi`: all 144 keys -/
+theorem c08_lorentz_deltaRapidityPhi (k0 : Az) (k1 : Lon) (k2 : Tmp) (k3 : Az) (k4 : Lon) (k5 : Tmp) (a0 a1 a2 a3 a4 a5 a6 a7 : ℝ)
+    (hc3 : CanonTmp k2 a3)
+    (hc7 : CanonTmp k5 a7) :
+    VS.lorentz_deltaRapidityPhi.eval k0 k1 k2 k3 k4 k5 a0 a1 a2 a3 a4 a5 a6 a7 =
+      VR.lorentz_deltaRapidityPhi.eval k0 k1 k2 k3 k4 k5 a0 a1 a2 a3 a4 a5 a6 a7 := by
+  cases k0 <;> cases k1 <;> cases k2 <;> cases k3 <;> cases k4 <;> cases k5
+  · exact VS.lorentz_deltaRapidityPhi.k_xy_z_t_xy_z_t_eq a0 a1 a2 a3 a4 a5 a6 a7
+  · exact c08_lorentz_deltaRapidityPhi_k_xy_z_t_xy_z_tau a0 a1 a2 a3 a4 a5 a6 a7 hc7
+  · exact VS.lorentz_deltaRapidityPhi.k_xy_z_t_xy_theta_t_eq a0 a1 a2 a3 a4 a5 a6 a7
+  · exact c08_lorentz_deltaRapidityPhi_k_xy_z_t_xy_theta_tau a0 a1 a2 a3 a4 a5 a6 a7 hc7
+  · exact VS.lorentz_deltaRapidityPhi.k_xy_z_t_xy_eta_t_eq a0 a1 a2 a3 a4 a5 a6 a7
+  · exact c08_lorentz_deltaRapidityPhi_k_xy_z_t_xy_eta_tau a0 a1 a2 a3 a4 a5 a6 a7 hc7
+  · exact VS.lorentz_deltaRapidityPhi.k_xy_z_t_rhophi_z_t_eq a0 a1 a2 a3 a4 a5 a6 a7
+  · exact c08_lorentz_deltaRapidityPhi_k_xy_z_t_rhophi_z_tau a0 a1 a2 a3 a4 a5 a6 a7 hc7
+  · exact VS.lorentz_deltaRapidityPhi.k_xy_z_t_rhophi_theta_t_eq a0 a1 a2 a3 a4 a5 a6 a7
+  · exact c08_lorentz_deltaRapidityPhi_k_xy_z_t_rhophi_theta_tau a0 a1 a2 a3 a4 a5 a6 a7 hc7
+  · exact VS.lorentz_deltaRapidityPhi.k_xy_z_t_rhophi_eta_t_eq a0 a1 a2 a3 a4 a5 a6 a7
+  · exact c08_lorentz_deltaRapidityPhi_k_xy_z_t_rhophi_eta_tau a0 a1 a2 a3 a4 a5 a6 a7 hc7
+  · exact c08_lorentz_deltaRapidityPhi_k_xy_z_tau_xy_z_t a0 a1 a2 a3 a4 a5 a6 a7 hc3
+  · exact c08_lorentz_deltaRapidityPhi_k_xy_z_tau_xy_z_tau a0 a1 a2 a3 a4 a5 a6 a7 hc3 hc7
+  · exact c08_lorentz_deltaRapidityPhi_k_xy_z_tau_xy_theta_t a0 a1 a2 a3 a4 a5 a6 a7 hc3
+  · exact c08_lorentz_deltaRapidityPhi_k_xy_z_tau_xy_theta_tau a0 a1 a2 a3 a4 a5 a6 a7 hc3 hc7
+  · exact c08_lorentz_deltaRapidityPhi_k_xy_z_tau_xy_eta_t a0 a1 a2 a3 a4 a5 a6 a7 hc3
+  · exact c08_lorentz_deltaRapidityPhi_k_xy_z_tau_xy_eta_tau a0 a1 a2 a3 a4 a5 a6 a7 hc3 hc7
+  · exact c08_lorentz_deltaRapidityPhi_k_xy_z_tau_rhophi_z_t a0 a1 a2 a3 a4 a5 a6 a7 hc3
+  · exact c08_lorentz_deltaRapidityPhi_k_xy_z_tau_rhophi_z_tau a0 a1 a2 a3 a4 a5 a6 a7 hc3 hc7
+  · exact c08_lorentz_deltaRapidityPhi_k_xy_z_tau_rhophi_theta_t a0 a1 a2 a3 a4 a5 a6 a7 hc3
+  · exact c08_lorentz_deltaRapidityPhi_k_xy_z_tau_rhophi_theta_tau a0 a1 a2 a3 a4 a5 a6 a7 hc3 hc7
+  · exact c08_lorentz_deltaRapidityPhi_k_xy_z_tau_rhophi_eta_t a0 a1 a2 a3 a4 a5 a6 a7 hc3
+  · exact c08_lorentz_deltaRapidityPhi_k_xy_z_tau_rhophi_eta_tau a0 a1 a2 a3 a4 a5 a6 a7 hc3 hc7
+  · exact VS.lorentz_deltaRapidityPhi.k_xy_theta_t_xy_z_t_eq a0 a1 a2 a3 a4 a5 a6 a7
+  · exact c08_lorentz_deltaRapidityPhi_k_xy_theta_t_xy_z_tau a0 a1 a2 a3 a4 a5 a6 a7 hc7
+  · exact VS.lorentz_deltaRapidityPhi.k_xy_theta_t_xy_theta_t_eq a0 a1 a2 a3 a4 a5 a6 a7
+  · exact c08_lorentz_deltaRapidityPhi_k_xy_theta_t_xy_theta_tau a0 a1 a2 a3 a4 a5 a6 a7 hc7
+  · exact VS.lorentz_deltaRapidityPhi.k_xy_theta_t_xy_eta_t_eq a0 a1 a2 a3 a4 a5 a6 a7
+  · exact c08_lorentz_deltaRapidityPhi_k_xy_theta_t_xy_eta_tau a0 a1 a2 a3 a4 a5 a6 a7 hc7
+  · exact VS.lorentz_deltaRapidityPhi.k_xy_theta_t_rhophi_z_t_eq a0 a1 a2 a3 a4 a5 a6 a7
+  · exact c08_lorentz_deltaRapidityPhi_k_xy_theta_t_rhophi_z_tau a0 a1 a2 a3 a4 a5 a6 a7 hc7
+  · exact VS.lorentz_deltaRapidityPhi.k_xy_theta_t_rhophi_theta_t_eq a0 a1 a2 a3 a4 a5 a6 a7
+  · exact c08_lorentz_deltaRapidityPhi_k_xy_theta_t_rhophi_theta_tau a0 a1 a2 a3 a4 a5 a6 a7 hc7
+  · exact VS.lorentz_deltaRapidityPhi.k_xy_theta_t_rhophi_eta_t_eq a0 a1 a2 a3 a4 a5 a6 a7
+  · exact c08_lorentz_deltaRapidityPhi_k_xy_theta_t_rhophi_eta_tau a0 a1 a2 a3 a4 a5 a6 a7 hc7
+  · exact c08_lorentz_deltaRapidityPhi_k_xy_theta_tau_xy_z_t a0 a1 a2 a3 a4 a5 a6 a7 hc3
+  · exact c08_lorentz_deltaRapidityPhi_k_xy_theta_tau_xy_z_tau a0 a1 a2 a3 a4 a5 a6 a7 hc3 hc7
+  · exact c08_lorentz_deltaRapidityPhi_k_xy_theta_tau_xy_theta_t a0 a1 a2 a3 a4 a5 a6 a7 hc3
+  · exact c08_lorentz_deltaRapidityPhi_k_xy_theta_tau_xy_theta_tau a0 a1 a2 a3 a4 a5 a6 a7 hc3 hc7
+  · exact c08_lorentz_deltaRapidityPhi_k_xy_theta_tau_xy_eta_t a0 a1 a2 a3 a4 a5 a6 a7 hc3
+  · exact c08_lorentz_deltaRapidityPhi_k_xy_theta_tau_xy_eta_tau a0 a1 a2 a3 a4 a5 a6 a7 hc3 hc7
+  · exact c08_lorentz_deltaRapidityPhi_k_xy_theta_tau_rhophi_z_t a0 a1 a2 a3 a4 a5 a6 a7 hc3
+  · exact c08_lorentz_deltaRapidityPhi_k_xy_theta_tau_rhophi_z_tau a0 a1 a2 a3 a4 a5 a6 a7 hc3 hc7
+  · exact c08_lorentz_deltaRapidityPhi_k_xy_theta_tau_rhophi_theta_t a0 a1 a2 a3 a4 a5 a6 a7 hc3
+  · exact c08_lorentz_deltaRapidityPhi_k_xy_theta_tau_rhophi_theta_tau a0 a1 a2 a3 a4 a5 a6 a7 hc3 hc7
+  · exact c08_lorentz_deltaRapidityPhi_k_xy_theta_tau_rhophi_eta_t a0 a1 a2 a3 a4 a5 a6 a7 hc3
+  · exact c08_lorentz_deltaRapidityPhi_k_xy_theta_tau_rhophi_eta_tau a0 a1 a2 a3 a4 a5 a6 a7 hc3 hc7
+  · exact VS.lorentz_deltaRapidityPhi.k_xy_eta_t_xy_z_t_eq a0 a1 a2 a3 a4 a5 a6 a7
+  · exact c08_lorentz_deltaRapidityPhi_k_xy_eta_t_xy_z_tau a0 a1 a2 a3 a4 a5 a6 a7 hc7
+  · exact VS.lorentz_deltaRapidityPhi.k_xy_eta_t_xy_theta_t_eq a0 a1 a2 a3 a4 a5 a6 a7
+  · exact c08_lorentz_deltaRapidityPhi_k_xy_eta_t_xy_theta_tau a0 a1 a2 a3 a4 a5 a6 a7 hc7
+  · exact VS.lorentz_deltaRapidityPhi.k_xy_eta_t_xy_eta_t_eq a0 a1 a2 a3 a4 a5 a6 a7
+  · exact c08_lorentz_deltaRapidityPhi_k_xy_eta_t_xy_eta_tau a0 a1 a2 a3 a4 a5 a6 a7 hc7
+  · exact VS.lorentz_deltaRapidityPhi.k_xy_eta_t_rhophi_z_t_eq a0 a1 a2 a3 a4 a5 a6 a7
+  · exact c08_lorentz_deltaRapidityPhi_k_xy_eta_t_rhophi_z_tau a0 a1 a2 a3 a4 a5 a6 a7 hc7
+  · exact VS.lorentz_deltaRapidityPhi.k_xy_eta_t_rhophi_theta_t_eq a0 a1 a2 a3 a4 a5 a6 a7
+  · exact c08_lorentz_deltaRapidityPhi_k_xy_eta_t_rhophi_theta_tau a0 a1 a2 a3 a4 a5 a6 a7 hc7
+  · exact VS.lorentz_deltaRapidityPhi.k_xy_eta_t_rhophi_eta_t_eq a0 a1 a2 a3 a4 a5 a6 a7
+  · exact c08_lorentz_deltaRapidityPhi_k_xy_eta_t_rhophi_eta_tau a0 a1 a2 a3 a4 a5 a6 a7 hc7
+  · exact c08_lorentz_deltaRapidityPhi_k_xy_eta_tau_xy_z_t a0 a1 a2 a3 a4 a5 a6 a7 hc3
+  · exact c08_lorentz_deltaRapidityPhi_k_xy_eta_tau_xy_z_tau a0 a1 a2 a3 a4 a5 a6 a7 hc3 hc7
+  · exact c08_lorentz_deltaRapidityPhi_k_xy_eta_tau_xy_theta_t a0 a1 a2 a3 a4 a5 a6 a7 hc3
+  · exact c08_lorentz_deltaRapidityPhi_k_xy_eta_tau_xy_theta_tau a0 a1 a2 a3 a4 a5 a6 a7 hc3 hc7
+  · exact c08_lorentz_deltaRapidityPhi_k_xy_eta_tau_xy_eta_t a0 a1 a2 a3 a4 a5 a6 a7 hc3
+  · exact c08_lorentz_deltaRapidityPhi_k_xy_eta_tau_xy_eta_tau a0 a1 a2 a3 a4 a5 a6 a7 hc3 hc7
+  · exact c08_lorentz_deltaRapidityPhi_k_xy_eta_tau_rhophi_z_t a0 a1 a2 a3 a4 a5 a6 a7 hc3
+  · exact c08_lorentz_deltaRapidityPhi_k_xy_eta_tau_rhophi_z_tau a0 a1 a2 a3 a4 a5 a6 a7 hc3 hc7
+  · exact c08_lorentz_deltaRapidityPhi_k_xy_eta_tau_rhophi_theta_t a0 a1 a2 a3 a4 a5 a6 a7 hc3
+  · exact c08_lorentz_deltaRapidityPhi_k_xy_eta_tau_rhophi_theta_tau a0 a1 a2 a3 a4 a5 a6 a7 hc3 hc7
+  · exact c08_lorentz_deltaRapidityPhi_k_xy_eta_tau_rhophi_eta_t a0 a1 a2 a3 a4 a5 a6 a7 hc3
+  · exact c08_lorentz_deltaRapidityPhi_k_xy_eta_tau_rhophi_eta_tau a0 a1 a2 a3 a4 a5 a6 a7 hc3 hc7
+  · exact VS.lorentz_deltaRapidityPhi.k_rhophi_z_t_xy_z_t_eq a0 a1 a2 a3 a4 a5 a6 a7
+  · exact c08_lorentz_deltaRapidityPhi_k_rhophi_z_t_xy_z_tau a0 a1 a2 a3 a4 a5 a6 a7 hc7
+  · exact VS.lorentz_deltaRapidityPhi.k_rhophi_z_t_xy_theta_t_eq a0 a1 a2 a3 a4 a5 a6 a7
+  · exact c08_lorentz_deltaRapidityPhi_k_rhophi_z_t_xy_theta_tau a0 a1 a2 a3 a4 a5 a6 a7 hc7
+  · exact VS.lorentz_deltaRapidityPhi.k_rhophi_z_t_xy_eta_t_eq a0 a1 a2 a3 a4 a5 a6 a7
+  · exact c08_lorentz_deltaRapidityPhi_k_rhophi_z_t_xy_eta_tau a0 a1 a2 a3 a4 a5 a6 a7 hc7
+  · exact VS.lorentz_deltaRapidityPhi.k_rhophi_z_t_rhophi_z_t_eq a0 a1 a2 a3 a4 a5 a6 a7
+  · exact c08_lorentz_deltaRapidityPhi_k_rhophi_z_t_rhophi_z_tau a0 a1 a2 a3 a4 a5 a6 a7 hc7
+  · exact VS.lorentz_deltaRapidityPhi.k_rhophi_z_t_rhophi_theta_t_eq a0 a1 a2 a3 a4 a5 a6 a7
+  · exact c08_lorentz_deltaRapidityPhi_k_rhophi_z_t_rhophi_theta_tau a0 a1 a2 a3 a4 a5 a6 a7 hc7
+  · exact VS.lorentz_deltaRapidityPhi.k_rhophi_z_t_rhophi_eta_t_eq a0 a1 a2 a3 a4 a5 a6 a7
+  · exact c08_lorentz_deltaRapidityPhi_k_rhophi_z_t_rhophi_eta_tau a0 a1 a2 a3 a4 a5 a6 a7 hc7
+  · exact c08_lorentz_deltaRapidityPhi_k_rhophi_z_tau_xy_z_t a0 a1 a2 a3 a4 a5 a6 a7 hc3
+  · exact c08_lorentz_deltaRapidityPhi_k_rhophi_z_tau_xy_z_tau a0 a1 a2 a3 a4 a5 a6 a7 hc3 hc7
+  · exact c08_lorentz_deltaRapidityPhi_k_rhophi_z_tau_xy_theta_t a0 a1 a2 a3 a4 a5 a6 a7 hc3
+  · exact c08_lorentz_deltaRapidityPhi_k_rhophi_z_tau_xy_theta_tau a0 a1 a2 a3 a4 a5 a6 a7 hc3 hc7
+  · exact c08_lorentz_deltaRapidityPhi_k_rhophi_z_tau_xy_eta_t a0 a1 a2 a3 a4 a5 a6 a7 hc3
+  · exact c08_lorentz_deltaRapidityPhi_k_rhophi_z_tau_xy_eta_tau a0 a1 a2 a3 a4 a5 a6 a7 hc3 hc7
+  · exact c08_lorentz_deltaRapidityPhi_k_rhophi_z_tau_rhophi_z_t a0 a1 a2 a3 a4 a5 a6 a7 hc3
+  · exact c08_lorentz_deltaRapidityPhi_k_rhophi_z_tau_rhophi_z_tau a0 a1 a2 a3 a4 a5 a6 a7 hc3 hc7
+  · exact c08_lorentz_deltaRapidityPhi_k_rhophi_z_tau_rhophi_theta_t a0 a1 a2 a3 a4 a5 a6 a7 hc3
+  · exact c08_lorentz_deltaRapidityPhi_k_rhophi_z_tau_rhophi_theta_tau a0 a1 a2 a3 a4 a5 a6 a7 hc3 hc7
+  · exact c08_lorentz_deltaRapidityPhi_k_rhophi_z_tau_rhophi_eta_t a0 a1 a2 a3 a4 a5 a6 a7 hc3
+  · exact c08_lorentz_deltaRapidityPhi_k_rhophi_z_tau_rhophi_eta_tau a0 a1 a2 a3 a4 a5 a6 a7 hc3 hc7
+  · exact VS.lorentz_deltaRapidityPhi.k_rhophi_theta_t_xy_z_t_eq a0 a1 a2 a3 a4 a5 a6 a7
+  · exact c08_lorentz_deltaRapidityPhi_k_rhophi_theta_t_xy_z_tau a0 a1 a2 a3 a4 a5 a6 a7 hc7
+  · exact VS.lorentz_deltaRapidityPhi.k_rhophi_theta_t_xy_theta_t_eq a0 a1 a2 a3 a4 a5 a6 a7
+  · exact c08_lorentz_deltaRapidityPhi_k_rhophi_theta_t_xy_theta_tau a0 a1 a2 a3 a4 a5 a6 a7 hc7
+  · exact VS.lorentz_deltaRapidityPhi.k_rhophi_theta_t_xy_eta_t_eq a0 a1 a2 a3 a4 a5 a6 a7
+  · exact c08_lorentz_deltaRapidityPhi_k_rhophi_theta_t_xy_eta_tau a0 a1 a2 a3 a4 a5 a6 a7 hc7
+  · exact VS.lorentz_deltaRapidityPhi.k_rhophi_theta_t_rhophi_z_t_eq a0 a1 a2 a3 a4 a5 a6 a7
+  · exact c08_lorentz_deltaRapidityPhi_k_rhophi_theta_t_rhophi_z_tau a0 a1 a2 a3 a4 a5 a6 a7 hc7
+  · exact VS.lorentz_deltaRapidityPhi.k_rhophi_theta_t_rhophi_theta_t_eq a0 a1 a2 a3 a4 a5 a6 a7
+  · exact c08_lorentz_deltaRapidityPhi_k_rhophi_theta_t_rhophi_theta_tau a0 a1 a2 a3 a4 a5 a6 a7 hc7
+  · exact VS.lorentz_deltaRapidityPhi.k_rhophi_theta_t_rhophi_eta_t_eq a0 a1 a2 a3 a4 a5 a6 a7
+  · exact c08_lorentz_deltaRapidityPhi_k_rhophi_theta_t_rhophi_eta_tau a0 a1 a2 a3 a4 a5 a6 a7 hc7
+  · exact c08_lorentz_deltaRapidityPhi_k_rhophi_theta_tau_xy_z_t a0 a1 a2 a3 a4 a5 a6 a7 hc3
+  · exact c08_lorentz_deltaRapidityPhi_k_rhophi_theta_tau_xy_z_tau a0 a1 a2 a3 a4 a5 a6 a7 hc3 hc7
+  · exact c08_lorentz_deltaRapidityPhi_k_rhophi_theta_tau_xy_theta_t a0 a1 a2 a3 a4 a5 a6 a7 hc3
+  · exact c08_lorentz_deltaRapidityPhi_k_rhophi_theta_tau_xy_theta_tau a0 a1 a2 a3 a4 a5 a6 a7 hc3 hc7
+  · exact c08_lorentz_deltaRapidityPhi_k_rhophi_theta_tau_xy_eta_t a0 a1 a2 a3 a4 a5 a6 a7 hc3
+  · exact c08_lorentz_deltaRapidityPhi_k_rhophi_theta_tau_xy_eta_tau a0 a1 a2 a3 a4 a5 a6 a7 hc3 hc7
+  · exact c08_lorentz_deltaRapidityPhi_k_rhophi_theta_tau_rhophi_z_t a0 a1 a2 a3 a4 a5 a6 a7 hc3
+  · exact c08_lorentz_deltaRapidityPhi_k_rhophi_theta_tau_rhophi_z_tau a0 a1 a2 a3 a4 a5 a6 a7 hc3 hc7
+  · exact c08_lorentz_deltaRapidityPhi_k_rhophi_theta_tau_rhophi_theta_t a0 a1 a2 a3 a4 a5 a6 a7 hc3
+  · exact c08_lorentz_deltaRapidityPhi_k_rhophi_theta_tau_rhophi_theta_tau a0 a1 a2 a3 a4 a5 a6 a7 hc3 hc7
+  · exact c08_lorentz_deltaRapidityPhi_k_rhophi_theta_tau_rhophi_eta_t a0 a1 a2 a3 a4 a5 a6 a7 hc3
+  · exact c08_lorentz_deltaRapidityPhi_k_rhophi_theta_tau_rhophi_eta_tau a0 a1 a2 a3 a4 a5 a6 a7 hc3 hc7
+  · exact VS.lorentz_deltaRapidityPhi.k_rhophi_eta_t_xy_z_t_eq a0 a1 a2 a3 a4 a5 a6 a7
+  · exact c08_lorentz_deltaRapidityPhi_k_rhophi_eta_t_xy_z_tau a0 a1 a2 a3 a4 a5 a6 a7 hc7
+  · exact VS.lorentz_deltaRapidityPhi.k_rhophi_eta_t_xy_theta_t_eq a0 a1 a2 a3 a4 a5 a6 a7
+  · exact c08_lorentz_deltaRapidityPhi_k_rhophi_eta_t_xy_theta_tau a0 a1 a2 a3 a4 a5 a6 a7 hc7
+  · exact VS.lorentz_deltaRapidityPhi.k_rhophi_eta_t_xy_eta_t_eq a0 a1 a2 a3 a4 a5 a6 a7
+  · exact c08_lorentz_deltaRapidityPhi_k_rhophi_eta_t_xy_eta_tau a0 a1 a2 a3 a4 a5 a6 a7 hc7
+  · exact VS.lorentz_deltaRapidityPhi.k_rhophi_eta_t_rhophi_z_t_eq a0 a1 a2 a3 a4 a5 a6 a7
+  · exact c08_lorentz_deltaRapidityPhi_k_rhophi_eta_t_rhophi_z_tau a0 a1 a2 a3 a4 a5 a6 a7 hc7
+  · exact VS.lorentz_deltaRapidityPhi.k_rhophi_eta_t_rhophi_theta_t_eq a0 a1 a2 a3 a4 a5 a6 a7
+  · exact c08_lorentz_deltaRapidityPhi_k_rhophi_eta_t_rhophi_theta_tau a0 a1 a2 a3 a4 a5 a6 a7 hc7
+  · exact VS.lorentz_deltaRapidityPhi.k_rhophi_eta_t_rhophi_eta_t_eq a0 a1 a2 a3 a4 a5 a6 a7
+  · exact c08_lorentz_deltaRapidityPhi_k_rhophi_eta_t_rhophi_eta_tau a0 a1 a2 a3 a4 a5 a6 a7 hc7
+  · exact c08_lorentz_deltaRapidityPhi_k_rhophi_eta_tau_xy_z_t a0 a1 a2 a3 a4 a5 a6 a7 hc3
+  · exact c08_lorentz_deltaRapidityPhi_k_rhophi_eta_tau_xy_z_tau a0 a1 a2 a3 a4 a5 a6 a7 hc3 hc7
+  · exact c08_lorentz_deltaRapidityPhi_k_rhophi_eta_tau_xy_theta_t a0 a1 a2 a3 a4 a5 a6 a7 hc3
+  · exact c08_lorentz_deltaRapidityPhi_k_rhophi_eta_tau_xy_theta_tau a0 a1 a2 a3 a4 a5 a6 a7 hc3 hc7
+  · exact c08_lorentz_deltaRapidityPhi_k_rhophi_eta_tau_xy_eta_t a0 a1 a2 a3 a4 a5 a6 a7 hc3
+  · exact c08_lorentz_deltaRapidityPhi_k_rhophi_eta_tau_xy_eta_tau a0 a1 a2 a3 a4 a5 a6 a7 hc3 hc7
+  · exact c08_lorentz_deltaRapidityPhi_k_rhophi_eta_tau_rhophi_z_t a0 a1 a2 a3 a4 a5 a6 a7 hc3
+  · exact c08_lorentz_deltaRapidityPhi_k_rhophi_eta_tau_rhophi_z_tau a0 a1 a2 a3 a4 a5 a6 a7 hc3 hc7
+  · exact c08_lorentz_deltaRapidityPhi_k_rhophi_eta_tau_rhophi_theta_t a0 a1 a2 a3 a4 a5 a6 a7 hc3
+  · exact c08_lorentz_deltaRapidityPhi_k_rhophi_eta_tau_rhophi_theta_tau a0 a1 a2 a3 a4 a5 a6 a7 hc3 hc7
+  · exact c08_lorentz_deltaRapidityPhi_k_rhophi_eta_tau_rhophi_eta_t a0 a1 a2 a3 a4 a5 a6 a7 hc3
+  · exact c08_lorentz_deltaRapidityPhi_k_rhophi_eta_tau_rhophi_eta_tau a0 a1 a2 a3 a4 a5 a6 a7 hc3 hc7
+
+/-- the symbolic `isclose` is the symbolic `==`, whatever the tolerances (planar, all keys) -/
+theorem c08_planar_isclose_iff_equal (k0 k1 : Az) (rtol atol equal_nan a0 a1 a2 a3 : ℝ) :
+    VS.planar_isclose.eval k0 k1 rtol atol equal_nan a0 a1 a2 a3 ↔ VS.planar_equal.eval k0 k1 a0 a1 a2 a3 := by
+  cases k0 <;> cases k1 <;>
+  simp only [VS.planar_isclose.rhophi_rhophi, VS.planar_isclose.xy_xy, VS.planar_isclose.rhophi_xy, VS.planar_isclose.xy_rhophi, VS.planar_isclose.eval, VS.planar_equal.rhophi_rhophi, VS.planar_equal.xy_xy, VS.planar_equal.rhophi_xy, VS.planar_equal.xy_rhophi, VS.planar_equal.eval]
+
+/-- the symbolic `isclose` is the symbolic `==`, whatever the tolerances (spatial, all keys) -/
+theorem c08_spatial_isclose_iff_equal (k0 : Az) (k1 : Lon) (k2 : Az) (k3 : Lon) (rtol atol equal_nan a0 a1 a2 a3 a4 a5 : ℝ) :
+    VS.spatial_isclose.eval k0 k1 k2 k3 rtol atol equal_nan a0 a1 a2 a3 a4 a5 ↔ VS.spatial_equal.eval k0 k1 k2 k3 a0 a1 a2 a3 a4 a5 := by
+  cases k0 <;> cases k1 <;> cases k2 <;> cases k3 <;>
+  simp only [VS.spatial_isclose.rhophi_eta_rhophi_eta, VS.spatial_isclose.rhophi_eta_rhophi_theta, VS.spatial_isclose.rhophi_z_rhophi_z, VS.spatial_isclose.rhophi_eta_rhophi_z, VS.spatial_isclose.xy_eta_xy_eta, VS.spatial_isclose.rhophi_eta_xy_eta, VS.spatial_isclose.rhophi_eta_xy_theta, VS.spatial_isclose.xy_z_xy_z, VS.spatial_isclose.rhophi_eta_xy_z, VS.spatial_isclose.rhophi_theta_rhophi_eta, VS.spatial_isclose.rhophi_theta_rhophi_theta, VS.spatial_isclose.rhophi_theta_rhophi_z, VS.spatial_isclose.rhophi_theta_xy_eta, VS.spatial_isclose.xy_theta_xy_theta, VS.spatial_isclose.rhophi_theta_xy_theta, VS.spatial_isclose.rhophi_theta_xy_z, VS.spatial_isclose.rhophi_z_rhophi_eta, VS.spatial_isclose.rhophi_z_rhophi_theta, VS.spatial_isclose.rhophi_z_xy_eta, VS.spatial_isclose.rhophi_z_xy_theta, VS.spatial_isclose.rhophi_z_xy_z, VS.spatial_isclose.xy_eta_rhophi_eta, VS.spatial_isclose.xy_eta_rhophi_theta, VS.spatial_isclose.xy_eta_rhophi_z, VS.spatial_isclose.xy_eta_xy_theta, VS.spatial_isclose.xy_eta_xy_z, VS.spatial_isclose.xy_theta_rhophi_eta, VS.spatial_isclose.xy_theta_rhophi_theta, VS.spatial_isclose.xy_theta_rhophi_z, VS.spatial_isclose.xy_theta_xy_eta, VS.spatial_isclose.xy_theta_xy_z, VS.spatial_isclose.xy_z_rhophi_eta, VS.spatial_isclose.xy_z_rhophi_theta, VS.spatial_isclose.xy_z_rhophi_z, VS.spatial_isclose.xy_z_xy_eta, VS.spatial_isclose.xy_z_xy_theta, VS.spatial_isclose.eval, VS.spatial_equal.rhophi_eta_rhophi_eta, VS.spatial_equal.rhophi_eta_rhophi_theta, VS.spatial_equal.rhophi_z_rhophi_z, VS.spatial_equal.rhophi_eta_rhophi_z, VS.spatial_equal.xy_eta_xy_eta, VS.spatial_equal.rhophi_eta_xy_eta, VS.spatial_equal.rhophi_eta_xy_theta, VS.spatial_equal.xy_z_xy_z, VS.spatial_equal.rhophi_eta_xy_z, VS.spatial_equal.rhophi_theta_rhophi_eta, VS.spatial_equal.rhophi_theta_rhophi_theta, VS.spatial_equal.rhophi_theta_rhophi_z, VS.spatial_equal.rhophi_theta_xy_eta, VS.spatial_equal.xy_theta_xy_theta, VS.spatial_equal.rhophi_theta_xy_theta, VS.spatial_equal.rhophi_theta_xy_z, VS.spatial_equal.rhophi_z_rhophi_eta, VS.spatial_equal.rhophi_z_rhophi_theta, VS.spatial_equal.rhophi_z_xy_eta, VS.spatial_equal.rhophi_z_xy_theta, VS.spatial_equal.rhophi_z_xy_z, VS.spatial_equal.xy_eta_rhophi_eta, VS.spatial_equal.xy_eta_rhophi_theta, VS.spatial_equal.xy_eta_rhophi_z, VS.spatial_equal.xy_eta_xy_theta, VS.spatial_equal.xy_eta_xy_z, VS.spatial_equal.xy_theta_rhophi_eta, VS.spatial_equal.xy_theta_rhophi_theta, VS.spatial_equal.xy_theta_rhophi_z, VS.spatial_equal.xy_theta_xy_eta, VS.spatial_equal.xy_theta_xy_z, VS.spatial_equal.xy_z_rhophi_eta, VS.spatial_equal.xy_z_rhophi_theta, VS.spatial_equal.xy_z_rhophi_z, VS.spatial_equal.xy_z_xy_eta, VS.spatial_equal.xy_z_xy_theta, VS.spatial_equal.eval]
+
+/-- the symbolic `isclose` is the symbolic `==`, whatever the tolerances (lorentz, all keys) -/
+theorem c08_lorentz_isclose_iff_equal (k0 : Az) (k1 : Lon) (k2 : Tmp) (k3 : Az) (k4 : Lon) (k5 : Tmp) (rtol atol equal_nan a0 a1 a2 a3 a4 a5 a6 a7 : ℝ) :
+    VS.lorentz_isclose.eval k0 k1 k2 k3 k4 k5 rtol atol equal_nan a0 a1 a2 a3 a4 a5 a6 a7 ↔ VS.lorentz_equal.eval k0 k1 k2 k3 k4 k5 a0 a1 a2 a3 a4 a5 a6 a7 := by
+  cases k0 <;> cases k1 <;> cases k2 <;> cases k3 <;> cases k4 <;> cases k5 <;>
+  simp only [VS.lorentz_isclose.k_rhophi_eta_t_rhophi_eta_t, VS.lorentz_isclose.k_rhophi_eta_t_rhophi_eta_tau, VS.lorentz_isclose.k_rhophi_eta_t_rhophi_theta_t, VS.lorentz_isclose.k_rhophi_eta_t_rhophi_theta_tau, VS.lorentz_isclose.k_rhophi_eta_t_rhophi_z_t, VS.lorentz_isclose.k_rhophi_eta_t_rhophi_z_tau, VS.lorentz_isclose.k_rhophi_eta_t_xy_eta_t, VS.lorentz_isclose.k_rhophi_eta_t_xy_eta_tau, VS.lorentz_isclose.k_rhophi_eta_t_xy_theta_t, VS.lorentz_isclose.k_rhophi_eta_t_xy_theta_tau, VS.lorentz_isclose.k_rhophi_eta_t_xy_z_t, VS.lorentz_isclose.k_rhophi_eta_t_xy_z_tau, VS.lorentz_isclose.k_rhophi_eta_tau_rhophi_eta_t, VS.lorentz_isclose.k_rhophi_eta_tau_rhophi_eta_tau, VS.lorentz_isclose.k_rhophi_eta_tau_rhophi_theta_t, VS.lorentz_isclose.k_rhophi_eta_tau_rhophi_theta_tau, VS.lorentz_isclose.k_rhophi_eta_tau_rhophi_z_t, VS.lorentz_isclose.k_rhophi_eta_tau_rhophi_z_tau, VS.lorentz_isclose.k_rhophi_eta_tau_xy_eta_t, VS.lorentz_isclose.k_rhophi_eta_tau_xy_eta_tau, VS.lorentz_isclose.k_rhophi_eta_tau_xy_theta_t, VS.lorentz_isclose.k_rhophi_eta_tau_xy_theta_tau, VS.lorentz_isclose.k_rhophi_eta_tau_xy_z_t, VS.lorentz_isclose.k_rhophi_eta_tau_xy_z_tau, VS.lorentz_isclose.k_rhophi_theta_t_rhophi_eta_t, VS.lorentz_isclose.k_rhophi_theta_t_rhophi_eta_tau, VS.lorentz_isclose.k_rhophi_theta_t_rhophi_theta_t, VS.lorentz_isclose.k_rhophi_theta_t_rhophi_theta_tau, VS.lorentz_isclose.k_rhophi_theta_t_rhophi_z_t, VS.lorentz_isclose.k_rhophi_theta_t_rhophi_z_tau, VS.lorentz_isclose.k_rhophi_theta_t_xy_eta_t, VS.lorentz_isclose.k_rhophi_theta_t_xy_eta_tau, VS.lorentz_isclose.k_rhophi_theta_t_xy_theta_t, VS.lorentz_isclose.k_rhophi_theta_t_xy_theta_tau, VS.lorentz_isclose.k_rhophi_theta_t_xy_z_t, VS.lorentz_isclose.k_rhophi_theta_t_xy_z_tau, VS.lorentz_isclose.k_rhophi_theta_tau_rhophi_eta_t, VS.lorentz_isclose.k_rhophi_theta_tau_rhophi_eta_tau, VS.lorentz_isclose.k_rhophi_theta_tau_rhophi_theta_t, VS.lorentz_isclose.k_rhophi_theta_tau_rhophi_theta_tau, VS.lorentz_isclose.k_rhophi_theta_tau_rhophi_z_t, VS.lorentz_isclose.k_rhophi_theta_tau_rhophi_z_tau, VS.lorentz_isclose.k_rhophi_theta_tau_xy_eta_t, VS.lorentz_isclose.k_rhophi_theta_tau_xy_eta_tau, VS.lorentz_isclose.k_rhophi_theta_tau_xy_theta_t, VS.lorentz_isclose.k_rhophi_theta_tau_xy_theta_tau, VS.lorentz_isclose.k_rhophi_theta_tau_xy_z_t, VS.lorentz_isclose.k_rhophi_theta_tau_xy_z_tau, VS.lorentz_isclose.k_rhophi_z_t_rhophi_eta_t, VS.lorentz_isclose.k_rhophi_z_t_rhophi_eta_tau, VS.lorentz_isclose.k_rhophi_z_t_rhophi_theta_t, VS.lorentz_isclose.k_rhophi_z_t_rhophi_theta_tau, VS.lorentz_isclose.k_rhophi_z_t_rhophi_z_t, VS.lorentz_isclose.k_rhophi_z_t_rhophi_z_tau, VS.lorentz_isclose.k_rhophi_z_t_xy_eta_t, VS.lorentz_isclose.k_rhophi_z_t_xy_eta_tau, VS.lorentz_isclose.k_rhophi_z_t_xy_theta_t, VS.lorentz_isclose.k_rhophi_z_t_xy_theta_tau, VS.lorentz_isclose.k_rhophi_z_t_xy_z_t, VS.lorentz_isclose.k_rhophi_z_t_xy_z_tau, VS.lorentz_isclose.k_rhophi_z_tau_rhophi_eta_t, VS.lorentz_isclose.k_rhophi_z_tau_rhophi_eta_tau, VS.lorentz_isclose.k_rhophi_z_tau_rhophi_theta_t, VS.lorentz_isclose.k_rhophi_z_tau_rhophi_theta_tau, VS.lorentz_isclose.k_rhophi_z_tau_rhophi_z_t, VS.lorentz_isclose.k_rhophi_z_tau_rhophi_z_tau, VS.lorentz_isclose.k_rhophi_z_tau_xy_eta_t, VS.lorentz_isclose.k_rhophi_z_tau_xy_eta_tau, VS.lorentz_isclose.k_rhophi_z_tau_xy_theta_t, VS.lorentz_isclose.k_rhophi_z_tau_xy_theta_tau, VS.lorentz_isclose.k_rhophi_z_tau_xy_z_t, VS.lorentz_isclose.k_rhophi_z_tau_xy_z_tau, VS.lorentz_isclose.k_xy_eta_t_rhophi_eta_t, VS.lorentz_isclose.k_xy_eta_t_rhophi_eta_tau, VS.lorentz_isclose.k_xy_eta_t_rhophi_theta_t, VS.lorentz_isclose.k_xy_eta_t_rhophi_theta_tau, VS.lorentz_isclose.k_xy_eta_t_rhophi_z_t, VS.lorentz_isclose.k_xy_eta_t_rhophi_z_tau, VS.lorentz_isclose.k_xy_eta_t_xy_eta_t, VS.lorentz_isclose.k_xy_eta_t_xy_eta_tau, VS.lorentz_isclose.k_xy_eta_t_xy_theta_t, VS.lorentz_isclose.k_xy_eta_t_xy_theta_tau, VS.lorentz_isclose.k_xy_eta_t_xy_z_t, VS.lorentz_isclose.k_xy_eta_t_xy_z_tau, VS.lorentz_isclose.k_xy_eta_tau_rhophi_eta_t, VS.lorentz_isclose.k_xy_eta_tau_rhophi_eta_tau, VS.lorentz_isclose.k_xy_eta_tau_rhophi_theta_t, VS.lorentz_isclose.k_xy_eta_tau_rhophi_theta_tau, VS.lorentz_isclose.k_xy_eta_tau_rhophi_z_t, VS.lorentz_isclose.k_xy_eta_tau_rhophi_z_tau, VS.lorentz_isclose.k_xy_eta_tau_xy_eta_t, VS.lorentz_isclose.k_xy_eta_tau_xy_eta_tau, VS.lorentz_isclose.k_xy_eta_tau_xy_theta_t, VS.lorentz_isclose.k_xy_eta_tau_xy_theta_tau, VS.lorentz_isclose.k_xy_eta_tau_xy_z_t, VS.lorentz_isclose.k_xy_eta_tau_xy_z_tau, VS.lorentz_isclose.k_xy_theta_t_rhophi_eta_t, VS.lorentz_isclose.k_xy_theta_t_rhophi_eta_tau, VS.lorentz_isclose.k_xy_theta_t_rhophi_theta_t, VS.lorentz_isclose.k_xy_theta_t_rhophi_theta_tau, VS.lorentz_isclose.k_xy_theta_t_rhophi_z_t, VS.lorentz_isclose.k_xy_theta_t_rhophi_z_tau, VS.lorentz_isclose.k_xy_theta_t_xy_eta_t, VS.lorentz_isclose.k_xy_theta_t_xy_eta_tau, VS.lorentz_isclose.k_xy_theta_t_xy_theta_t, VS.lorentz_isclose.k_xy_theta_t_xy_theta_tau, VS.lorentz_isclose.k_xy_theta_t_xy_z_t, VS.lorentz_isclose.k_xy_theta_t_xy_z_tau, VS.lorentz_isclose.k_xy_theta_tau_rhophi_eta_t, VS.lorentz_isclose.k_xy_theta_tau_rhophi_eta_tau, VS.lorentz_isclose.k_xy_theta_tau_rhophi_theta_t, VS.lorentz_isclose.k_xy_theta_tau_rhophi_theta_tau, VS.lorentz_isclose.k_xy_theta_tau_rhophi_z_t, VS.lorentz_isclose.k_xy_theta_tau_rhophi_z_tau, VS.lorentz_isclose.k_xy_theta_tau_xy_eta_t, VS.lorentz_isclose.k_xy_theta_tau_xy_eta_tau, VS.lorentz_isclose.k_xy_theta_tau_xy_theta_t, VS.lorentz_isclose.k_xy_theta_tau_xy_theta_tau, VS.lorentz_isclose.k_xy_theta_tau_xy_z_t, VS.lorentz_isclose.k_xy_theta_tau_xy_z_tau, VS.lorentz_isclose.k_xy_z_t_rhophi_eta_t, VS.lorentz_isclose.k_xy_z_t_rhophi_eta_tau, VS.lorentz_isclose.k_xy_z_t_rhophi_theta_t, VS.lorentz_isclose.k_xy_z_t_rhophi_theta_tau, VS.lorentz_isclose.k_xy_z_t_rhophi_z_t, VS.lorentz_isclose.k_xy_z_t_rhophi_z_tau, VS.lorentz_isclose.k_xy_z_t_xy_eta_t, VS.lorentz_isclose.k_xy_z_t_xy_eta_tau, VS.lorentz_isclose.k_xy_z_t_xy_theta_t, VS.lorentz_isclose.k_xy_z_t_xy_theta_tau, VS.lorentz_isclose.k_xy_z_t_xy_z_t, VS.lorentz_isclose.k_xy_z_t_xy_z_tau, VS.lorentz_isclose.k_xy_z_tau_rhophi_eta_t, VS.lorentz_isclose.k_xy_z_tau_rhophi_eta_tau, VS.lorentz_isclose.k_xy_z_tau_rhophi_theta_t, VS.lorentz_isclose.k_xy_z_tau_rhophi_theta_tau, VS.lorentz_isclose.k_xy_z_tau_rhophi_z_t, VS.lorentz_isclose.k_xy_z_tau_rhophi_z_tau, VS.lorentz_isclose.k_xy_z_tau_xy_eta_t, VS.lorentz_isclose.k_xy_z_tau_xy_eta_tau, VS.lorentz_isclose.k_xy_z_tau_xy_theta_t, VS.lorentz_isclose.k_xy_z_tau_xy_theta_tau, VS.lorentz_isclose.k_xy_z_tau_xy_z_t, VS.lorentz_isclose.k_xy_z_tau_xy_z_tau, VS.lorentz_isclose.eval, VS.lorentz_equal.k_rhophi_eta_t_rhophi_eta_t, VS.lorentz_equal.k_rhophi_eta_t_rhophi_eta_tau, VS.lorentz_equal.k_rhophi_eta_t_rhophi_theta_t, VS.lorentz_equal.k_rhophi_eta_t_rhophi_theta_tau, VS.lorentz_equal.k_rhophi_eta_t_rhophi_z_t, VS.lorentz_equal.k_rhophi_eta_t_rhophi_z_tau, VS.lorentz_equal.k_rhophi_eta_t_xy_eta_t, VS.lorentz_equal.k_rhophi_eta_t_xy_eta_tau, VS.lorentz_equal.k_rhophi_eta_t_xy_theta_t, VS.lorentz_equal.k_rhophi_eta_t_xy_theta_tau, VS.lorentz_equal.k_rhophi_eta_t_xy_z_t, VS.lorentz_equal.k_rhophi_eta_t_xy_z_tau, VS.lorentz_equal.k_rhophi_eta_tau_rhophi_eta_t, VS.lorentz_equal.k_rhophi_eta_tau_rhophi_eta_tau, VS.lorentz_equal.k_rhophi_eta_tau_rhophi_theta_t, VS.lorentz_equal.k_rhophi_eta_tau_rhophi_theta_tau, VS.lorentz_equal.k_rhophi_eta_tau_rhophi_z_t, VS.lorentz_equal.k_rhophi_eta_tau_rhophi_z_tau, VS.lorentz_equal.k_rhophi_eta_tau_xy_eta_t, VS.lorentz_equal.k_rhophi_eta_tau_xy_eta_tau, VS.lorentz_equal.k_rhophi_eta_tau_xy_theta_t, VS.lorentz_equal.k_rhophi_eta_tau_xy_theta_tau, VS.lorentz_equal.k_rhophi_eta_tau_xy_z_t, VS.lorentz_equal.k_rhophi_eta_tau_xy_z_tau, VS.lorentz_equal.k_rhophi_theta_t_rhophi_eta_t, VS.lorentz_equal.k_rhophi_theta_t_rhophi_eta_tau, VS.lorentz_equal.k_rhophi_theta_t_rhophi_theta_t, VS.lorentz_equal.k_rhophi_theta_t_rhophi_theta_tau, VS.lorentz_equal.k_rhophi_theta_t_rhophi_z_t, VS.lorentz_equal.k_rhophi_theta_t_rhophi_z_tau, VS.lorentz_equal.k_rhophi_theta_t_xy_eta_t, VS.lorentz_equal.k_rhophi_theta_t_xy_eta_tau, VS.lorentz_equal.k_rhophi_theta_t_xy_theta_t, VS.lorentz_equal.k_rhophi_theta_t_xy_theta_tau, VS.lorentz_equal.k_rhophi_theta_t_xy_z_t, VS.lorentz_equal.k_rhophi_theta_t_xy_z_tau, VS.lorentz_equal.k_rhophi_theta_tau_rhophi_eta_t, VS.lorentz_equal.k_rhophi_theta_tau_rhophi_eta_tau, VS.lorentz_equal.k_rhophi_theta_tau_rhophi_theta_t, VS.lorentz_equal.k_rhophi_theta_tau_rhophi_theta_tau, VS.lorentz_equal.k_rhophi_theta_tau_rhophi_z_t, VS.lorentz_equal.k_rhophi_theta_tau_rhophi_z_tau, VS.lorentz_equal.k_rhophi_theta_tau_xy_eta_t, VS.lorentz_equal.k_rhophi_theta_tau_xy_eta_tau, VS.lorentz_equal.k_rhophi_theta_tau_xy_theta_t, VS.lorentz_equal.k_rhophi_theta_tau_xy_theta_tau, VS.lorentz_equal.k_rhophi_theta_tau_xy_z_t, VS.lorentz_equal.k_rhophi_theta_tau_xy_z_tau, VS.lorentz_equal.k_rhophi_z_t_rhophi_eta_t, VS.lorentz_equal.k_rhophi_z_t_rhophi_eta_tau, VS.lorentz_equal.k_rhophi_z_t_rhophi_theta_t, VS.lorentz_equal.k_rhophi_z_t_rhophi_theta_tau, VS.lorentz_equal.k_rhophi_z_t_rhophi_z_t, VS.lorentz_equal.k_rhophi_z_t_rhophi_z_tau, VS.lorentz_equal.k_rhophi_z_t_xy_eta_t, VS.lorentz_equal.k_rhophi_z_t_xy_eta_tau, VS.lorentz_equal.k_rhophi_z_t_xy_theta_t, VS.lorentz_equal.k_rhophi_z_t_xy_theta_tau, VS.lorentz_equal.k_rhophi_z_t_xy_z_t, VS.lorentz_equal.k_rhophi_z_t_xy_z_tau, VS.lorentz_equal.k_rhophi_z_tau_rhophi_eta_t, VS.lorentz_equal.k_rhophi_z_tau_rhophi_eta_tau, VS.lorentz_equal.k_rhophi_z_tau_rhophi_theta_t, VS.lorentz_equal.k_rhophi_z_tau_rhophi_theta_tau, VS.lorentz_equal.k_rhophi_z_tau_rhophi_z_t, VS.lorentz_equal.k_rhophi_z_tau_rhophi_z_tau, VS.lorentz_equal.k_rhophi_z_tau_xy_eta_t, VS.lorentz_equal.k_rhophi_z_tau_xy_eta_tau, VS.lorentz_equal.k_rhophi_z_tau_xy_theta_t, VS.lorentz_equal.k_rhophi_z_tau_xy_theta_tau, VS.lorentz_equal.k_rhophi_z_tau_xy_z_t, VS.lorentz_equal.k_rhophi_z_tau_xy_z_tau, VS.lorentz_equal.k_xy_eta_t_rhophi_eta_t, VS.lorentz_equal.k_xy_eta_t_rhophi_eta_tau, VS.lorentz_equal.k_xy_eta_t_rhophi_theta_t, VS.lorentz_equal.k_xy_eta_t_rhophi_theta_tau, VS.lorentz_equal.k_xy_eta_t_rhophi_z_t, VS.lorentz_equal.k_xy_eta_t_rhophi_z_tau, VS.lorentz_equal.k_xy_eta_t_xy_eta_t, VS.lorentz_equal.k_xy_eta_t_xy_eta_tau, VS.lorentz_equal.k_xy_eta_t_xy_theta_t, VS.lorentz_equal.k_xy_eta_t_xy_theta_tau, VS.lorentz_equal.k_xy_eta_t_xy_z_t, VS.lorentz_equal.k_xy_eta_t_xy_z_tau, VS.lorentz_equal.k_xy_eta_tau_rhophi_eta_t, VS.lorentz_equal.k_xy_eta_tau_rhophi_eta_tau, VS.lorentz_equal.k_xy_eta_tau_rhophi_theta_t, VS.lorentz_equal.k_xy_eta_tau_rhophi_theta_tau, VS.lorentz_equal.k_xy_eta_tau_rhophi_z_t, VS.lorentz_equal.k_xy_eta_tau_rhophi_z_tau, VS.lorentz_equal.k_xy_eta_tau_xy_eta_t, VS.lorentz_equal.k_xy_eta_tau_xy_eta_tau, VS.lorentz_equal.k_xy_eta_tau_xy_theta_t, VS.lorentz_equal.k_xy_eta_tau_xy_theta_tau, VS.lorentz_equal.k_xy_eta_tau_xy_z_t, VS.lorentz_equal.k_xy_eta_tau_xy_z_tau, VS.lorentz_equal.k_xy_theta_t_rhophi_eta_t, VS.lorentz_equal.k_xy_theta_t_rhophi_eta_tau, VS.lorentz_equal.k_xy_theta_t_rhophi_theta_t, VS.lorentz_equal.k_xy_theta_t_rhophi_theta_tau, VS.lorentz_equal.k_xy_theta_t_rhophi_z_t, VS.lorentz_equal.k_xy_theta_t_rhophi_z_tau, VS.lorentz_equal.k_xy_theta_t_xy_eta_t, VS.lorentz_equal.k_xy_theta_t_xy_eta_tau, VS.lorentz_equal.k_xy_theta_t_xy_theta_t, VS.lorentz_equal.k_xy_theta_t_xy_theta_tau, VS.lorentz_equal.k_xy_theta_t_xy_z_t, VS.lorentz_equal.k_xy_theta_t_xy_z_tau, VS.lorentz_equal.k_xy_theta_tau_rhophi_eta_t, VS.lorentz_equal.k_xy_theta_tau_rhophi_eta_tau, VS.lorentz_equal.k_xy_theta_tau_rhophi_theta_t, VS.lorentz_equal.k_xy_theta_tau_rhophi_theta_tau, VS.lorentz_equal.k_xy_theta_tau_rhophi_z_t, VS.lorentz_equal.k_xy_theta_tau_rhophi_z_tau, VS.lorentz_equal.k_xy_theta_tau_xy_eta_t, VS.lorentz_equal.k_xy_theta_tau_xy_eta_tau, VS.lorentz_equal.k_xy_theta_tau_xy_theta_t, VS.lorentz_equal.k_xy_theta_tau_xy_theta_tau, VS.lorentz_equal.k_xy_theta_tau_xy_z_t, VS.lorentz_equal.k_xy_theta_tau_xy_z_tau, VS.lorentz_equal.k_xy_z_t_rhophi_eta_t, VS.lorentz_equal.k_xy_z_t_rhophi_eta_tau, VS.lorentz_equal.k_xy_z_t_rhophi_theta_t, VS.lorentz_equal.k_xy_z_t_rhophi_theta_tau, VS.lorentz_equal.k_xy_z_t_rhophi_z_t, VS.lorentz_equal.k_xy_z_t_rhophi_z_tau, VS.lorentz_equal.k_xy_z_t_xy_eta_t, VS.lorentz_equal.k_xy_z_t_xy_eta_tau, VS.lorentz_equal.k_xy_z_t_xy_theta_t, VS.lorentz_equal.k_xy_z_t_xy_theta_tau, VS.lorentz_equal.k_xy_z_t_xy_z_t, VS.lorentz_equal.k_xy_z_t_xy_z_tau, VS.lorentz_equal.k_xy_z_tau_rhophi_eta_t, VS.lorentz_equal.k_xy_z_tau_rhophi_eta_tau, VS.lorentz_equal.k_xy_z_tau_rhophi_theta_t, VS.lorentz_equal.k_xy_z_tau_rhophi_theta_tau, VS.lorentz_equal.k_xy_z_tau_rhophi_z_t, VS.lorentz_equal.k_xy_z_tau_rhophi_z_tau, VS.lorentz_equal.k_xy_z_tau_xy_eta_t, VS.lorentz_equal.k_xy_z_tau_xy_eta_tau, VS.lorentz_equal.k_xy_z_tau_xy_theta_t, VS.lorentz_equal.k_xy_z_tau_xy_theta_tau, VS.lorentz_equal.k_xy_z_tau_xy_z_t, VS.lorentz_equal.k_xy_z_tau_xy_z_tau, VS.lorentz_equal.eval, VS.spatial_isclose.rhophi_eta_rhophi_eta, VS.spatial_isclose.rhophi_eta_rhophi_theta, VS.spatial_isclose.rhophi_z_rhophi_z, VS.spatial_isclose.rhophi_eta_rhophi_z, VS.spatial_isclose.xy_eta_xy_eta, VS.spatial_isclose.rhophi_eta_xy_eta, VS.spatial_isclose.rhophi_eta_xy_theta, VS.spatial_isclose.xy_z_xy_z, VS.spatial_isclose.rhophi_eta_xy_z, VS.spatial_isclose.rhophi_theta_rhophi_eta, VS.spatial_isclose.rhophi_theta_rhophi_theta, VS.spatial_isclose.rhophi_theta_rhophi_z, VS.spatial_isclose.rhophi_theta_xy_eta, VS.spatial_isclose.xy_theta_xy_theta, VS.spatial_isclose.rhophi_theta_xy_theta, VS.spatial_isclose.rhophi_theta_xy_z, VS.spatial_isclose.rhophi_z_rhophi_eta, VS.spatial_isclose.rhophi_z_rhophi_theta, VS.spatial_isclose.rhophi_z_xy_eta, VS.spatial_isclose.rhophi_z_xy_theta, VS.spatial_isclose.rhophi_z_xy_z, VS.spatial_isclose.xy_eta_rhophi_eta, VS.spatial_isclose.xy_eta_rhophi_theta, VS.spatial_isclose.xy_eta_rhophi_z, VS.spatial_isclose.xy_eta_xy_theta, VS.spatial_isclose.xy_eta_xy_z, VS.spatial_isclose.xy_theta_rhophi_eta, VS.spatial_isclose.xy_theta_rhophi_theta, VS.spatial_isclose.xy_theta_rhophi_z, VS.spatial_isclose.xy_theta_xy_eta, VS.spatial_isclose.xy_theta_xy_z, VS.spatial_isclose.xy_z_rhophi_eta, VS.spatial_isclose.xy_z_rhophi_theta, VS.spatial_isclose.xy_z_rhophi_z, VS.spatial_isclose.xy_z_xy_eta, VS.spatial_isclose.xy_z_xy_theta, VS.spatial_isclose.eval, VS.spatial_equal.rhophi_eta_rhophi_eta, VS.spatial_equal.rhophi_eta_rhophi_theta, VS.spatial_equal.rhophi_z_rhophi_z, VS.spatial_equal.rhophi_eta_rhophi_z, VS.spatial_equal.xy_eta_xy_eta, VS.spatial_equal.rhophi_eta_xy_eta, VS.spatial_equal.rhophi_eta_xy_theta, VS.spatial_equal.xy_z_xy_z, VS.spatial_equal.rhophi_eta_xy_z, VS.spatial_equal.rhophi_theta_rhophi_eta, VS.spatial_equal.rhophi_theta_rhophi_theta, VS.spatial_equal.rhophi_theta_rhophi_z, VS.spatial_equal.rhophi_theta_xy_eta, VS.spatial_equal.xy_theta_xy_theta, VS.spatial_equal.rhophi_theta_xy_theta, VS.spatial_equal.rhophi_theta_xy_z, VS.spatial_equal.rhophi_z_rhophi_eta, VS.spatial_equal.rhophi_z_rhophi_theta, VS.spatial_equal.rhophi_z_xy_eta, VS.spatial_equal.rhophi_z_xy_theta, VS.spatial_equal.rhophi_z_xy_z, VS.spatial_equal.xy_eta_rhophi_eta, VS.spatial_equal.xy_eta_rhophi_theta, VS.spatial_equal.xy_eta_rhophi_z, VS.spatial_equal.xy_eta_xy_theta, VS.spatial_equal.xy_eta_xy_z, VS.spatial_equal.xy_theta_rhophi_eta, VS.spatial_equal.xy_theta_rhophi_theta, VS.spatial_equal.xy_theta_rhophi_z, VS.spatial_equal.xy_theta_xy_eta, VS.spatial_equal.xy_theta_xy_z, VS.spatial_equal.xy_z_rhophi_eta, VS.spatial_equal.xy_z_rhophi_theta, VS.spatial_equal.xy_z_rhophi_z, VS.spatial_equal.xy_z_xy_eta, VS.spatial_equal.xy_z_xy_theta, VS.spatial_equal.eval]
+
+/-! ## `isclose`: a DOCUMENTED difference
+
+The symbolic backend evaluates `isclose(a, b, rtol, atol, equal_nan)` as the exact equality `a = b`; it cannot agree with the numeric
+`|a - b| ≤ atol + rtol·|b|`.  What holds instead: symbolic `isclose` is symbolic `==` (theorems `c08_*_isclose_iff_equal` above, all keys), hence
+the numeric `==` on the regular domain. -/
+
+theorem c08_planar_isclose_iff_numeric_equal (k0 k1 : Az) (rtol atol equal_nan a0 a1 a2 a3 : ℝ) :
+    VS.planar_isclose.eval k0 k1 rtol atol equal_nan a0 a1 a2 a3 ↔ VR.planar_equal.eval k0 k1 a0 a1 a2 a3 := by
+  rw [c08_planar_isclose_iff_equal, VS.planar_equal.eval_eq]
+
+theorem c08_spatial_isclose_iff_numeric_equal (k0 : Az) (k1 : Lon) (k2 : Az) (k3 : Lon) (rtol atol equal_nan a0 a1 a2 a3 a4 a5 : ℝ) :
+    VS.spatial_isclose.eval k0 k1 k2 k3 rtol atol equal_nan a0 a1 a2 a3 a4 a5 ↔ VR.spatial_equal.eval k0 k1 k2 k3 a0 a1 a2 a3 a4 a5 := by
+  rw [c08_spatial_isclose_iff_equal, VS.spatial_equal.eval_eq]
+
+theorem c08_lorentz_isclose_iff_numeric_equal (k0 : Az) (k1 : Lon) (k2 : Tmp) (k3 : Az) (k4 : Lon) (k5 : Tmp)
+    (rtol atol equal_nan a0 a1 a2 a3 a4 a5 a6 a7 : ℝ) (hc3 : CanonTmp k2 a3) (hc7 : CanonTmp k5 a7) :
+    VS.lorentz_isclose.eval k0 k1 k2 k3 k4 k5 rtol atol equal_nan a0 a1 a2 a3 a4 a5 a6 a7 ↔
+      VR.lorentz_equal.eval k0 k1 k2 k3 k4 k5 a0 a1 a2 a3 a4 a5 a6 a7 := by
+  rw [c08_lorentz_isclose_iff_equal]; exact c08_lorentz_equal k0 k1 k2 k3 k4 k5 a0 a1 a2 a3 a4 a5 a6 a7 hc3 hc7
+
+/-- the documented difference is real: with `atol = 1` the numeric backend calls `(0,0)` and `(1/2,0)` close, the symbolic one does not. -/
+example : VR.planar_isclose.xy_xy 0 1 0 0 0 (1/2) 0 ∧ ¬ VS.planar_isclose.xy_xy 0 1 0 0 0 (1/2) 0 := by
+  simp only [VR.planar_isclose.xy_xy, VS.planar_isclose.xy_xy, VR.P.isclose]
+  norm_num
+
+/-! ## the clamp hypothesis of `deltaangle` is derivable: Cauchy–Schwarz for the Cartesian key -/
+
+private theorem c08_cos_bounds (x1 y1 z1 x2 y2 z2 : ℝ) (h1 : 0 < x1 ^ 2 + y1 ^ 2 + z1 ^ 2) (h2 : 0 < x2 ^ 2 + y2 ^ 2 + z2 ^ 2) :
+    -1 ≤ (x1 * x2 + y1 * y2 + z1 * z2) / Real.sqrt (x1 ^ 2 + y1 ^ 2 + z1 ^ 2) / Real.sqrt (x2 ^ 2 + y2 ^ 2 + z2 ^ 2) ∧
+    (x1 * x2 + y1 * y2 + z1 * z2) / Real.sqrt (x1 ^ 2 + y1 ^ 2 + z1 ^ 2) / Real.sqrt (x2 ^ 2 + y2 ^ 2 + z2 ^ 2) ≤ 1 := by
+  have hA : 0 < Real.sqrt (x1 ^ 2 + y1 ^ 2 + z1 ^ 2) := Real.sqrt_pos.mpr h1
+  have hB : 0 < Real.sqrt (x2 ^ 2 + y2 ^ 2 + z2 ^ 2) := Real.sqrt_pos.mpr h2
+  have hAB : 0 < Real.sqrt (x1 ^ 2 + y1 ^ 2 + z1 ^ 2) * Real.sqrt (x2 ^ 2 + y2 ^ 2 + z2 ^ 2) := mul_pos hA hB
+  have hcs : (x1 * x2 + y1 * y2 + z1 * z2) ^ 2 ≤ (x1 ^ 2 + y1 ^ 2 + z1 ^ 2) * (x2 ^ 2 + y2 ^ 2 + z2 ^ 2) := by
+    nlinarith [sq_nonneg (x1 * y2 - x2 * y1), sq_nonneg (x1 * z2 - x2 * z1), sq_nonneg (y1 * z2 - y2 * z1)]
+  have habs : |x1 * x2 + y1 * y2 + z1 * z2| ≤
+      Real.sqrt (x1 ^ 2 + y1 ^ 2 + z1 ^ 2) * Real.sqrt (x2 ^ 2 + y2 ^ 2 + z2 ^ 2) := by
+    rw [← Real.sqrt_mul h1.le]; exact Real.abs_le_sqrt hcs
+  obtain ⟨hlo, hhi⟩ := abs_le.mp habs
+  rw [div_div]
+  constructor
+  · rw [le_div_iff₀ hAB]; linarith
+  · rw [div_le_one hAB]; exact hhi
+
+/-- Cartesian `deltaangle`: for two non-zero vectors the symbolic and the numeric backend agree, with no further hypothesis. -/
+theorem c08_spatial_deltaangle_cartesian (x1 y1 z1 x2 y2 z2 : ℝ)
+    (h1 : 0 < x1 ^ 2 + y1 ^ 2 + z1 ^ 2) (h2 : 0 < x2 ^ 2 + y2 ^ 2 + z2 ^ 2) :
+    VS.spatial_deltaangle.eval .xy .z .xy .z x1 y1 z1 x2 y2 z2 = VR.spatial_deltaangle.eval .xy .z .xy .z x1 y1 z1 x2 y2 z2 := by
+  have h := c08_cos_bounds x1 y1 z1 x2 y2 z2 h1 h2
+  refine c08_spatial_deltaangle .xy .z .xy .z x1 y1 z1 x2 y2 z2 ?_ ?_
+  · simpa only [VR.spatial_dot.eval, VR.spatial_mag.eval, VR.spatial_dot.xy_z_xy_z, VR.spatial_mag.xy_z, VR.spatial_mag2.xy_z] using h.1
+  · simpa only [VR.spatial_dot.eval, VR.spatial_mag.eval, VR.spatial_dot.xy_z_xy_z, VR.spatial_mag.xy_z, VR.spatial_mag2.xy_z] using h.2
+
+/-! ## the "sum is not spacelike" hypothesis of `add` is derivable for two canonical τ-vectors (Cartesian key) -/
+
+private theorem c08_t_xy_z_tau (x y z tau : ℝ) (h : 0 ≤ tau) :
+    VR.lorentz_t.xy_z_tau x y z tau = Real.sqrt (tau ^ 2 + (x ^ 2 + y ^ 2 + z ^ 2)) := by
+  simp only [VR.lorentz_t.xy_z_tau, VR.lorentz_t2.xy_z_tau, VR.lorentz_tau2.xy_z_tau, VR.spatial_mag2.xy_z, c08_copysign_sq h]
+  rw [max_eq_left (by positivity)]
+
+private theorem c08_triangle (x1 y1 z1 m1 x2 y2 z2 m2 : ℝ) :
+    (x1 + x2) ^ 2 + (y1 + y2) ^ 2 + (z1 + z2) ^ 2 ≤
+      (Real.sqrt (m1 ^ 2 + (x1 ^ 2 + y1 ^ 2 + z1 ^ 2)) + Real.sqrt (m2 ^ 2 + (x2 ^ 2 + y2 ^ 2 + z2 ^ 2))) ^ 2 := by
+  have e1 : Real.sqrt (m1 ^ 2 + (x1 ^ 2 + y1 ^ 2 + z1 ^ 2)) ^ 2 = m1 ^ 2 + (x1 ^ 2 + y1 ^ 2 + z1 ^ 2) := Real.sq_sqrt (by positivity)
+  have e2 : Real.sqrt (m2 ^ 2 + (x2 ^ 2 + y2 ^ 2 + z2 ^ 2)) ^ 2 = m2 ^ 2 + (x2 ^ 2 + y2 ^ 2 + z2 ^ 2) := Real.sq_sqrt (by positivity)
+  have hcs : (x1 * x2 + y1 * y2 + z1 * z2) ^ 2 ≤
+      (m1 ^ 2 + (x1 ^ 2 + y1 ^ 2 + z1 ^ 2)) * (m2 ^ 2 + (x2 ^ 2 + y2 ^ 2 + z2 ^ 2)) := by
+    nlinarith [sq_nonneg (x1 * y2 - x2 * y1), sq_nonneg (x1 * z2 - x2 * z1), sq_nonneg (y1 * z2 - y2 * z1),
+      sq_nonneg (m1 * m2), sq_nonneg (m1 * x2), sq_nonneg (m1 * y2), sq_nonneg (m1 * z2),
+      sq_nonneg (m2 * x1), sq_nonneg (m2 * y1), sq_nonneg (m2 * z1)]
+  have hdot : x1 * x2 + y1 * y2 + z1 * z2 ≤
+      Real.sqrt (m1 ^ 2 + (x1 ^ 2 + y1 ^ 2 + z1 ^ 2)) * Real.sqrt (m2 ^ 2 + (x2 ^ 2 + y2 ^ 2 + z2 ^ 2)) := by
+    rw [← Real.sqrt_mul (by positivity)]
+    exact (le_abs_self _).trans (Real.abs_le_sqrt hcs)
+  nlinarith [sq_nonneg m1, sq_nonneg m2]
+
+/-- Cartesian `(x, y, z, τ) + (x, y, z, τ)`: agreement needs only the two canonical-τ hypotheses. -/
+theorem c08_lorentz_add_cartesian_tau (x1 y1 z1 tau1 x2 y2 z2 tau2 : ℝ) (h1 : 0 ≤ tau1) (h2 : 0 ≤ tau2) :
+    VS.lorentz_add.eval .xy .z .tau .xy .z .tau x1 y1 z1 tau1 x2 y2 z2 tau2 =
+      VR.lorentz_add.eval .xy .z .tau .xy .z .tau x1 y1 z1 tau1 x2 y2 z2 tau2 := by
+  refine c08_lorentz_add .xy .z .tau .xy .z .tau x1 y1 z1 tau1 x2 y2 z2 tau2 h1 h2 (fun _ _ => ?_)
+  have hs : 0 ≤ VR.lorentz_tau2.xy_z_t (x1 + x2) (y1 + y2) (z1 + z2)
+      (VR.lorentz_t.xy_z_tau x1 y1 z1 tau1 + VR.lorentz_t.xy_z_tau x2 y2 z2 tau2) := by
+    rw [c08_t_xy_z_tau _ _ _ _ h1, c08_t_xy_z_tau _ _ _ _ h2]
+    simp only [VR.lorentz_tau2.xy_z_t, VR.spatial_mag2.xy_z]
+    linarith [c08_triangle x1 y1 z1 tau1 x2 y2 z2 tau2]
+  simp only [VR.lorentz_add.eval, VR.lorentz_add.k_xy_z_tau_xy_z_tau, VR.spatial_add.xy_z_xy_z, VR.lorentz_tau.xy_z_t]
+  rw [c08_copysign_sqrt_abs hs]; exact Real.sqrt_nonneg _
+
+/-! ## the hypotheses are satisfiable -/
+
+example : CanonTmp .tau 1 ∧ CanonTmp .t (-3) := ⟨by simp [CanonTmp], trivial⟩
+/-- a timelike `(x,y,z,t)` vector satisfies the hypothesis of `c08_lorentz_tau` / `c08_lorentz_gamma` -/
+example : 0 ≤ VR.lorentz_tau2.eval .xy .z .t 1 0 0 2 := by
+  simp only [VR.lorentz_tau2.eval, VR.lorentz_tau2.xy_z_t, VR.spatial_mag2.xy_z]; norm_num
+example : 0 ≤ VR.lorentz_tau2.eval .rhophi .eta .tau 1 0 0 2 := by
+  simp only [VR.lorentz_tau2.eval, VR.lorentz_tau2.rhophi_eta_tau]; rw [c08_copysign_sq (by norm_num)]; norm_num
+/-- the clamp hypothesis of `c08_spatial_deltaangle` at two orthogonal unit vectors -/
+example : -1 ≤ VR.spatial_dot.eval .xy .z .xy .z 1 0 0 0 1 0 / VR.spatial_mag.eval .xy .z 1 0 0 / VR.spatial_mag.eval .xy .z 0 1 0 ∧
+    VR.spatial_dot.eval .xy .z .xy .z 1 0 0 0 1 0 / VR.spatial_mag.eval .xy .z 1 0 0 / VR.spatial_mag.eval .xy .z 0 1 0 ≤ 1 := by
+  simp only [VR.spatial_dot.eval, VR.spatial_dot.xy_z_xy_z]; norm_num
+/-- the hypotheses of `c08_lorentz_add` (both operands τ-typed) at two particles at rest -/
+example : CanonTmp .tau 1 ∧ CanonTmp .tau 2 ∧ 0 ≤ (VR.lorentz_add.eval .xy .z .tau .xy .z .tau 0 0 0 1 0 0 0 2).2.2.2 := by
+  refine ⟨by simp [CanonTmp], by simp [CanonTmp], ?_⟩
+  rw [← c08_lorentz_add_cartesian_tau 0 0 0 1 0 0 0 2 (by norm_num) (by norm_num)]
+  simp only [VS.lorentz_add.eval, VS.lorentz_add.k_xy_z_tau_xy_z_tau, VS.lorentz_tau.xy_z_t]; exact Real.sqrt_nonneg _
+/-- boosts by gamma: `0 ≤ gamma` -/
+example : (0:ℝ) ≤ 2 ∧ CanonTmp .t 5 := ⟨by norm_num, trivial⟩
+
+/-! ## the hypotheses are needed (the symbolic backend's documented limitation, not a defect) -/
+
+/-- negative τ: the numeric `tau2` carries the sign of τ (`copysign(τ², τ) = -1`), the symbolic expression is `τ² = 1`. -/
+example : VS.lorentz_tau2.xy_z_tau 0 0 0 (-1) ≠ VR.lorentz_tau2.xy_z_tau 0 0 0 (-1) := by
+  simp only [VS.lorentz_tau2.xy_z_tau, VR.lorentz_tau2.xy_z_tau, VR.P.copysign]; norm_num
+
+/-- negative τ: the numeric `t2` is clamped at 0, the symbolic one is `τ² + |p|² = 1`. -/
+example : VS.lorentz_t2.xy_z_tau 0 0 0 (-1) ≠ VR.lorentz_t2.xy_z_tau 0 0 0 (-1) := by
+  simp only [VS.lorentz_t2.xy_z_tau, VR.lorentz_t2.xy_z_tau, VS.lorentz_tau2.xy_z_tau, VR.lorentz_tau2.xy_z_tau,
+    VS.spatial_mag2.xy_z, VR.spatial_mag2.xy_z, VR.P.copysign]; norm_num
+
+/-- spacelike `(1,0,0,0)`: the numeric `tau` is `-√|t²-|p|²| = -1`, the symbolic one is `+1`. -/
+example : VS.lorentz_tau.xy_z_t 1 0 0 0 ≠ VR.lorentz_tau.xy_z_t 1 0 0 0 := by
+  simp only [VS.lorentz_tau.xy_z_t, VR.lorentz_tau.xy_z_t, VS.lorentz_tau2.xy_z_t, VR.lorentz_tau2.xy_z_t,
+    VS.spatial_mag2.xy_z, VR.spatial_mag2.xy_z, VR.P.copysign]; norm_num
+
+/-- negative gamma: the numeric boost flips the direction (`copysign(√(γ²-1), γ)`), the symbolic one does not. -/
+example : (VS.lorentz_boostX_gamma.xy_z_t (-3) 0 0 0 1).1 ≠ (VR.lorentz_boostX_gamma.xy_z_t (-3) 0 0 0 1).1 := by
+  simp only [VS.lorentz_boostX_gamma.xy_z_t, VR.lorentz_boostX_gamma.xy_z_t, VS.planar_x.xy, VR.planar_x.xy, VR.P.copysign]
+  have h : 0 < Real.sqrt (|(-3:ℝ)| ^ 2 - 1) := Real.sqrt_pos.mpr (by norm_num)
+  rw [if_neg (by norm_num), abs_of_pos h]
+  intro he; linarith
 
 end C08
